@@ -1,5275 +1,122 @@
 /-
   TwigProofs.Lemmas.Lift — from token streams to rendered output (helpers for TwigProofs/Lift.lean).
+  Split into LiftBase (pipeline, fragment, padding, simulation between template stores), LiftStrip (empty text nodes
+  at render level), LiftLoc (locality of the expression parser), LiftSim (empty TEXT tokens at parse level).
 -/
-import TwigModel.Render
-import TwigProofs.Lemmas.Scan
-import TwigProofs.Lemmas.RenderInherit
+import TwigProofs.Lemmas.LiftBase
+import TwigProofs.Lemmas.LiftStrip
+import TwigProofs.Lemmas.LiftLoc
+import TwigProofs.Lemmas.LiftSim
+import TwigProofs.Lemmas.LiftText
+import TwigProofs.Lemmas.Fuel
+
 namespace Twig
-
-/-! ## `renderSrc` -/
-
-/-- the engine of `renderSrc`: one template, called `main` -/
-def mainName : Bytes := b "main"
-def envOf (nodes : List Node) : Env := { tpls := [(mainName, nodes)] }
-
-def projOut {α} : R (Bytes × α) → R Bytes
-  | .ok (o, _) => .ok o
-  | .error e => .error e
-
-/-- render a parsed template as the only template of an engine, keep the output -/
-def renderNodesTop (nodes : List Node) (vars : List (Bytes × Val)) : R Bytes :=
-  projOut (renderTop (envOf nodes) mainName vars)
-
-/-- `Parser.Parse` + `Engine.Render` on source bytes -/
-def renderSrc (src : Bytes) (vars : List (Bytes × Val)) : R Bytes := do
-  let nodes ← parseTemplate src
-  renderNodesTop nodes vars
-
-/-- the same pipeline with the tokenizer as a parameter -/
-def tokenizeWith (sc : Bytes → Except ScanErr (List Token)) (s : Bytes) : Except ScanErr (List Token) :=
-  match sc s with
-  | .ok ts => .ok (normalise (applyWs ts))
-  | .error e => .error e
-
-/-- `parseTemplate` after tokenization -/
-def parseTokens (ts : List Token) : R (List Node) := do
-  let (nodes, _) ← parseOuter (4 * ts.length + 16) ts
-  if hasDup (blockNamesL nodes) then perr "the block has already been defined" else pure nodes
-
-def parseTemplateWith (sc : Bytes → Except ScanErr (List Token)) (src : Bytes) : R (List Node) :=
-  match tokenizeWith sc src with
-  | .error _ => perr "tokenization error"
-  | .ok ts => parseTokens ts
-
-def renderSrcWith (sc : Bytes → Except ScanErr (List Token)) (src : Bytes) (vars : List (Bytes × Val)) : R Bytes := do
-  let nodes ← parseTemplateWith sc src
-  renderNodesTop nodes vars
-
 namespace Lift
 
-theorem tokenize_eq_with (s : Bytes) : tokenize s = tokenizeWith scan s := rfl
-theorem parseTemplate_eq_with (s : Bytes) : parseTemplate s = parseTemplateWith scan s := by
-  unfold parseTemplate parseTemplateWith parseTokens
-  rw [tokenize_eq_with]
-  cases tokenizeWith scan s <;> rfl
-theorem renderSrc_eq_with (s : Bytes) (vars : List (Bytes × Val)) : renderSrc s vars = renderSrcWith scan s vars := by
-  unfold renderSrc renderSrcWith; rw [parseTemplate_eq_with]
+/-! ## fuel adequacy of the template parser (from `TwigProofs.Lemmas.Fuel`, the C05 helpers) -/
 
-
-/-! ## `Except` plumbing, `parseOuter` on the token shapes of the scanner -/
-
-theorem bind_ok {ε α β} {x : Except ε α} {f : α → Except ε β} {b : β}
-    (h : (x >>= f) = .ok b) : ∃ a, x = .ok a ∧ f a = .ok b := by
-  cases x with
-  | error e => simp [bind, Except.bind] at h
-  | ok a => exact ⟨a, rfl, h⟩
-
-@[simp] theorem ok_bind {ε α β} (a : α) (f : α → Except ε β) : ((Except.ok a : Except ε α) >>= f) = f a := rfl
-@[simp] theorem error_bind {ε α β} (e : ε) (f : α → Except ε β) :
-    ((Except.error e : Except ε α) >>= f) = .error e := rfl
-@[simp] theorem pure_eq_ok {ε α} (a : α) : (pure a : Except ε α) = .ok a := rfl
-
-/-- a TEXT token becomes a text node and parsing continues -/
-theorem parseOuter_text (f : Nat) (v : Bytes) (r : List Token) :
-    parseOuter (f+1) (⟨TEXT, v⟩ :: r) =
-      (parseOuter f r >>= fun (x : List Node × List Token) => pure (.text v :: x.1, x.2)) := by
-  simp [parseOuter]
-
-theorem parseOuter_eof (f : Nat) (v : Bytes) (r : List Token) :
-    parseOuter (f+1) (⟨EOF, v⟩ :: r) = .ok ([], ⟨EOF, v⟩ :: r) := by
-  simp [parseOuter]
-
-theorem parseOuter_nil (f : Nat) : parseOuter (f+1) [] = .ok ([], []) := by
-  simp [parseOuter]
-
-/-- a comment group is skipped -/
-theorem parseOuter_comment (f : Nat) (v : Bytes) (cs : List Token) (e : Token) (r : List Token)
-    (hcs : ∀ c ∈ cs, c.kind ≠ COMMENT_END) (he : e.kind = COMMENT_END) :
-    parseOuter (f+1) (⟨COMMENT_START, v⟩ :: (cs ++ e :: r)) = parseOuter f r := by
-  have hd : List.dropWhile (fun x : Token => x.kind != COMMENT_END) (cs ++ e :: r) = e :: r := by
-    induction cs with
-    | nil => simp [he]
-    | cons c cs ih =>
-      have := hcs c (by simp)
-      simp [this]
-      exact ih (fun c hc => hcs c (by simp [hc]))
-  simp [parseOuter, hd, COMMENT_START, EOF, VAR_START, BLOCK_START, TEXT]
-
-
-
-theorem b_not : b "not" = [110, 111, 116] := by decide +kernel
-theorem b_true : b "true" = [116, 114, 117, 101] := by decide +kernel
-theorem b_false : b "false" = [102, 97, 108, 115, 101] := by decide +kernel
-theorem b_null : b "null" = [110, 117, 108, 108] := by decide +kernel
-theorem b_nil : b "nil" = [110, 105, 108] := by decide +kernel
-
-/-- names the expression parser does not read as a variable -/
-def reserved : List Bytes := [[110, 111, 116], [116, 114, 117, 101], [102, 97, 108, 115, 101], [110, 117, 108, 108], [110, 105, 108]]
-
-theorem reserved_eq : reserved = [b "not", b "true", b "false", b "null", b "nil"] := by
-  rw [b_not, b_true, b_false, b_null, b_nil]; rfl
-
-/-- a token at which every expression parser stops -/
-def StopTok (d : Token) : Prop := d.kind ≠ NAME ∧ d.kind ≠ OPERATOR ∧ d.kind ≠ PUNCT
-
-theorem stop_isP {d : Token} (h : StopTok d) (c : UInt8) : isP d c = false := by
-  simp [isP, h.2.2]
-
-theorem stop_peek {d : Token} (h : StopTok d) (r : List Token) : peekBinary (d :: r) = .none := by
-  simp [peekBinary, h.1, h.2.1]
-
-theorem parseExpression_var (f : Nat) (n : Bytes) (d : Token) (r : List Token)
-    (hn : n ∉ reserved) (hd : StopTok d) :
-    parseExpression (f+6) (⟨NAME, n⟩ :: d :: r) = .ok (.var n, d :: r) := by
-  have h1 : n ≠ b "not" ∧ n ≠ b "true" ∧ n ≠ b "false" ∧ n ≠ b "null" ∧ n ≠ b "nil" := by
-    rw [reserved_eq] at hn; simpa using hn
-  obtain ⟨h1, h2, h3, h4, h5⟩ := h1
-  simp [parseExpression, parseBinaryPrec, parseOperand, parseSimple, parseAttrs, parseSuffix, parseLoop,
-    stop_isP hd, stop_peek hd, isName, h1, h2, h3, h4, h5, NAME, OPERATOR, STRING, NUMBER]
-
-
-
-theorem parseOuter_pvar (f : Nat) (v0 v1 n : Bytes) (r : List Token) (hn : n ∉ reserved) :
-    parseOuter (f+1) (⟨VAR_START, v0⟩ :: ⟨NAME, n⟩ :: ⟨VAR_END, v1⟩ :: r) =
-      (parseOuter f r >>= fun (x : List Node × List Token) => pure (.print (.var n) :: x.1, x.2)) := by
-  have hs : StopTok ⟨VAR_END, v1⟩ := by simp [StopTok, VAR_END, NAME, OPERATOR, PUNCT]
-  have he : parseExpression (exprFuel (⟨NAME, n⟩ :: ⟨VAR_END, v1⟩ :: r)) (⟨NAME, n⟩ :: ⟨VAR_END, v1⟩ :: r) =
-      .ok (.var n, ⟨VAR_END, v1⟩ :: r) := by
-    have : exprFuel (⟨NAME, n⟩ :: ⟨VAR_END, v1⟩ :: r) = (8 * r.length + 26) + 6 := by
-      simp [exprFuel]; omega
-    rw [this]; exact parseExpression_var _ n _ r hn hs
-  rw [parseOuter]
-  simp only [he]
-  simp [expectK, VAR_START, EOF, TEXT, VAR_END]
-
-
-/-! ## lexing `{{ v }}` -/
-
-theorem all_u8 (P : UInt8 → Bool) (h : ∀ n : Fin 256, P (UInt8.ofNat n.val) = true) : ∀ c : UInt8, P c = true := by
-  intro c
-  have := h ⟨c.toNat, c.toNat_lt⟩
-  simpa using this
-
-/-- identifier: `[A-Za-z_][A-Za-z0-9_]*` -/
-def Ident : Bytes → Bool
-  | [] => false
-  | c :: r => isIdentStart c && r.all isIdentChar
-
-def AllSp (w : Bytes) : Bool := w.all isSpaceAscii
-
-theorem class_identChar : ∀ c : UInt8, (!isIdentChar c || (!isSpaceAscii c &&
-    uniSpaces.all (fun p => p.head? != some c) && uniSpaces.all (fun p => p.getLast? != some c))) = true :=
-  all_u8 _ (by decide +kernel)
-
-theorem class_identStart : ∀ c : UInt8, (!isIdentStart c || (isIdentChar c && !(c == 34 || c == 39) &&
-    !isOperatorCh c && !isPunctCh c && !isWs c)) = true :=
-  all_u8 _ (by decide +kernel)
-
-theorem find_uni_none (c : UInt8) (r : Bytes) (h : uniSpaces.all (fun p => p.head? != some c) = true) :
-    uniSpaces.find? (fun p => p.isPrefixOf (c :: r)) = none := by
-  rw [List.find?_eq_none]
-  intro p hp
-  have := (List.all_eq_true.mp h) p hp
-  cases p with
-  | nil => simp [uniSpaces] at hp
-  | cons a p' =>
-    simp at this
-    simp [List.isPrefixOf, this]
-
-
-theorem leadSpaceLen_zero (c : UInt8) (r : Bytes) (h1 : isSpaceAscii c = false)
-    (h : uniSpaces.all (fun p => p.head? != some c) = true) : leadSpaceLen (c :: r) = 0 := by
-  simp [leadSpaceLen, h1, find_uni_none c r h]
-
-theorem leadSpaceLen_sp (c : UInt8) (r : Bytes) (h1 : isSpaceAscii c = true) : leadSpaceLen (c :: r) = 1 := by
-  simp [leadSpaceLen, h1]
-
-theorem find_uni_rev_none (c : UInt8) (r : Bytes) (h : uniSpaces.all (fun p => p.getLast? != some c) = true) :
-    uniSpaces.find? (fun p => p.reverse.isPrefixOf (c :: r)) = none := by
-  rw [List.find?_eq_none]
-  intro p hp
-  have := (List.all_eq_true.mp h) p hp
-  rcases List.eq_nil_or_concat p with rfl | ⟨p', a, rfl⟩
-  · simp [uniSpaces] at hp
-  · simp at this
-    simp [List.isPrefixOf, this]
-
-theorem trailSpaceLen_zero (c : UInt8) (r : Bytes) (h1 : isSpaceAscii c = false)
-    (h : uniSpaces.all (fun p => p.getLast? != some c) = true) : trailSpaceLen (c :: r) = 0 := by
-  simp [trailSpaceLen, h1, find_uni_rev_none c r h]
-
-theorem trailSpaceLen_sp (c : UInt8) (r : Bytes) (h1 : isSpaceAscii c = true) : trailSpaceLen (c :: r) = 1 := by
-  simp [trailSpaceLen, h1]
-
-theorem trimLeftGo_pad (w x : Bytes) (hw : AllSp w = true) (hx : leadSpaceLen x = 0) :
-    ∀ fuel, w.length ≤ fuel → trimLeftGo fuel (w ++ x) = x := by
-  induction w with
-  | nil =>
-    intro fuel _
-    cases fuel with
-    | zero => rfl
-    | succ n => simp [trimLeftGo, hx]
-  | cons c w ih =>
-    intro fuel hf
-    simp [AllSp] at hw
-    cases fuel with
-    | zero => simp at hf
-    | succ n =>
-      have h1 := leadSpaceLen_sp c (w ++ x) hw.1
-      simp only [List.cons_append, trimLeftGo, h1]
-      simp
-      exact ih (by simpa [AllSp] using hw.2) n (by simpa using hf)
-
-theorem trimRightRev_pad (w x : Bytes) (hw : AllSp w = true) (hx : trailSpaceLen x = 0) :
-    ∀ fuel, w.length ≤ fuel → trimRightRev fuel (w ++ x) = x := by
-  induction w with
-  | nil =>
-    intro fuel _
-    cases fuel with
-    | zero => rfl
-    | succ n => simp [trimRightRev, hx]
-  | cons c w ih =>
-    intro fuel hf
-    simp [AllSp] at hw
-    cases fuel with
-    | zero => simp at hf
-    | succ n =>
-      have h1 := trailSpaceLen_sp c (w ++ x) hw.1
-      simp only [List.cons_append, trimRightRev, h1]
-      simp
-      exact ih (by simpa [AllSp] using hw.2) n (by simpa using hf)
-
-theorem allSp_reverse (w : Bytes) : AllSp w.reverse = AllSp w := by simp [AllSp]
-
-theorem takeWhile_all_self {α} (p : α → Bool) : ∀ (l : List α), l.all p = true → l.takeWhile p = l
-  | [], _ => rfl
-  | a :: l, h => by
-    simp only [List.all_cons, Bool.and_eq_true] at h
-    simp [List.takeWhile, h.1, takeWhile_all_self p l h.2]
-theorem dropWhile_all_nil {α} (p : α → Bool) : ∀ (l : List α), l.all p = true → l.dropWhile p = []
-  | [], _ => rfl
-  | a :: l, h => by
-    simp only [List.all_cons, Bool.and_eq_true] at h
-    simp [List.dropWhile, h.1, dropWhile_all_nil p l h.2]
-
-theorem identChar_facts {c : UInt8} (h : isIdentChar c = true) : isSpaceAscii c = false ∧
-    uniSpaces.all (fun p => p.head? != some c) = true ∧ uniSpaces.all (fun p => p.getLast? != some c) = true := by
-  have := class_identChar c
-  simp only [h, Bool.not_true, Bool.false_or, Bool.and_eq_true, Bool.not_eq_true'] at this
-  exact ⟨this.1.1, this.1.2, this.2⟩
-
-theorem trimSpaceGo_pad (w1 x w2 : Bytes) (h1 : AllSp w1 = true) (h2 : AllSp w2 = true)
-    (hne : x ≠ []) (hx : x.all isIdentChar = true) : trimSpaceGo (w1 ++ x ++ w2) = x := by
-  unfold trimSpaceGo
-  have e1 : trimLeftGo (w1 ++ x ++ w2).length (w1 ++ x ++ w2) = x ++ w2 := by
-    rw [List.append_assoc]
-    have hl' : leadSpaceLen (x ++ w2) = 0 := by
-      cases x with
-      | nil => exact absurd rfl hne
-      | cons c r =>
-        have hc := identChar_facts (c := c) (by simp at hx; exact hx.1)
-        exact leadSpaceLen_zero c _ hc.1 hc.2.1
-    exact trimLeftGo_pad w1 (x ++ w2) h1 hl' _ (by simp)
-  simp only [e1]
-  rw [List.reverse_append]
-  have hr' : trailSpaceLen x.reverse = 0 := by
-    rcases List.eq_nil_or_concat x with rfl | ⟨x', a, rfl⟩
-    · exact absurd rfl hne
-    · have hc := identChar_facts (c := a) (by simp at hx; exact hx.2)
-      simp only [List.concat_eq_append, List.reverse_append, List.reverse_cons, List.reverse_nil, List.nil_append,
-        List.singleton_append]
-      exact trailSpaceLen_zero a _ hc.1 hc.2.2
-  rw [trimRightRev_pad w2.reverse x.reverse (by rw [allSp_reverse]; exact h2) hr' _ (by simp)]
-  simp
-
-theorem lexAux_nil (fuel : Nat) (m : LexMode) (prev : Option UInt8) : lexAux fuel m prev [] = [] := by
-  cases fuel <;> simp [lexAux]
-
-theorem ident_all {v : Bytes} (h : Ident v = true) : v ≠ [] ∧ v.all isIdentChar = true := by
-  cases v with
-  | nil => simp [Ident] at h
-  | cons c r =>
-    simp only [Ident, Bool.and_eq_true] at h
-    have := class_identStart c
-    simp only [h.1, Bool.not_true, Bool.false_or, Bool.and_eq_true] at this
-    refine ⟨by simp, ?_⟩
-    simp only [List.all_cons, Bool.and_eq_true]
-    exact ⟨this.1.1.1.1, h.2⟩
-
-theorem lexExpr_ident {v : Bytes} (h : Ident v = true) : lexExpr v = [tk NAME v] := by
-  cases v with
-  | nil => simp [Ident] at h
-  | cons c r =>
-    simp only [Ident, Bool.and_eq_true] at h
-    have hc := class_identStart c
-    simp only [h.1, Bool.not_true, Bool.false_or, Bool.and_eq_true, Bool.not_eq_true', Bool.or_eq_false_iff] at hc
-    obtain ⟨⟨⟨⟨_, hq⟩, ho⟩, hp⟩, hw⟩ := hc
-    have ht : r.takeWhile isIdentChar = r := takeWhile_all_self _ r h.2
-    have hd : r.dropWhile isIdentChar = [] := dropWhile_all_nil _ r h.2
-    simp [lexExpr, lexAux, hq, ho, hp, hw, h.1, ht, hd, lexAux_nil]
-
-theorem contentTokens_pvar (w1 v w2 : Bytes) (h1 : AllSp w1 = true) (h2 : AllSp w2 = true) (hv : Ident v = true) :
-    contentTokens .var (w1 ++ v ++ w2) = [tk NAME v] := by
-  have ⟨hne, hall⟩ := ident_all hv
-  simp only [contentTokens]
-  rw [trimSpaceGo_pad w1 v w2 h1 h2 hne hall]
-  have : v.isEmpty = false := by cases v <;> simp_all
-  simp [this, lexExpr_ident hv]
-
-
-/-! ## rendering text / print-variable / verbatim nodes -/
-
-
-/-- values whose printing is `toStr` (everything except the two closure values, which never come from a context) -/
-def isPlain : Val → Bool
-  | .callable _ _ _ => false
-  | .parentFn => false
-  | _ => true
-
-def PlainVars (vars : List (Bytes × Val)) : Bool := vars.all (fun kv => isPlain kv.2)
-
-/-- `GetVariable` at the top level -/
-def lookupVar (vars : List (Bytes × Val)) (n : Bytes) : Val := (getKV n vars).getD .null
-
-theorem lookupVar_plain {vars : List (Bytes × Val)} (h : PlainVars vars = true) (n : Bytes) :
-    isPlain (lookupVar vars n) = true := by
-  unfold lookupVar getKV
-  cases hf : vars.find? (fun x => x.1 == n) with
-  | none => rfl
-  | some kv =>
-    have := List.mem_of_find?_eq_some hf
-    simpa using (List.all_eq_true.mp h) kv this
-
-/-- the spec side: what a node list of text / print-variable / verbatim nodes must output -/
-inductive Piece
-  | lit (s : Bytes)
-  | pvar (v : Bytes)
-  | verb (s : Bytes)
-
-def Piece.node : Piece → Node
-  | .lit s => .text s
-  | .pvar v => .print (.var v)
-  | .verb s => .verbatim s
-
-def Piece.out (vars : List (Bytes × Val)) : Piece → R Bytes
-  | .lit s => .ok s
-  | .pvar v => toStr (lookupVar vars v)
-  | .verb s => .ok s
-
-def outPieces (vars : List (Bytes × Val)) : List Piece → R Bytes
-  | [] => .ok []
-  | p :: r => do
-    let a ← p.out vars
-    let c ← outPieces vars r
-    .ok (a ++ c)
-
-/-- top-level-like state: no macros, no parent scopes -/
-def Flat (st : St) : Prop := st.ctx.macros = [] ∧ st.ctx.parents = []
-
-theorem getMacro_flat {st : St} (h : Flat st) (n : Bytes) : st.ctx.getMacro n = none := by
-  simp [Ctx.getMacro, h.1, h.2, getKV, scopesMacro]
-
-theorem getVar_flat {st : St} (h : Flat st) (n : Bytes) : st.ctx.getVar n = lookupVar st.ctx.vars n := by
-  unfold Ctx.getVar lookupVar
-  cases getKV n st.ctx.vars <;> simp [h.2, scopesVar]
-
-theorem printVal_plain (go : Go) {v : Val} (h : isPlain v = true) (st : St) :
-    printVal go v st = (toStr v >>= fun s => pure (s, st)) := by
-  cases v <;> simp [isPlain] at h <;> rfl
-
-/-- the printed variables hold plain values -/
-def Piece.plainIn (vars : List (Bytes × Val)) : Piece → Bool
-  | .pvar v => isPlain (lookupVar vars v)
-  | _ => true
-
-def PiecesPlain (vars : List (Bytes × Val)) (ps : List Piece) : Bool := ps.all (fun p => p.plainIn vars)
-
-theorem piecesPlain_of_plainVars {vars : List (Bytes × Val)} (h : PlainVars vars = true) (ps : List Piece) :
-    PiecesPlain vars ps = true := by
-  unfold PiecesPlain
-  rw [List.all_eq_true]
-  intro p _
-  cases p <;> simp [Piece.plainIn, lookupVar_plain h]
-
-theorem renderNode_piece (E : Env) (go : Go) (tpl : Bytes) (p : Piece) (st : St) (hf : Flat st)
-    (hg : E.globals = []) (hp : p.plainIn st.ctx.vars = true) :
-    renderNode E go tpl p.node st = (p.out st.ctx.vars >>= fun o => pure (o, st)) := by
-  cases p with
-  | lit s => rfl
-  | verb s => rfl
-  | pvar v =>
-    have he : ∀ ap, evalX E ap (.var v) st = .ok ((lookupVar st.ctx.vars v, []), st) := by
-      intro ap
-      simp only [evalX, getMacro_flat hf, getVar_flat hf, hg, getKV, List.find?, Option.map]
-      split <;> rfl
-    simp only [Piece.node, renderNode, he, Piece.out]
-    simp only [ok_bind]
-    exact printVal_plain go hp st
-
-theorem renderNodes_pieces (E : Env) (go : Go) (tpl : Bytes) (st : St) (hf : Flat st) (hg : E.globals = []) :
-    ∀ ps : List Piece,
-    PiecesPlain st.ctx.vars ps = true →
-    renderNodes E go tpl (ps.map Piece.node) st = (outPieces st.ctx.vars ps >>= fun o => pure (o, st))
-  | [], _ => rfl
-  | p :: ps, hp => by
-    simp only [PiecesPlain, List.all_cons, Bool.and_eq_true] at hp
-    simp only [List.map_cons, renderNodes, renderNode_piece E go tpl p st hf hg hp.1, outPieces]
-    cases p.out st.ctx.vars with
-    | error e => rfl
-    | ok a =>
-      simp only [ok_bind, pure_eq_ok, renderNodes_pieces E go tpl st hf hg ps hp.2]
-      cases outPieces st.ctx.vars ps <;> rfl
-
-theorem lastExtends_pieces : ∀ ps : List Piece, lastExtends (ps.map Piece.node) = none
-  | [] => rfl
-  | p :: ps => by cases p <;> simp [Piece.node, lastExtends, lastExtends_pieces ps]
-
-theorem blockNamesL_pieces : ∀ ps : List Piece, blockNamesL (ps.map Piece.node) = []
-  | [] => rfl
-  | p :: ps => by cases p <;> simp [Piece.node, blockNamesL, blockNames, blockNamesL_pieces ps]
-
-theorem tpl_envOf (nodes : List Node) : (envOf nodes).tpl? mainName = some nodes := by
-  simp [Env.tpl?, envOf]
-
-theorem renderNodesTop_pieces (ps : List Piece) (vars : List (Bytes × Val)) (hv : PiecesPlain vars ps = true) :
-    renderNodesTop (ps.map Piece.node) vars = outPieces vars ps := by
-  unfold renderNodesTop renderTop
-  simp only [tpl_envOf, defaultFuel, run, renderRoot, lastExtends_pieces]
-  rw [renderNodes_pieces _ _ _ _ ⟨rfl, rfl⟩ rfl ps hv]
-  cases outPieces vars ps <;> rfl
-
-
-
-/-! ## the fragment: literal chunks, comments, prints of a variable -/
-
-/-- the tag fragment of the output theorems: comments and prints of one variable -/
-inductive STag
-  | comment (c : Bytes)
-  | pvar (otrim : Bool) (w1 v w2 : Bytes) (ctrim : Bool)
-
-def STag.tag : STag → Tag
-  | .comment c => ⟨.comment, false, c, false⟩
-  | .pvar o w1 v w2 c => ⟨.var, o, w1 ++ v ++ w2, c⟩
-
-/-- whitespace padding around an identifier that is not a reserved word -/
-def STag.ok : STag → Bool
-  | .comment _ => true
-  | .pvar _ w1 v w2 _ => AllSp w1 && AllSp w2 && Ident v && !reserved.contains v
-
-def STag.pieces : STag → List Piece
-  | .comment _ => []
-  | .pvar _ _ v _ _ => [.pvar v]
-
-def STag.plain : STag → STag
-  | .comment c => .comment c
-  | .pvar _ w1 v w2 _ => .pvar false w1 v w2 false
-
-def STag.noDash : STag → Bool
-  | .comment _ => true
-  | .pvar o _ _ _ c => !o && !c
-
-def tagsOf (ps : List (Bytes × STag)) : List (Bytes × Tag) := ps.map fun lt => (lt.1, lt.2.tag)
-
-/-- the normalised tokens of a fragment tag -/
-def STag.group : STag → List Token
-  | .comment c => tk COMMENT_START :: ((if c.isEmpty then [] else [tk TEXT c]) ++ [tk COMMENT_END])
-  | .pvar _ _ v _ _ => [tk VAR_START, tk NAME v, tk VAR_END]
-
-theorem normalise_append (a c : List Token) : normalise (a ++ c) = normalise a ++ normalise c := by
-  simp [normalise]
-
-theorem norm_step (tn : Bool) (l : Bytes) (s : STag) (hs : s.ok = true) (E : List Token) :
-    normalise (applyWsAux tn (textTok l ++ s.tag.tokens ++ E)) =
-      (if l = [] then [] else [⟨TEXT, rtIf s.tag.opensTrim (ltIf tn l)⟩]) ++ s.group ++
-        normalise (applyWsAux s.tag.closesTrim E) := by
-  rw [applyWs_step]
-  simp only [normalise_append]
-  have h0 : normalise (if l = [] then [] else [⟨TEXT, rtIf s.tag.opensTrim (ltIf tn l)⟩]) =
-      (if l = [] then [] else [⟨TEXT, rtIf s.tag.opensTrim (ltIf tn l)⟩]) := by
-    split <;> rfl
-  rw [h0, List.append_assoc]
-  congr 1
-  cases s with
-  | comment c =>
-    simp only [STag.tag, STag.group, contentTokens]
-    by_cases hc : c.isEmpty <;> simp [hc, normalise, Tag.opener, Opener.startKind, endKind, tk, normKind,
-      COMMENT_START, COMMENT_END, TEXT, VAR_START_TRIM, VAR_END_TRIM, BLOCK_START_TRIM, BLOCK_END_TRIM]
-  | pvar o w1 v w2 c =>
-    simp only [STag.ok, Bool.and_eq_true] at hs
-    simp only [STag.tag, STag.group, contentTokens_pvar w1 v w2 hs.1.1.1 hs.1.1.2 hs.1.2]
-    cases o <;> cases c <;> rfl
-
-theorem parse_group (f : Nat) (s : STag) (hs : s.ok = true) (rest : List Token) :
-    parseOuter (f+1) (s.group ++ rest) =
-      (parseOuter f rest >>= fun (x : List Node × List Token) => pure (s.pieces.map Piece.node ++ x.1, x.2)) := by
-  cases s with
-  | comment c =>
-    simp only [STag.group, STag.pieces, List.map_nil, List.nil_append]
-    have := parseOuter_comment f [] (if c.isEmpty then [] else [tk TEXT c]) (tk COMMENT_END) rest
-      (by intro x hx; split at hx <;> simp at hx; subst hx; simp [tk, TEXT, COMMENT_END]) rfl
-    simp only [List.cons_append, List.append_assoc, List.nil_append]
-    rw [show tk COMMENT_START = (⟨COMMENT_START, []⟩ : Token) from rfl, this]
-    cases parseOuter f rest <;> rfl
-  | pvar o w1 v w2 c =>
-    simp only [STag.ok, Bool.and_eq_true] at hs
-    have hn : v ∉ reserved := by simpa using hs.2
-    exact parseOuter_pvar f [] [] v rest hn
-
-
-/-- the node list the parser must build (as pieces): trimmed chunks and printed variables -/
-def piecesOf : Bool → List (Bytes × STag) → Bytes → List Piece
-  | tn, [], last => if last = [] then [] else [.lit (ltIf tn last)]
-  | tn, (l, s) :: ps, last =>
-    (if l = [] then [] else [.lit (rtIf s.tag.opensTrim (ltIf tn l))]) ++ s.pieces ++
-      piecesOf s.tag.closesTrim ps last
-
-theorem tagsOf_nil : tagsOf [] = [] := rfl
-theorem tagsOf_cons (l : Bytes) (s : STag) (ps : List (Bytes × STag)) :
-    tagsOf ((l, s) :: ps) = (l, s.tag) :: tagsOf ps := rfl
-
-theorem normalise_eof : normalise [tk EOF] = [tk EOF] := rfl
-
-theorem parse_expected (last : Bytes) : ∀ (ps : List (Bytes × STag)), (∀ lt ∈ ps, lt.2.ok = true) →
-    ∀ (tn : Bool) (f : Nat), 2 * ps.length + 2 ≤ f →
-    parseOuter f (normalise (applyWsAux tn (expected (tagsOf ps) last))) =
-      .ok ((piecesOf tn ps last).map Piece.node, [tk EOF])
-  | [], _, tn, f, hf => by
-    obtain ⟨f', rfl⟩ : ∃ f', f = f' + 2 := ⟨f - 2, by simp at hf; omega⟩
-    simp only [tagsOf_nil, expected, piecesOf]
-    by_cases hl : last = []
-    · subst hl
-      rw [textTok_nil, List.nil_append, applyWsAux_other _ _ _ (by decide), applyWsAux_nil]
-      rw [normalise_eof]
-      exact parseOuter_eof _ _ _
-    · rw [textTok_ne hl, List.singleton_append, applyWsAux_text _ _ _ rfl,
-        applyWsAux_other _ _ _ (by decide), applyWsAux_nil]
-      have : normalise [⟨TEXT, rtIf (nextTrim [tk EOF]) (ltIf tn (tk TEXT last).val)⟩, tk EOF] =
-          ⟨TEXT, ltIf tn last⟩ :: [tk EOF] := rfl
-      rw [this, parseOuter_text, show tk EOF = (⟨EOF, []⟩ : Token) from rfl, parseOuter_eof]
-      simp [hl, Piece.node]
-  | (l, s) :: ps, hok, tn, f, hf => by
-    have hs : s.ok = true := hok (l, s) (by simp)
-    have hok' : ∀ lt ∈ ps, lt.2.ok = true := fun lt hm => hok lt (by simp [hm])
-    obtain ⟨f', rfl⟩ : ∃ f', f = f' + 2 := ⟨f - 2, by simp at hf; omega⟩
-    have hf' : 2 * ps.length + 2 ≤ f' := by simp at hf; omega
-    simp only [tagsOf_cons, expected]
-    rw [norm_step tn l s hs]
-    have ih := parse_expected last ps hok' s.tag.closesTrim
-    by_cases hl : l = []
-    · subst hl
-      simp only [if_true, List.nil_append, piecesOf]
-      rw [parse_group _ s hs, ih (f' + 1) (by omega)]
-      simp
-    · simp only [hl, if_false, List.cons_append, List.nil_append, piecesOf]
-      rw [parseOuter_text, parse_group _ s hs, ih f' hf']
-      simp [Piece.node]
-
-
-theorem tokens_length_ge (t : Tag) : 2 ≤ t.tokens.length := by
-  simp [Tag.tokens]
-
-theorem expected_length_ge : ∀ (ps : List (Bytes × Tag)) (last : Bytes), 2 * ps.length + 1 ≤ (expected ps last).length
-  | [], last => by simp [expected]
-  | (l, t) :: ps, last => by
-    have := expected_length_ge ps last
-    have := tokens_length_ge t
-    simp only [expected, List.length_append, List.length_cons]
-    omega
-
-theorem normalise_length (ts : List Token) : (normalise ts).length = ts.length := by simp [normalise]
-
-theorem parseTokens_expected (ps : List (Bytes × STag)) (last : Bytes) (hok : ∀ lt ∈ ps, lt.2.ok = true) :
-    parseTokens (normalise (applyWs (expected (tagsOf ps) last))) =
-      .ok ((piecesOf false ps last).map Piece.node) := by
+/-- `parseTokens` (the parser after tokenization) never reports the fuel error: `4·|ts|+16 ≥ |ts|+1` -/
+theorem parseTokens_ne_fuel (ts : List Token) : parseTokens ts ≠ .error .fuel := by
   unfold parseTokens
-  have hlen := expected_length_ge (tagsOf ps) last
-  have hl2 : (tagsOf ps).length = ps.length := by simp [tagsOf]
-  rw [applyWs, parse_expected last ps hok false _ (by
-    rw [normalise_length, applyWsAux_length]; omega)]
-  simp [blockNamesL_pieces, hasDup]
-
-theorem parseTemplate_spell (ps : List (Bytes × STag)) (last : Bytes)
-    (h : ∀ lt ∈ ps, Lit lt.1 ∧ WfTag lt.2.tag ∧ lt.2.ok = true) (hlast : NoOpener last) :
-    parseTemplate (spell (tagsOf ps) last) = .ok ((piecesOf false ps last).map Piece.node) := by
-  have hsc : scanOpt (spell (tagsOf ps) last) = .ok (expected (tagsOf ps) last) :=
-    scanOpt_chunks _ _ (by
-      intro lt hm
-      simp only [tagsOf, List.mem_map] at hm
-      obtain ⟨x, hx, rfl⟩ := hm
-      exact ⟨(h x hx).1, (h x hx).2.1⟩) hlast
-  unfold parseTemplate tokenize
-  rw [scan_eq_scanOpt, hsc]
-  exact parseTokens_expected ps last (fun lt hm => (h lt hm).2.2)
-
-theorem renderSrc_spell (ps : List (Bytes × STag)) (last : Bytes) (vars : List (Bytes × Val))
-    (h : ∀ lt ∈ ps, Lit lt.1 ∧ WfTag lt.2.tag ∧ lt.2.ok = true) (hlast : NoOpener last)
-    (hp : PiecesPlain vars (piecesOf false ps last) = true) :
-    renderSrc (spell (tagsOf ps) last) vars = outPieces vars (piecesOf false ps last) := by
-  unfold renderSrc
-  rw [parseTemplate_spell ps last h hlast]
-  exact renderNodesTop_pieces _ vars hp
-
-
-/-! ### the output, spelled out -/
-
-/-- what a fragment tag contributes to the output -/
-def STag.value (vars : List (Bytes × Val)) : STag → R Bytes
-  | .comment _ => .ok []
-  | .pvar _ _ v _ _ => toStr (lookupVar vars v)
-
-/-- literal chunks interleaved with the tags' values (no trimming) -/
-def interleaveOut (vars : List (Bytes × Val)) : List (Bytes × STag) → Bytes → R Bytes
-  | [], last => .ok last
-  | (l, s) :: ps, last => do
-    let v ← s.value vars
-    let r ← interleaveOut vars ps last
-    .ok (l ++ v ++ r)
-
-/-- the same with the trimming requested by dashes -/
-def outOf (vars : List (Bytes × Val)) : Bool → List (Bytes × STag) → Bytes → R Bytes
-  | tn, [], last => .ok (ltIf tn last)
-  | tn, (l, s) :: ps, last => do
-    let v ← s.value vars
-    let r ← outOf vars s.tag.closesTrim ps last
-    .ok (rtIf s.tag.opensTrim (ltIf tn l) ++ v ++ r)
-
-theorem outPieces_append (vars : List (Bytes × Val)) : ∀ (a c : List Piece),
-    outPieces vars (a ++ c) = (outPieces vars a >>= fun x => outPieces vars c >>= fun y => .ok (x ++ y))
-  | [], c => by cases h : outPieces vars c <;> simp [outPieces, h]
-  | p :: a, c => by
-    simp only [List.cons_append, outPieces, outPieces_append vars a c]
-    cases p.out vars with
-    | error e => rfl
-    | ok x =>
-      simp only [ok_bind]
-      cases outPieces vars a with
-      | error e => rfl
-      | ok y =>
-        simp only [ok_bind]
-        cases outPieces vars c <;> simp
-
-theorem outPieces_lit_opt (vars : List (Bytes × Val)) (l x : Bytes) (hx : l = [] → x = []) :
-    outPieces vars (if l = [] then [] else [.lit x]) = .ok x := by
-  by_cases hl : l = []
-  · simp [hl, outPieces, hx hl]
-  · simp [hl, outPieces, Piece.out]
-
-theorem ltIf_nil (c : Bool) : ltIf c [] = [] := by cases c <;> rfl
-
-theorem outPieces_stag (vars : List (Bytes × Val)) (s : STag) : outPieces vars s.pieces = s.value vars := by
-  cases s with
-  | comment c => rfl
-  | pvar o w1 v w2 c =>
-    simp only [STag.pieces, outPieces, Piece.out, STag.value]
-    cases toStr (lookupVar vars v) <;> simp
-
-theorem outPieces_piecesOf (vars : List (Bytes × Val)) (last : Bytes) : ∀ (ps : List (Bytes × STag)) (tn : Bool),
-    outPieces vars (piecesOf tn ps last) = outOf vars tn ps last
-  | [], tn => by
-    simp only [piecesOf, outOf]
-    exact outPieces_lit_opt vars last _ (fun h => by rw [h, ltIf_nil])
-  | (l, s) :: ps, tn => by
-    simp only [piecesOf, outOf, outPieces_append, outPieces_piecesOf vars last ps, outPieces_stag]
-    rw [outPieces_lit_opt vars l _ (fun h => by rw [h, trims_nil])]
-    simp only [ok_bind]
-    cases s.value vars with
-    | error e => rfl
-    | ok v =>
-      simp only [ok_bind]
-
-theorem noDash_trims {s : STag} (h : s.noDash = true) : s.tag.opensTrim = false ∧ s.tag.closesTrim = false := by
-  cases s with
-  | comment c => exact ⟨rfl, rfl⟩
-  | pvar o w1 v w2 c =>
-    simp only [STag.noDash, Bool.and_eq_true, Bool.not_eq_true'] at h
-    simp [STag.tag, Tag.opensTrim, Tag.closesTrim, h.1, h.2]
-
-theorem outOf_noDash (vars : List (Bytes × Val)) (last : Bytes) : ∀ (ps : List (Bytes × STag)),
-    (∀ lt ∈ ps, lt.2.noDash = true) → outOf vars false ps last = interleaveOut vars ps last
-  | [], _ => rfl
-  | (l, s) :: ps, h => by
-    have h1 := noDash_trims (h (l, s) (by simp))
-    simp only [outOf, interleaveOut, h1.1, h1.2]
-    rw [outOf_noDash vars last ps (fun lt hm => h lt (by simp [hm]))]
-    rfl
-
-/-- the hand-trimmed, dash-free template (fragment version of `undashPairs`) -/
-def undashS : Bool → List (Bytes × STag) → List (Bytes × STag)
-  | _, [] => []
-  | tn, (l, s) :: ps => (rtIf s.tag.opensTrim (ltIf tn l), s.plain) :: undashS s.tag.closesTrim ps
-
-theorem plain_tag (s : STag) : s.plain.tag = s.tag.plain := by cases s <;> rfl
-theorem plain_ok (s : STag) : s.plain.ok = s.ok := by cases s <;> rfl
-theorem plain_noDash (s : STag) : s.plain.noDash = true := by cases s <;> rfl
-theorem plain_value (vars : List (Bytes × Val)) (s : STag) : s.plain.value vars = s.value vars := by cases s <;> rfl
-
-theorem tagsOf_undashS : ∀ (tn : Bool) (ps : List (Bytes × STag)),
-    tagsOf (undashS tn ps) = undashPairs tn (tagsOf ps)
-  | _, [] => rfl
-  | tn, (l, s) :: ps => by
-    simp only [undashS, tagsOf_cons, undashPairs, plain_tag, tagsOf_undashS _ ps]
-
-theorem undashS_noDash : ∀ (tn : Bool) (ps : List (Bytes × STag)), ∀ lt ∈ undashS tn ps, lt.2.noDash = true
-  | _, [], lt, h => by simp [undashS] at h
-  | tn, (l, s) :: ps, lt, h => by
-    simp only [undashS, List.mem_cons] at h
-    rcases h with rfl | h
-    · exact plain_noDash s
-    · exact undashS_noDash _ ps lt h
-
-theorem outOf_undash (vars : List (Bytes × Val)) (last : Bytes) : ∀ (ps : List (Bytes × STag)) (tn : Bool),
-    outOf vars tn ps last = interleaveOut vars (undashS tn ps) (undashLast tn (tagsOf ps) last)
-  | [], tn => rfl
-  | (l, s) :: ps, tn => by
-    simp only [outOf, undashS, interleaveOut, plain_value, outOf_undash vars last ps]
-    rfl
-
-
-
-/-! ## verbatim -/
-
-/-- node lists made of text and verbatim nodes only, as pieces -/
-def tvPieces : List Node → Option (List Piece)
-  | [] => some []
-  | .text s :: r => (tvPieces r).map (Piece.lit s :: ·)
-  | .verbatim s :: r => (tvPieces r).map (Piece.verb s :: ·)
-  | _ => none
-
-def onlyTV (nodes : List Node) : Bool := (tvPieces nodes).isSome
-
-/-- the bytes such a node list holds -/
-def tvBytes : List Node → Bytes
-  | [] => []
-  | .text s :: r => s ++ tvBytes r
-  | .verbatim s :: r => s ++ tvBytes r
-  | _ :: r => tvBytes r
-
-theorem tvPieces_spec : ∀ (nodes : List Node) (ps : List Piece), tvPieces nodes = some ps →
-    nodes = ps.map Piece.node ∧ (∀ vars, PiecesPlain vars ps = true) ∧ (∀ vars, outPieces vars ps = .ok (tvBytes nodes))
-  | [], ps, h => by
-    simp only [tvPieces, Option.some.injEq] at h; subst h
-    exact ⟨rfl, fun _ => rfl, fun _ => rfl⟩
-  | .text s :: r, ps, h => by
-    simp only [tvPieces, Option.map_eq_some_iff] at h
-    obtain ⟨ps', h', rfl⟩ := h
-    obtain ⟨h1, h2, h3⟩ := tvPieces_spec r ps' h'
-    refine ⟨by rw [h1]; simp [Piece.node], fun vars => ?_, fun vars => ?_⟩
-    · simpa [PiecesPlain, Piece.plainIn] using h2 vars
-    · simp [outPieces, Piece.out, h3 vars, tvBytes]
-  | .verbatim s :: r, ps, h => by
-    simp only [tvPieces, Option.map_eq_some_iff] at h
-    obtain ⟨ps', h', rfl⟩ := h
-    obtain ⟨h1, h2, h3⟩ := tvPieces_spec r ps' h'
-    refine ⟨by rw [h1]; simp [Piece.node], fun vars => ?_, fun vars => ?_⟩
-    · simpa [PiecesPlain, Piece.plainIn] using h2 vars
-    · simp [outPieces, Piece.out, h3 vars, tvBytes]
-  | .print _ :: _, _, h | .ifN _ _ _ :: _, _, h | .forN _ _ _ _ _ :: _, _, h | .setN _ _ :: _, _, h
-  | .doN _ :: _, _, h | .block _ _ :: _, _, h | .extends _ :: _, _, h | .include _ _ _ _ _ _ :: _, _, h
-  | .macro _ _ _ _ _ :: _, _, h | .importN _ _ :: _, _, h | .fromN _ _ :: _, _, h | .apply _ _ :: _, _, h
-  | .spaceless _ :: _, _, h => by simp [tvPieces] at h
-
-theorem renderNodesTop_onlyTV (nodes : List Node) (h : onlyTV nodes = true) (vars : List (Bytes × Val)) :
-    renderNodesTop nodes vars = .ok (tvBytes nodes) := by
-  unfold onlyTV at h
-  obtain ⟨ps, hps⟩ := Option.isSome_iff_exists.mp h
-  obtain ⟨h1, h2, h3⟩ := tvPieces_spec nodes ps hps
-  rw [h1, renderNodesTop_pieces ps vars (h2 vars), h3 vars, ← h1]
-
-
-
-def verbOpen : Tag := ⟨.block, false, b " verbatim ", false⟩
-def verbClose : Tag := ⟨.block, false, b " endverbatim ", false⟩
-
-theorem verbOpen_tokens : verbOpen.tokens = [tk BLOCK_START, tk NAME (b "verbatim"), tk BLOCK_END] := by decide +kernel
-theorem verbClose_tokens : verbClose.tokens = [tk BLOCK_START, tk NAME (b "endverbatim"), tk BLOCK_END] := by decide +kernel
-theorem verbOpen_text : verbOpen.text = b "{% verbatim %}" := by decide +kernel
-theorem verbClose_text : verbClose.text = b "{% endverbatim %}" := by decide +kernel
-theorem verb_wf : WfTag verbOpen ∧ WfTag verbClose := by decide +kernel
-
-theorem parseTag_verbatim (f : Nat) (ts : List Token) :
-    parseTag (f+1) (b "verbatim") ts = (do
-      let r1 ← expectK BLOCK_END "expected block end after verbatim tag" ts
-      let (s, r2) ← verbBody (r1.length + 1) r1
-      pure (.verbatim s, r2)) := by
-  unfold parseTag
-  simp only [show (b "verbatim" == b "if") = false from by decide +kernel,
-    show (b "verbatim" == b "for") = false from by decide +kernel,
-    show (b "verbatim" == b "set") = false from by decide +kernel,
-    show (b "verbatim" == b "do") = false from by decide +kernel,
-    show (b "verbatim" == b "block") = false from by decide +kernel,
-    show (b "verbatim" == b "extends") = false from by decide +kernel,
-    show (b "verbatim" == b "include") = false from by decide +kernel,
-    show (b "verbatim" == b "macro") = false from by decide +kernel,
-    show (b "verbatim" == b "import") = false from by decide +kernel,
-    show (b "verbatim" == b "from") = false from by decide +kernel,
-    show (b "verbatim" == b "apply") = false from by decide +kernel,
-    show (b "verbatim" == b "spaceless") = false from by decide +kernel,
-    show (b "verbatim" == b "verbatim") = true from by decide +kernel]
-  simp
-
-/-- the body of `{% verbatim %}` when it is one literal chunk (possibly empty) -/
-theorem verbBody_lit (f : Nat) (body : Bytes) (rest : List Token) :
-    verbBody (f+2) (textTok body ++ tk BLOCK_START :: tk NAME (b "endverbatim") :: tk BLOCK_END :: rest) =
-      .ok (body, rest) := by
-  have hend : isName ⟨NAME, b "endverbatim"⟩ "endverbatim" = true := by simp [isName]
-  have h0 : ∀ g, verbBody (g+1) (tk BLOCK_START :: tk NAME (b "endverbatim") :: tk BLOCK_END :: rest) = .ok ([], rest) := by
-    intro g
-    simp [verbBody, tk, hend, expectK]
-  by_cases hb : body = []
-  · subst hb; rw [textTok_nil, List.nil_append]; exact h0 _
-  · rw [textTok_ne hb, List.singleton_append]
-    rw [verbBody]
-    simp [tk, TEXT, BLOCK_START]
-    have := h0 f
-    simp only [tk] at this
-    rw [this]
-    simp
-
-
-
-theorem parseOuter_verbatim (f : Nat) (body : Bytes) (rest : List Token) :
-    parseOuter (f+2) (tk BLOCK_START :: tk NAME (b "verbatim") :: tk BLOCK_END ::
-        (textTok body ++ tk BLOCK_START :: tk NAME (b "endverbatim") :: tk BLOCK_END :: rest)) =
-      (parseOuter (f+1) rest >>= fun (x : List Node × List Token) => pure (.verbatim body :: x.1, x.2)) := by
-  have hc : endTagNames.contains (b "verbatim") = false := by decide +kernel
-  have hlen : ∃ g, (textTok body ++ tk BLOCK_START :: tk NAME (b "endverbatim") :: tk BLOCK_END :: rest).length + 1 = g + 2 :=
-    ⟨(textTok body).length + rest.length + 2, by simp; omega⟩
-  obtain ⟨g, hg⟩ := hlen
-  rw [parseOuter]
-  simp only [tk, BLOCK_START, EOF, TEXT, VAR_START, NAME]
-  simp only [show ((3 : Nat) == 12) = false from rfl, show ((3 : Nat) == 0) = false from rfl,
-    show ((3 : Nat) == 1) = false from rfl, show ((3 : Nat) == 3) = true from rfl,
-    show ((7 : Nat) != 7) = false from rfl, Bool.false_eq_true, if_false, if_true, hc]
-  rw [parseTag_verbatim]
-  simp only [expectK, BLOCK_END, show ((4 : Nat) == 4) = true from rfl, if_true, ok_bind]
-  have := verbBody_lit g body rest
-  simp only [tk, BLOCK_START, NAME, BLOCK_END] at this hg
-  rw [hg, this]
-  rfl
-
-
-
-theorem normalise_inert (X : List Token) (hX : ∀ t ∈ X, ExprKind t.kind) : normalise X = X := by
-  induction X with
-  | nil => rfl
-  | cons t X ih =>
-    have := normKind_expr (hX t (by simp))
-    simp only [normalise, List.map_cons] at ih ⊢
-    rw [ih (fun u hu => hX u (by simp [hu])), this]
-
-theorem normalise_textTok (l : Bytes) : normalise (textTok l) = textTok l := by
-  by_cases h : l = []
-  · subst h; rfl
-  · rw [textTok_ne h]; rfl
-
-theorem normalise_content (t : Tag) : normalise (contentTokens t.kind t.body) = contentTokens t.kind t.body := by
-  by_cases hk : t.kind = .comment
-  · rw [hk]; simp only [contentTokens]; split <;> rfl
-  · exact normalise_inert _ (contentTokens_kinds hk t.body)
-
-/-- on a template without dashes `ApplyWhitespaceControl` and the kind normalisation change nothing -/
-theorem plain_stream (last : Bytes) : ∀ (ps : List (Bytes × Tag)),
-    (∀ lt ∈ ps, lt.2.otrim = false ∧ lt.2.ctrim = false) →
-    normalise (applyWsAux false (expected ps last)) = expected ps last
-  | [], _ => by
-    simp only [expected]
-    by_cases h : last = []
-    · subst h; rfl
-    · rw [textTok_ne h, List.singleton_append, applyWsAux_text _ _ _ rfl]; rfl
-  | (l, t) :: ps, h => by
-    have ht : t.otrim = false ∧ t.ctrim = false := h (l, t) (by simp)
-    have ho : t.opensTrim = false := by simp [Tag.opensTrim, ht.1]
-    have hc : t.closesTrim = false := by simp [Tag.closesTrim, ht.2]
-    have hp : t.plain = t := by
-      rcases t with ⟨k, o, bd, c⟩; simp only at ht; simp [Tag.plain, ht.1, ht.2]
-    simp only [expected]
-    rw [applyWs_step, ho, hc]
-    simp only [normalise_append, plain_stream last ps (fun lt hm => h lt (by simp [hm])), normalise_content]
-    have h1 : normalise (if l = [] then [] else [⟨TEXT, rtIf false (ltIf false l)⟩]) = textTok l := by
-      by_cases hl : l = []
-      · subst hl; rfl
-      · rw [if_neg hl, textTok_ne hl]; rfl
-    have h2 : normalise [tk t.opener.startKind] = [tk t.opener.startKind] := by
-      have := normKind_startKind t
-      rw [hp] at this
-      simp [normalise, tk, this]
-    have h3 : normalise [tk (endKind t.kind t.ctrim)] = [tk (endKind t.kind t.ctrim)] := by
-      have := normKind_endKind t.kind t.ctrim
-      rw [ht.2] at this ⊢
-      simp [normalise, tk, this]
-    rw [h1, h2, h3]
-    simp [Tag.tokens]
-
-/-- `l₁ {% verbatim %} body {% endverbatim %} l₂` with literal chunks parses to text, verbatim, text -/
-theorem parseTemplate_verbatim (l1 body l2 : Bytes) (h1 : Lit l1) (hb : Lit body) (h2 : NoOpener l2) :
-    parseTemplate (l1 ++ b "{% verbatim %}" ++ (body ++ b "{% endverbatim %}" ++ l2)) =
-      .ok ((if l1 = [] then [] else [.text l1]) ++ .verbatim body :: (if l2 = [] then [] else [.text l2])) := by
-  have hsp : l1 ++ b "{% verbatim %}" ++ (body ++ b "{% endverbatim %}" ++ l2) =
-      spell [(l1, verbOpen), (body, verbClose)] l2 := by
-    simp only [spell, verbOpen_text, verbClose_text]
-  have hsc := scanOpt_chunks [(l1, verbOpen), (body, verbClose)] l2 (by
-    intro lt hm
-    simp only [List.mem_cons, List.not_mem_nil, or_false] at hm
-    rcases hm with rfl | rfl
-    · exact ⟨h1, verb_wf.1⟩
-    · exact ⟨hb, verb_wf.2⟩) h2
-  unfold parseTemplate tokenize
-  rw [hsp, scan_eq_scanOpt, hsc]
-  simp only
-  rw [applyWs, plain_stream l2 _ (by
-    intro lt hm
-    simp only [List.mem_cons, List.not_mem_nil, or_false] at hm
-    rcases hm with rfl | rfl <;> exact ⟨rfl, rfl⟩)]
-  simp only [expected, verbOpen_tokens, verbClose_tokens]
-  generalize hF : 4 * (textTok l1 ++ [tk BLOCK_START, tk NAME (b "verbatim"), tk BLOCK_END] ++
-      (textTok body ++ [tk BLOCK_START, tk NAME (b "endverbatim"), tk BLOCK_END] ++ (textTok l2 ++ [tk EOF]))).length + 16 = F
-  obtain ⟨g, rfl⟩ : ∃ g, F = g + 4 := ⟨F - 4, by omega⟩
-  have htail : ∀ k, parseOuter (k + 2) (textTok l2 ++ [tk EOF]) = .ok ((if l2 = [] then [] else [.text l2]), [tk EOF]) := by
-    intro k
-    by_cases hl : l2 = []
-    · subst hl; exact parseOuter_eof _ _ _
-    · rw [textTok_ne hl, List.singleton_append, show tk TEXT l2 = (⟨TEXT, l2⟩ : Token) from rfl, parseOuter_text,
-        show tk EOF = (⟨EOF, []⟩ : Token) from rfl, parseOuter_eof]
-      simp [hl]
-  have hmid : ∀ k, parseOuter (k + 3) ([tk BLOCK_START, tk NAME (b "verbatim"), tk BLOCK_END] ++
-      (textTok body ++ [tk BLOCK_START, tk NAME (b "endverbatim"), tk BLOCK_END] ++ (textTok l2 ++ [tk EOF]))) =
-      .ok (.verbatim body :: (if l2 = [] then [] else [.text l2]), [tk EOF]) := by
-    intro k
-    have := parseOuter_verbatim (k + 1) body (textTok l2 ++ [tk EOF])
-    simp only [List.cons_append, List.nil_append, List.append_assoc] at this ⊢
-    rw [this, htail k]
-    rfl
-  by_cases hl1 : l1 = []
-  · subst hl1
-    rw [textTok_nil, List.nil_append, hmid (g + 1)]
-    simp [blockNamesL, blockNames]
-    split <;> simp [blockNamesL, blockNames, hasDup]
-  · rw [textTok_ne hl1, List.singleton_append, List.cons_append, show tk TEXT l1 = (⟨TEXT, l1⟩ : Token) from rfl,
-      parseOuter_text, hmid g]
-    simp [hl1, blockNamesL, blockNames]
-    split <;> simp [blockNamesL, blockNames, hasDup]
-
-
-
-/-! ## fuel monotonicity of the template parser; padding in front of a template -/
-
-/-! ## fuel order -/
-
-def FLe {α} (x y : R α) : Prop := x = .error .fuel ∨ x = y
-
-theorem FLe.refl {α} (x : R α) : FLe x x := .inr rfl
-theorem FLe.fuel {α} (y : R α) : FLe (.error .fuel) y := .inl rfl
-
-theorem FLe.trans {α} {x y z : R α} (h1 : FLe x y) (h2 : FLe y z) : FLe x z := by
-  rcases h1 with h1 | h1
-  · exact .inl h1
-  · subst h1; exact h2
-
-theorem FLe.bind {α β} {x x' : R α} {k k' : α → R β} (hx : FLe x x') (hk : ∀ a, FLe (k a) (k' a)) :
-    FLe (x >>= k) (x' >>= k') := by
-  rcases hx with hx | hx
-  · subst hx; exact .inl rfl
-  · subst hx
-    cases x with
-    | error e => exact .inr rfl
-    | ok a => exact hk a
-
-theorem FLe.ite {α} {c : Prop} [Decidable c] {a a' b b' : R α} (h1 : c → FLe a a') (h2 : ¬c → FLe b b') :
-    FLe (if c then a else b) (if c then a' else b') := by
-  by_cases h : c
-  · simp only [h, if_true]; exact h1 h
-  · simp only [h, if_false]; exact h2 h
-
-theorem FLe.eq_of_ne {α} {x y : R α} (h : FLe x y) (hne : x ≠ .error .fuel) : y = x := by
-  rcases h with h | h
-  · exact absurd h hne
-  · exact h.symm
-
-structure TMonoAt (f : Nat) : Prop where
-  outer : ∀ ts, FLe (parseOuter f ts) (parseOuter (f+1) ts)
-  tag : ∀ n ts, FLe (parseTag f n ts) (parseTag (f+1) n ts)
-  ifTail : ∀ h ts, FLe (parseIfTail f h ts) (parseIfTail (f+1) h ts)
-  incl : ∀ o ts, FLe (parseIncludeOpts f o ts) (parseIncludeOpts (f+1) o ts)
-  braces : ∀ ts, FLe (parseWithBraces f ts) (parseWithBraces (f+1) ts)
-  plain : ∀ ts, FLe (parseWithPlain f ts) (parseWithPlain (f+1) ts)
-  params : ∀ ts, FLe (parseMacroParams f ts) (parseMacroParams (f+1) ts)
-  names : ∀ ts, FLe (parseFromNames f ts) (parseFromNames (f+1) ts)
-
-theorem tmonoAt_zero : TMonoAt 0 := by
-  constructor <;> intros <;> exact .inl (by simp [parseOuter, parseTag, parseIfTail, parseIncludeOpts,
-    parseWithBraces, parseWithPlain, parseMacroParams, parseFromNames])
-
-macro "tfle" ih:ident : tactic => `(tactic| repeat' first
-  | exact FLe.refl _
-  | exact TMonoAt.outer $ih _ | exact TMonoAt.tag $ih _ _ | exact TMonoAt.ifTail $ih _ _
-  | exact TMonoAt.incl $ih _ _ | exact TMonoAt.braces $ih _ | exact TMonoAt.plain $ih _
-  | exact TMonoAt.params $ih _ | exact TMonoAt.names $ih _
-  | refine FLe.bind ?_ (fun ⟨_, _⟩ => ?_)
-  | refine FLe.bind ?_ (fun _ => ?_)
-  | refine FLe.ite (fun _ => ?_) (fun _ => ?_)
-  | split
-  | dsimp only)
-
-theorem tmonoAt_succ (f : Nat) (ih : TMonoAt f) : TMonoAt (f+1) where
-  outer ts := by
-    cases ts with
-    | nil => exact .inr (by simp [parseOuter])
-    | cons t r => unfold parseOuter; dsimp only; tfle ih
-  tag n ts := by
-    unfold parseTag; dsimp only
-    iterate 9 (refine FLe.ite (fun _ => ?_) (fun _ => ?_); · tfle ih)
-    refine FLe.ite (fun _ => ?_) (fun _ => ?_)
-    · -- `from`: the only handler that inspects a sub-result with an explicit `match`
-      split
-      · split
-        · rename_i p i r1 hcond
-          rcases TMonoAt.names ih r1 with h | h
-          · rw [h]; exact .inl rfl
-          · rw [h]; exact .inr rfl
-        · exact FLe.refl _
-      · exact FLe.refl _
-    · tfle ih
-  ifTail h ts := by unfold parseIfTail; tfle ih
-  incl o ts := by unfold parseIncludeOpts; tfle ih
-  braces ts := by unfold parseWithBraces; tfle ih
-  plain ts := by unfold parseWithPlain; tfle ih
-  params ts := by unfold parseMacroParams; tfle ih
-  names ts := by unfold parseFromNames; tfle ih
-
-
-
-theorem tmonoAt : ∀ f, TMonoAt f
-  | 0 => tmonoAt_zero
-  | f+1 => tmonoAt_succ f (tmonoAt f)
-
-theorem FLe.chain {α} (g : Nat → R α) (h : ∀ f, FLe (g f) (g (f+1))) : ∀ {f f'}, f ≤ f' → FLe (g f) (g f') := by
-  intro f f' hle
-  induction hle with
-  | refl => exact FLe.refl _
-  | step _ ih => exact ih.trans (h _)
-
-/-- more fuel never changes a non-fuel result of `parseOuter` (a node list or a genuine parse error) -/
-theorem parseOuter_mono {f f' : Nat} {ts : List Token} (hne : parseOuter f ts ≠ .error .fuel) (hle : f ≤ f') :
-    parseOuter f' ts = parseOuter f ts :=
-  (FLe.chain (parseOuter · ts) (fun f => (tmonoAt f).outer ts) hle).eq_of_ne hne
-
-/-! ## padding in front of a template -/
-
-theorem fo_comment_trim : ∀ (s : Bytes) (i : Nat) (o : Opener), findOpenerOpt s = some (i, o) →
-    o.kind = .comment → o.trim = false := by
-  intro s
-  induction s using findOpenerOpt.induct with
-  | case1 r => intro i o h hk; simp [findOpenerOpt] at h; obtain ⟨_, rfl⟩ := h; cases hk
-  | case2 r => intro i o h hk; simp [findOpenerOpt] at h; obtain ⟨_, rfl⟩ := h; cases hk
-  | case3 r => intro i o h hk; simp [findOpenerOpt] at h; obtain ⟨_, rfl⟩ := h; rfl
-  | case4 c r h1 h2 h3 ih =>
-    intro i o h hk
-    rw [findOpenerOpt] at h
-    · cases hf : findOpenerOpt r with
-      | none => simp [hf] at h
-      | some io =>
-        obtain ⟨j, o'⟩ := io
-        simp [hf] at h
-        obtain ⟨_, rfl⟩ := h
-        exact ih j o' hf hk
-    all_goals (intros; simp_all)
-  | case5 => intro i o h; simp [findOpenerOpt] at h
-
-
-
-/-- does the template begin with a dashed opener (`{{-`, `{%-`)? -/
-def dashedStart (s : Bytes) : Bool :=
-  match findOpenerOpt s with
-  | some (_, o) => o.trim
-  | none => false
-
-/-- the head of the token stream of a template that starts with a tag -/
-theorem scanOpt_head_start {s : Bytes} (h : TagOrEnd s) {ts : List Token} (hs : scanOpt s = .ok ts) :
-    ts ≠ [] ∧ nextTrim ts = dashedStart s ∧ ∀ t r, ts = t :: r → t.kind ≠ TEXT := by
-  rcases h with rfl | h
-  · rw [scanOpt_nil] at hs; cases hs
-    refine ⟨by simp, rfl, ?_⟩
-    intro t r e; cases e; decide
-  · cases hf : findOpenerOpt s with
-    | none => simp [hf] at h
-    | some io =>
-      obtain ⟨i, o⟩ := io
-      simp only [hf, Option.map_some, Option.some.injEq] at h
-      subst h
-      have hs0 : s ≠ [] := by intro h0; subst h0; simp [findOpenerOpt] at hf
-      have hb : ¬ (0 > 0 ∧ (s.drop (0 - 1)).head? = some 92) := by intro ⟨h, _⟩; omega
-      rw [scanOpt_eq_scanF] at hs
-      cases hg : tagEndOpt o.kind (List.drop (0 + o.len) s) with
-      | none => rw [scanF_tag_none _ _ hs0 hf hb hg] at hs; cases hs
-      | some te =>
-        rw [scanF_tag _ _ hs0 hf (by omega) hb hg] at hs
-        cases hr : scanF findOpenerOpt tagEndOpt (List.drop te.consumed (List.drop (0 + o.len) s)) with
-        | error e => rw [hr] at hs; cases hs
-        | ok ts' =>
-          rw [hr] at hs
-          simp only [mapOk_ok, List.take_zero, textTok_nil, List.nil_append, Except.ok.injEq] at hs
-          subst hs
-          refine ⟨by simp, ?_, ?_⟩
-          · simp only [nextTrim, dashedStart, hf, tk]
-            have hc := fo_comment_trim s 0 o hf
-            rcases o with ⟨k, t⟩
-            cases k <;> cases t <;> simp_all [Opener.startKind, isStartTrim] <;> decide
-          · intro t r e
-            injection e with e1 e2
-            rw [← e1]; exact o.startKind_ne_text
-
-theorem blockNamesL_text (v : Bytes) (ns : List Node) : blockNamesL (.text v :: ns) = blockNamesL ns := by
-  simp [blockNamesL, blockNames]
-
-/-- `Except.map` on parse results -/
-def mapNodes (F : List Node → List Node) : R (List Node) → R (List Node)
-  | .ok ns => .ok (F ns)
-  | .error e => .error e
-
-/-- Literal padding `p` in front of a template that begins with a tag (or is empty): the parse is the parse of
-    the template with one more text node in front — holding `p`, minus its trailing whitespace if the first tag
-    has a dashed opener. -/
-theorem parseTemplate_pad {p : Bytes} (hp : Lit p) (hne : p ≠ []) {s : Bytes} (hs : TagOrEnd s)
-    (hfuel : parseTemplate s ≠ .error .fuel) :
-    parseTemplate (p ++ s) = mapNodes (fun ns => .text (rtIf (dashedStart s) p) :: ns) (parseTemplate s) := by
-  have hsc : scanOpt (p ++ s) = mapOk (fun ts => tk TEXT p :: ts) (scanOpt s) := by
-    rw [scanOpt_pad_front hp hs, textTok_ne hne]; rfl
-  unfold parseTemplate tokenize at hfuel ⊢
-  rw [scan_eq_scanOpt] at hfuel ⊢
-  rw [scan_eq_scanOpt, hsc]
-  cases hr : scanOpt s with
-  | error e => rfl
-  | ok ts =>
-    rw [hr] at hfuel
-    obtain ⟨_, hnt, _⟩ := scanOpt_head_start hs hr
-    simp only [mapOk_ok] at hfuel ⊢
-    have hX : normalise (applyWs (tk TEXT p :: ts)) =
-        ⟨TEXT, rtIf (dashedStart s) p⟩ :: normalise (applyWs ts) := by
-      rw [applyWs, applyWsAux_text _ _ _ rfl, hnt]; rfl
-    rw [hX]
-    generalize normalise (applyWs ts) = X at hfuel ⊢
-    have hnf : parseOuter (4 * X.length + 16) X ≠ .error .fuel := by
-      intro h; rw [h] at hfuel; exact hfuel rfl
-    have hfu : 4 * (⟨TEXT, rtIf (dashedStart s) p⟩ :: X).length + 16 = (4 * X.length + 19) + 1 := by
-      simp only [List.length_cons]; omega
-    rw [hfu, parseOuter_text, parseOuter_mono hnf (by omega)]
-    cases parseOuter (4 * X.length + 16) X with
-    | error e => rfl
-    | ok x =>
-      obtain ⟨ns, r⟩ := x
-      simp only [ok_bind, pure_eq_ok, blockNamesL_text]
-      split <;> rfl
-
-
-
-/-! ## expression evaluation does not look at the template store -/
-
-def Env.withTpls (E : Env) (T : List (Bytes × List Node)) : Env := { E with tpls := T }
-
-theorem applyFilter_env (E : Env) (T) (n : Bytes) (v : Val) (a : List Val) (st : St) :
-    applyFilter (Env.withTpls E T) n v a st = applyFilter E n v a st := rfl
-theorem callFunction_env (E : Env) (T) (n : Bytes) (a : List Val) (st : St) :
-    callFunction (Env.withTpls E T) n a st = callFunction E n a st := rfl
-theorem allowedCheck_env (E : Env) (T) (st : St) (al : List Bytes) (n : Bytes) (w : String) :
-    allowedCheck (Env.withTpls E T) st al n w = allowedCheck E st al n w := rfl
-theorem invokeSpy_env (E : Env) (T) (k : CbKind) (n : Bytes) (st : St) :
-    invokeSpy (Env.withTpls E T) k n st = invokeSpy E k n st := rfl
-
-theorem applyChain_env (E : Env) (T) : ∀ (ch : List (Bytes × List Val)) (v : Val) (st : St),
-    applyChain (Env.withTpls E T) ch v st = applyChain E ch v st
-  | [], v, st => rfl
-  | (n, a) :: r, v, st => by
-    simp only [applyChain, applyFilter_env]
-    congr 1
-    funext x
-    exact applyChain_env E T r x.1 x.2
-
-mutual
-theorem evalX_env (E : Env) (T) : ∀ (e : Expr) (ap : Bool) (st : St),
-    evalX (Env.withTpls E T) ap e st = evalX E ap e st
-  | .null, ap, st => rfl
-  | .bool _, ap, st => rfl
-  | .int _, ap, st => rfl
-  | .str _, ap, st => rfl
-  | .unsup _, ap, st => rfl
-  | .var n, ap, st => rfl
-  | .unary op e, ap, st => by simp only [evalX, evalX_env E T e]
-  | .binary op l r, ap, st => by simp only [evalX, evalX_env E T l, evalX_env E T r]
-  | .badBinary l r, ap, st => by simp only [evalX, evalX_env E T l, evalX_env E T r]
-  | .cond c t f, ap, st => by simp only [evalX, evalX_env E T c, evalX_env E T t, evalX_env E T f]
-  | .attr e name, ap, st => by simp only [evalX, evalX_env E T e]
-  | .item e i, ap, st => by simp only [evalX, evalX_env E T e, evalX_env E T i]
-  | .filter e name args, ap, st => by
-    simp only [evalX, evalX_env E T e, evalArgs_env E T args, applyChain_env, allowedCheck_env]
-    rfl
-  | .call name args, ap, st => by
-    simp only [evalX, evalArgs_env E T args, callFunction_env, allowedCheck_env]
-    rfl
-  | .mcall obj name args, ap, st => by
-    simp only [evalX, evalX_env E T obj, evalArgs_env E T args, callFunction_env, allowedCheck_env]
-    rfl
-  | .test (.attr obj a) name args, ap, st => by
-    simp only [evalX, evalX_env E T obj, evalArgs_env E T args, invokeSpy_env]
-    rfl
-  | .test (.var n) name args, ap, st => by
-    simp only [evalX, evalArgs_env E T args, invokeSpy_env]
-    rfl
-  | .test (.null) name args, ap, st => by
-    rw [evalX.eq_18 (Env.withTpls E T) ap st (.null) name args (by intro _ _ h; cases h) (by intro _ h; cases h),
-      evalX.eq_18 E ap st (.null) name args (by intro _ _ h; cases h) (by intro _ h; cases h), evalX_env E T (.null)]
-    simp only [evalArgs_env E T args, invokeSpy_env]
-    rfl
-  | .test (.bool v) name args, ap, st => by
-    rw [evalX.eq_18 (Env.withTpls E T) ap st (.bool v) name args (by intro _ _ h; cases h) (by intro _ h; cases h),
-      evalX.eq_18 E ap st (.bool v) name args (by intro _ _ h; cases h) (by intro _ h; cases h), evalX_env E T (.bool v)]
-    simp only [evalArgs_env E T args, invokeSpy_env]
-    rfl
-  | .test (.int i) name args, ap, st => by
-    rw [evalX.eq_18 (Env.withTpls E T) ap st (.int i) name args (by intro _ _ h; cases h) (by intro _ h; cases h),
-      evalX.eq_18 E ap st (.int i) name args (by intro _ _ h; cases h) (by intro _ h; cases h), evalX_env E T (.int i)]
-    simp only [evalArgs_env E T args, invokeSpy_env]
-    rfl
-  | .test (.str s) name args, ap, st => by
-    rw [evalX.eq_18 (Env.withTpls E T) ap st (.str s) name args (by intro _ _ h; cases h) (by intro _ h; cases h),
-      evalX.eq_18 E ap st (.str s) name args (by intro _ _ h; cases h) (by intro _ h; cases h), evalX_env E T (.str s)]
-    simp only [evalArgs_env E T args, invokeSpy_env]
-    rfl
-  | .test (.unsup w) name args, ap, st => by
-    rw [evalX.eq_18 (Env.withTpls E T) ap st (.unsup w) name args (by intro _ _ h; cases h) (by intro _ h; cases h),
-      evalX.eq_18 E ap st (.unsup w) name args (by intro _ _ h; cases h) (by intro _ h; cases h), evalX_env E T (.unsup w)]
-    simp only [evalArgs_env E T args, invokeSpy_env]
-    rfl
-  | .test (.unary op x) name args, ap, st => by
-    rw [evalX.eq_18 (Env.withTpls E T) ap st (.unary op x) name args (by intro _ _ h; cases h) (by intro _ h; cases h),
-      evalX.eq_18 E ap st (.unary op x) name args (by intro _ _ h; cases h) (by intro _ h; cases h), evalX_env E T (.unary op x)]
-    simp only [evalArgs_env E T args, invokeSpy_env]
-    rfl
-  | .test (.binary op l r) name args, ap, st => by
-    rw [evalX.eq_18 (Env.withTpls E T) ap st (.binary op l r) name args (by intro _ _ h; cases h) (by intro _ h; cases h),
-      evalX.eq_18 E ap st (.binary op l r) name args (by intro _ _ h; cases h) (by intro _ h; cases h), evalX_env E T (.binary op l r)]
-    simp only [evalArgs_env E T args, invokeSpy_env]
-    rfl
-  | .test (.badBinary l r) name args, ap, st => by
-    rw [evalX.eq_18 (Env.withTpls E T) ap st (.badBinary l r) name args (by intro _ _ h; cases h) (by intro _ h; cases h),
-      evalX.eq_18 E ap st (.badBinary l r) name args (by intro _ _ h; cases h) (by intro _ h; cases h), evalX_env E T (.badBinary l r)]
-    simp only [evalArgs_env E T args, invokeSpy_env]
-    rfl
-  | .test (.cond c t f) name args, ap, st => by
-    rw [evalX.eq_18 (Env.withTpls E T) ap st (.cond c t f) name args (by intro _ _ h; cases h) (by intro _ h; cases h),
-      evalX.eq_18 E ap st (.cond c t f) name args (by intro _ _ h; cases h) (by intro _ h; cases h), evalX_env E T (.cond c t f)]
-    simp only [evalArgs_env E T args, invokeSpy_env]
-    rfl
-  | .test (.item x i) name args, ap, st => by
-    rw [evalX.eq_18 (Env.withTpls E T) ap st (.item x i) name args (by intro _ _ h; cases h) (by intro _ h; cases h),
-      evalX.eq_18 E ap st (.item x i) name args (by intro _ _ h; cases h) (by intro _ h; cases h), evalX_env E T (.item x i)]
-    simp only [evalArgs_env E T args, invokeSpy_env]
-    rfl
-  | .test (.filter x nm as) name args, ap, st => by
-    rw [evalX.eq_18 (Env.withTpls E T) ap st (.filter x nm as) name args (by intro _ _ h; cases h) (by intro _ h; cases h),
-      evalX.eq_18 E ap st (.filter x nm as) name args (by intro _ _ h; cases h) (by intro _ h; cases h), evalX_env E T (.filter x nm as)]
-    simp only [evalArgs_env E T args, invokeSpy_env]
-    rfl
-  | .test (.call nm as) name args, ap, st => by
-    rw [evalX.eq_18 (Env.withTpls E T) ap st (.call nm as) name args (by intro _ _ h; cases h) (by intro _ h; cases h),
-      evalX.eq_18 E ap st (.call nm as) name args (by intro _ _ h; cases h) (by intro _ h; cases h), evalX_env E T (.call nm as)]
-    simp only [evalArgs_env E T args, invokeSpy_env]
-    rfl
-  | .test (.mcall o nm as) name args, ap, st => by
-    rw [evalX.eq_18 (Env.withTpls E T) ap st (.mcall o nm as) name args (by intro _ _ h; cases h) (by intro _ h; cases h),
-      evalX.eq_18 E ap st (.mcall o nm as) name args (by intro _ _ h; cases h) (by intro _ h; cases h), evalX_env E T (.mcall o nm as)]
-    simp only [evalArgs_env E T args, invokeSpy_env]
-    rfl
-  | .test (.test x nm as) name args, ap, st => by
-    rw [evalX.eq_18 (Env.withTpls E T) ap st (.test x nm as) name args (by intro _ _ h; cases h) (by intro _ h; cases h),
-      evalX.eq_18 E ap st (.test x nm as) name args (by intro _ _ h; cases h) (by intro _ h; cases h), evalX_env E T (.test x nm as)]
-    simp only [evalArgs_env E T args, invokeSpy_env]
-    rfl
-  | .test (.array xs) name args, ap, st => by
-    rw [evalX.eq_18 (Env.withTpls E T) ap st (.array xs) name args (by intro _ _ h; cases h) (by intro _ h; cases h),
-      evalX.eq_18 E ap st (.array xs) name args (by intro _ _ h; cases h) (by intro _ h; cases h), evalX_env E T (.array xs)]
-    simp only [evalArgs_env E T args, invokeSpy_env]
-    rfl
-  | .test (.hash xs) name args, ap, st => by
-    rw [evalX.eq_18 (Env.withTpls E T) ap st (.hash xs) name args (by intro _ _ h; cases h) (by intro _ h; cases h),
-      evalX.eq_18 E ap st (.hash xs) name args (by intro _ _ h; cases h) (by intro _ h; cases h), evalX_env E T (.hash xs)]
-    simp only [evalArgs_env E T args, invokeSpy_env]
-    rfl
-  | .array items, ap, st => by simp only [evalX, evalArgs_env E T items]
-  | .hash items, ap, st => by simp only [evalX, evalPairs_env E T items]
-
-theorem evalArgs_env (E : Env) (T) : ∀ (es : List Expr) (st : St),
-    evalArgs (Env.withTpls E T) es st = evalArgs E es st
-  | [], st => rfl
-  | e :: es, st => by simp only [evalArgs, evalX_env E T e, evalArgs_env E T es]
-
-theorem evalPairs_env (E : Env) (T) : ∀ (es : List Expr) (st : St),
-    evalPairs (Env.withTpls E T) es st = evalPairs E es st
-  | [], st => rfl
-  | [_], st => rfl
-  | k :: v :: es, st => by simp only [evalPairs, evalX_env E T k, evalX_env E T v, evalPairs_env E T es]
-end
-
-
-/-! ## templates that never transfer to a template root; simulation between two template stores -/
-
-mutual
-/-- no `extends` / `include` / `import` / `from` anywhere in the node -/
-def NX : Node → Bool
-  | .text _ => true
-  | .print _ => true
-  | .setN _ _ => true
-  | .doN _ => true
-  | .verbatim _ => true
-  | .ifN _ t e => NXL t && NXL e
-  | .forN _ _ _ bd e => NXL bd && NXL e
-  | .block _ bd => NXL bd
-  | .macro _ _ _ _ bd => NXL bd
-  | .apply _ bd => NXL bd
-  | .spaceless bd => NXL bd
-  | .extends _ => false
-  | .include _ _ _ _ _ _ => false
-  | .importN _ _ => false
-  | .fromN _ _ => false
-def NXL : List Node → Bool
-  | [] => true
-  | n :: r => NX n && NXL r
-end
-
-/-- every block body the context knows is free of root transfers -/
-def InvC (c : Ctx) : Prop :=
-  (∀ kv ∈ c.blockDefs, ∀ d ∈ kv.2, NXL d.body = true) ∧ (∀ d ∈ c.chain, NXL d.body = true)
-
-def TrOK : Transfer → Prop
-  | .root _ => False
-  | .body _ ns => NXL ns = true
-  | .macroCall _ _ _ => True
-
-theorem invC_of_core {c c' : Ctx} (h : Inh.core c' = Inh.core c) (hi : InvC c) : InvC c' := by
-  unfold InvC
-  rw [Inh.core_blockDefs h, Inh.core_chain h]; exact hi
-
-theorem invC_of_ctx_eq {c c' : Ctx} (h : c' = c) (hi : InvC c) : InvC c' := by rw [h]; exact hi
-
-theorem bind_congr_ok {ε α β} {x : Except ε α} {k k' : α → Except ε β} (h : ∀ a, x = .ok a → k a = k' a) :
-    (x >>= k) = (x >>= k') := by
-  cases x with
-  | error e => rfl
-  | ok a => exact h a rfl
-
-/-- two transfer functions that agree on body and macro transfers (in contexts satisfying the invariant) -/
-structure GoSim (go' go : Go) : Prop where
-  eq : ∀ tr st, TrOK tr → InvC st.ctx → go' tr st = go tr st
-  fr : Inh.GoFr go
-
-theorem printVal_sim {go' go : Go} (hs : GoSim go' go) (v : Val) (st : St) (hi : InvC st.ctx) :
-    printVal go' v st = printVal go v st := by
-  unfold printVal
-  split
-  · exact hs.eq _ _ trivial hi
-  · split
-    · rfl
-    · dsimp only
-      split
-      · rfl
-      · rename_i d r hd
-        have hmem : d ∈ st.ctx.chain := by
-          have : d ∈ List.drop (st.ctx.level + 1) st.ctx.chain := by rw [hd]; simp
-          exact List.mem_of_mem_drop this
-        rw [hs.eq (.body d.tpl d.body) _ (hi.2 d hmem) (by exact hi)]
-  · rfl
-
-theorem loopOver_congr {f' f : St → R Out} (hf : ∀ s, InvC s.ctx → f' s = f s)
-    (hfr : ∀ s o s', f s = .ok (o, s') → InvC s.ctx → InvC s'.ctx) (kv : Option Bytes) (vv : Bytes) (n : Nat) :
-    ∀ (items : List (Val × Val)) (i : Nat) (st : St), InvC st.ctx →
-      loopOver f' kv vv n i items st = loopOver f kv vv n i items st
-  | [], i, st, _ => rfl
-  | (k, v) :: r, i, st, hi => by
-    cases kv with
-    | none =>
-      simp only [loopOver]
-      have hc : InvC ({ st with ctx := (st.ctx.setVar vv v).setVar (b "loop") (loopMeta i n) } : St).ctx := hi
-      rw [hf _ hc]
-      apply bind_congr_ok
-      intro a ha
-      have h1 := hfr _ a.1 a.2 ha hc
-      rw [loopOver_congr hf hfr none vv n r (i + 1) a.2 h1]
-    | some kk =>
-      simp only [loopOver]
-      have hc : InvC ({ st with ctx := ((st.ctx.setVar vv v).setVar kk k).setVar (b "loop") (loopMeta i n) } : St).ctx := hi
-      rw [hf _ hc]
-      apply bind_congr_ok
-      intro a ha
-      have h1 := hfr _ a.1 a.2 ha hc
-      rw [loopOver_congr hf hfr (some kk) vv n r (i + 1) a.2 h1]
-
-
-theorem block_sim (E' E : Env) {go' go : Go} (hs : GoSim go' go) (tpl name : Bytes) (body : List Node) (st : St)
-    (hb : NXL body = true) (hi : InvC st.ctx) :
-    renderNode E' go' tpl (.block name body) st = renderNode E go tpl (.block name body) st := by
-  rw [Inh.block_eq, Inh.block_eq]
-  have hdefs : ∀ d ∈ (getKV name st.ctx.blockDefs).getD [], NXL d.body = true := by
-    intro d hd
-    unfold getKV at hd
-    cases hf : st.ctx.blockDefs.find? (fun x => x.1 == name) with
-    | none => simp [hf] at hd
-    | some kv =>
-      simp only [hf, Option.map_some, Option.getD_some] at hd
-      exact hi.1 kv (List.mem_of_find?_eq_some hf) d hd
-  generalize (getKV name st.ctx.blockDefs).getD [] = defs at hdefs
-  have hchain : ∀ d ∈ Inh.specChain tpl name body defs, NXL d.body = true := by
-    intro d hd
-    unfold Inh.specChain at hd
-    split at hd
-    · exact hdefs d hd
-    · rcases List.mem_append.mp hd with h | h
-      · exact hdefs d h
-      · simp only [List.mem_singleton] at h; rw [h]; exact hb
-  have hhead : NXL ((Inh.specChain tpl name body defs).headD ⟨tpl, name, body⟩).body = true := by
-    cases hc : Inh.specChain tpl name body defs with
-    | nil => exact hb
-    | cons d r => exact hchain d (by rw [hc]; simp)
-  have hinv : InvC (Inh.blockSt st (Inh.specChain tpl name body defs)).ctx := ⟨hi.1, hchain⟩
-  rw [hs.eq (.body _ _) _ hhead hinv]
-
-mutual
-theorem renderNode_sim (E : Env) (T : List (Bytes × List Node)) {go' go : Go} (hs : GoSim go' go) (tpl : Bytes) :
-    ∀ (n : Node) (st : St), NX n = true → InvC st.ctx →
-      renderNode (Env.withTpls E T) go' tpl n st = renderNode E go tpl n st
-  | .text s, st, _, _ => rfl
-  | .verbatim s, st, _, _ => rfl
-  | .print e, st, _, hi => by
-    simp only [renderNode, evalX_env]
-    apply bind_congr_ok
-    intro a ha
-    exact printVal_sim hs _ _ (invC_of_ctx_eq (Inh.evalX_ctx E e _ _ _ _ ha) hi)
-  | .ifN c t e, st, hn, hi => by
-    simp only [NX, Bool.and_eq_true] at hn
-    simp only [renderNode, evalX_env]
-    apply bind_congr_ok
-    intro a ha
-    have h1 := invC_of_ctx_eq (Inh.evalX_ctx E c _ _ _ _ ha) hi
-    split
-    · exact renderNodes_sim E T hs tpl t _ hn.1 h1
-    · exact renderNodes_sim E T hs tpl e _ hn.2 h1
-  | .forN key val seq body els, st, hn, hi => by
-    simp only [NX, Bool.and_eq_true] at hn
-    simp only [renderNode, evalX_env]
-    apply bind_congr_ok
-    intro a ha
-    have h1 := invC_of_ctx_eq (Inh.evalX_ctx E seq _ _ _ _ ha) hi
-    apply bind_congr_ok
-    intro items _
-    split
-    · exact renderNodes_sim E T hs tpl els _ hn.2 h1
-    · exact renderNodes_sim E T hs tpl els _ hn.2 h1
-    · rw [loopOver_congr (f' := fun s => renderNodes (Env.withTpls E T) go' tpl body s)
-        (f := fun s => renderNodes E go tpl body s)
-        (fun s hs' => renderNodes_sim E T hs tpl body s hn.1 hs')
-        (fun s o s' h hs' => invC_of_core (Inh.renderNodes_fr E hs.fr tpl body s o s' h) hs') _ _ _ _ _ _ h1]
-  | .setN name e, st, _, _ => by simp only [renderNode, evalX_env]
-  | .doN e, st, _, _ => by simp only [renderNode, evalX_env]
-  | .block name body, st, hn, hi => block_sim _ E hs tpl name body st (by simpa [NX] using hn) hi
-  | .extends e, st, hn, _ => by simp [NX] at hn
-  | .include _ _ _ _ _ _, st, hn, _ => by simp [NX] at hn
-  | .macro _ _ _ _ _, st, _, _ => rfl
-  | .importN _ _, st, hn, _ => by simp [NX] at hn
-  | .fromN _ _, st, hn, _ => by simp [NX] at hn
-  | .apply filter body, st, hn, hi => by
-    simp only [renderNode, applyFilter_env]
-    rw [renderNodes_sim E T hs tpl body st (by simpa [NX] using hn) hi]
-  | .spaceless _, st, _, _ => rfl
-
-theorem renderNodes_sim (E : Env) (T : List (Bytes × List Node)) {go' go : Go} (hs : GoSim go' go) (tpl : Bytes) :
-    ∀ (ns : List Node) (st : St), NXL ns = true → InvC st.ctx →
-      renderNodes (Env.withTpls E T) go' tpl ns st = renderNodes E go tpl ns st
-  | [], st, _, _ => rfl
-  | n :: r, st, hn, hi => by
-    simp only [NXL, Bool.and_eq_true] at hn
-    simp only [renderNodes]
-    rw [renderNode_sim E T hs tpl n st hn.1 hi]
-    apply bind_congr_ok
-    intro a ha
-    have h1 := invC_of_core (Inh.renderNode_fr E hs.fr tpl n st a.1 a.2 ha) hi
-    rw [renderNodes_sim E T hs tpl r a.2 hn.2 h1]
-end
-
-
-theorem bindParams_env (E : Env) (T) (dn : List Bytes) (de : List Expr) :
-    ∀ (ps : List Bytes) (args : List Val) (st : St) (acc : List (Bytes × Val)),
-      bindParams (Env.withTpls E T) dn de ps args st acc = bindParams E dn de ps args st acc
-  | [], _, st, acc => by simp only [bindParams]
-  | p :: ps, a :: as, st, acc => by simp only [bindParams, bindParams_env E T dn de ps as]
-  | p :: ps, [], st, acc => by
-    simp only [bindParams, evalExpr, evalX_env, bindParams_env E T dn de ps []]
-
-theorem findMacro_foldl_NXL (name : Bytes) : ∀ (nodes : List Node) (acc : Option (List Bytes × List Bytes × List Expr × List Node)),
-    NXL nodes = true → (∀ x, acc = some x → NXL x.2.2.2 = true) →
-    ∀ x, nodes.foldl (fun acc n => match n with
-      | .macro m ps dn de body => if m == name then some (ps, dn, de, body) else acc
-      | _ => acc) acc = some x → NXL x.2.2.2 = true
-  | [], acc, _, ha, x, h => ha x h
-  | n :: r, acc, hn, ha, x, h => by
-    simp only [NXL, Bool.and_eq_true] at hn
-    simp only [List.foldl_cons] at h
-    refine findMacro_foldl_NXL name r _ hn.2 ?_ x h
-    intro y hy
-    cases n <;> try (exact ha y hy)
-    rename_i m ps dn de body
-    simp only at hy
-    split at hy
-    · cases hy; simpa [NX] using hn.1
-    · exact ha y hy
-
-theorem findMacro_NXL {nodes : List Node} {name : Bytes} {x} (hn : NXL nodes = true)
-    (h : findMacro nodes name = some x) : NXL x.2.2.2 = true :=
-  findMacro_foldl_NXL name nodes none hn (by intro x hx; cases hx) x h
-
-theorem findMacro_text (v : Bytes) (nodes : List Node) (name : Bytes) :
-    findMacro (.text v :: nodes) name = findMacro nodes name := by
-  simp [findMacro]
-
-theorem topMacroNames_text (v : Bytes) (nodes : List Node) :
-    topMacroNames (.text v :: nodes) = topMacroNames nodes := by
-  simp [topMacroNames]
-
-theorem tpl_envOf' (nodes : List Node) (t : Bytes) :
-    (envOf nodes).tpl? t = if mainName == t then some nodes else none := by
-  simp [Env.tpl?, envOf]
-
-theorem envOf_text (v : Bytes) (nodes : List Node) :
-    envOf (.text v :: nodes) = Env.withTpls (envOf nodes) [(mainName, .text v :: nodes)] := rfl
-
-theorem callMacro_sim (v : Bytes) (nodes : List Node) (hn : NXL nodes = true) {go' go : Go} (hs : GoSim go' go)
-    (t m : Bytes) (args : List Val) (st : St) :
-    callMacro (envOf (.text v :: nodes)) go' t m args st = callMacro (envOf nodes) go t m args st := by
-  unfold callMacro
-  rw [tpl_envOf', tpl_envOf']
-  by_cases ht : (mainName == t) = true
-  · simp only [ht, if_true, findMacro_text, topMacroNames_text]
-    cases hf : findMacro nodes m with
-    | none => rfl
-    | some x =>
-      obtain ⟨ps, dn, de, body⟩ := x
-      have hb : NXL body = true := findMacro_NXL hn hf
-      simp only
-      split
-      · rfl
-      · rw [envOf_text, bindParams_env]
-        apply bind_congr_ok
-        intro a _
-        rw [hs.eq (.body t body) _ hb (by constructor <;> intro x hx <;> exact absurd hx List.not_mem_nil)]
-        rfl
-  · simp only [ht]
-    rfl
-
-
-/-- the two engines (template with / without a text node in front) agree on every body and macro transfer -/
-theorem run_sim (v : Bytes) (nodes : List Node) (hn : NXL nodes = true) :
-    ∀ f, GoSim (run (envOf (.text v :: nodes)) f) (run (envOf nodes) f)
-  | 0 => ⟨fun _ _ _ _ => rfl, Inh.run_fr _ 0⟩
-  | f+1 => by
-    refine ⟨?_, Inh.run_fr _ (f+1)⟩
-    intro tr st htr hi
-    cases tr with
-    | root t => exact absurd htr (by simp [TrOK])
-    | body t ns =>
-      simp only [run]
-      rw [envOf_text]
-      exact renderNodes_sim (envOf nodes) _ (run_sim v nodes hn f) t ns st htr hi
-    | macroCall t m args =>
-      simp only [run]
-      exact callMacro_sim v nodes hn (run_sim v nodes hn f) t m args st
-
-theorem lastExtends_NXL : ∀ (nodes : List Node), NXL nodes = true → lastExtends nodes = none
-  | [], _ => rfl
-  | n :: r, h => by
-    simp only [NXL, Bool.and_eq_true] at h
-    have ih := lastExtends_NXL r h.2
-    cases n <;> simp_all [lastExtends, NX]
-
-theorem registerBlocks_inv (tpl : Bytes) : ∀ (nodes : List Node) (defs : List (Bytes × List BlockDef)),
-    NXL nodes = true → (∀ kv ∈ defs, ∀ d ∈ kv.2, NXL d.body = true) →
-    ∀ kv ∈ registerBlocks tpl nodes defs, ∀ d ∈ kv.2, NXL d.body = true
-  | [], defs, _, hd => by simpa [registerBlocks] using hd
-  | n :: r, defs, hn, hd => by
-    simp only [NXL, Bool.and_eq_true] at hn
-    cases n <;> try (simp only [registerBlocks]; exact registerBlocks_inv tpl r defs hn.2 hd)
-    rename_i name body
-    simp only [registerBlocks]
-    refine registerBlocks_inv tpl r _ hn.2 ?_
-    intro kv hkv d hdm
-    simp only [setKV, List.mem_cons] at hkv
-    rcases hkv with rfl | hkv
-    · simp only [List.mem_append, List.mem_singleton] at hdm
-      rcases hdm with h | h
-      · unfold getKV at h
-        cases hf : defs.find? (fun x => x.1 == name) with
-        | none => simp [hf] at h
-        | some kv' =>
-          simp only [hf, Option.map_some, Option.getD_some] at h
-          exact hd kv' (List.mem_of_find?_eq_some hf) d h
-      · rw [h]; simpa [NX] using hn.1
-    · exact hd kv (List.mem_filter.mp hkv).1 d hdm
-
-theorem registerBlocks_text (tpl v : Bytes) (nodes : List Node) (defs) :
-    registerBlocks tpl (.text v :: nodes) defs = registerBlocks tpl nodes defs := by
-  simp [registerBlocks]
-
-/-- A text node in front of a template that never transfers to a template root: the output gains exactly that
-    text in front, nothing else changes (same error otherwise). -/
-theorem renderNodesTop_text (v : Bytes) (nodes : List Node) (hn : NXL nodes = true) (vars : List (Bytes × Val)) :
-    renderNodesTop (.text v :: nodes) vars =
-      (renderNodesTop nodes vars >>= fun o => pure (v ++ o)) := by
-  unfold renderNodesTop renderTop
-  simp only [tpl_envOf, defaultFuel, run, renderRoot, registerBlocks_text]
-  have hle : lastExtends (.text v :: nodes) = none := by
-    simp [lastExtends, lastExtends_NXL nodes hn]
-  simp only [hle, lastExtends_NXL nodes hn, renderNodes, renderNode]
-  have hinv : InvC ({ ctx := { vars := vars, blockDefs := registerBlocks mainName nodes [] } } : St).ctx :=
-    ⟨registerBlocks_inv mainName nodes [] hn (by intro kv hkv; cases hkv), by intro d hd; cases hd⟩
-  have := renderNodes_sim (envOf nodes) [(mainName, .text v :: nodes)] (run_sim v nodes hn 199) mainName nodes _ hn hinv
-  rw [← envOf_text] at this
-  simp only [pure_eq_ok, ok_bind]
-  rw [this]
-  cases renderNodes (envOf nodes) (run (envOf nodes) 199) mainName nodes _ <;> rfl
-
-
-
-/-! ## the token stream of a dashed template, for arbitrary tags -/
-
-theorem normalise_step (tn : Bool) (l : Bytes) (t : Tag) (E : List Token) :
-    normalise (applyWsAux tn (textTok l ++ t.tokens ++ E)) =
-      (if l = [] then [] else [⟨TEXT, rtIf t.opensTrim (ltIf tn l)⟩]) ++ t.plain.tokens ++
-        normalise (applyWsAux t.closesTrim E) := by
-  rw [applyWs_step]
-  simp only [normalise_append, normalise_content]
-  have h1 : normalise (if l = [] then [] else [⟨TEXT, rtIf t.opensTrim (ltIf tn l)⟩]) =
-      (if l = [] then [] else [⟨TEXT, rtIf t.opensTrim (ltIf tn l)⟩]) := by split <;> rfl
-  have h2 : normalise [tk t.opener.startKind] = [tk t.plain.opener.startKind] := by
-    simp [normalise, tk, normKind_startKind]
-  have h3 : normalise [tk (endKind t.kind t.ctrim)] = [tk (endKind t.kind false)] := by
-    simp [normalise, tk, normKind_endKind]
-  rw [h1, h2, h3]
-  simp [Tag.tokens, Tag.plain]
-
-/-- no non-empty chunk is trimmed to nothing -/
-def keptB : Bool → List (Bytes × Tag) → Bytes → Bool
-  | tn, [], last => last.isEmpty || !(ltIf tn last).isEmpty
-  | tn, (l, t) :: ps, last => (l.isEmpty || !(rtIf t.opensTrim (ltIf tn l)).isEmpty) && keptB t.closesTrim ps last
-
-def Kept (tn : Bool) (ps : List (Bytes × Tag)) (last : Bytes) : Prop := keptB tn ps last = true
-instance (tn : Bool) (ps : List (Bytes × Tag)) (last : Bytes) : Decidable (Kept tn ps last) := by
-  unfold Kept; infer_instance
-
-theorem isEmpty_or {l x : Bytes} (h : (l.isEmpty || !x.isEmpty) = true) : l = [] ∨ x ≠ [] := by
-  cases l <;> cases x <;> simp_all
-
-theorem kept_nil {tn : Bool} {last : Bytes} (h : Kept tn [] last) : last = [] ∨ ltIf tn last ≠ [] :=
-  isEmpty_or h
-
-theorem kept_cons {tn : Bool} {l : Bytes} {t : Tag} {ps : List (Bytes × Tag)} {last : Bytes}
-    (h : Kept tn ((l, t) :: ps) last) :
-    (l = [] ∨ rtIf t.opensTrim (ltIf tn l) ≠ []) ∧ Kept t.closesTrim ps last := by
-  unfold Kept keptB at h
-  simp only [Bool.and_eq_true] at h
-  exact ⟨isEmpty_or h.1, h.2⟩
-
-theorem opt_textTok {l x : Bytes} (h : l = [] ∨ x ≠ []) (hx : l = [] → x = []) :
-    (if l = [] then [] else [(⟨TEXT, x⟩ : Token)]) = textTok x := by
-  by_cases hl : l = []
-  · rw [if_pos hl, hx hl]; rfl
-  · rw [if_neg hl, textTok_ne (h.resolve_left hl)]; rfl
-
-/-- when trimming empties no chunk, the parser sees for the dashed template exactly the token stream of the
-    hand-trimmed dash-free template -/
-theorem stream_undash (last : Bytes) : ∀ (ps : List (Bytes × Tag)) (tn : Bool), Kept tn ps last →
-    normalise (applyWsAux tn (expected ps last)) = expected (undashPairs tn ps) (undashLast tn ps last)
-  | [], tn, hk => by
-    simp only [expected, undashPairs, undashLast, lastFlag]
-    by_cases hl : last = []
-    · subst hl; rw [ltIf_nil]; rfl
-    · rw [textTok_ne hl, List.singleton_append, applyWsAux_text _ _ _ rfl]
-      have hne : ltIf tn last ≠ [] := (kept_nil hk).resolve_left hl
-      rw [textTok_ne hne]
-      rfl
-  | (l, t) :: ps, tn, hk => by
-    simp only [expected, undashPairs]
-    rw [normalise_step, stream_undash last ps _ (kept_cons hk).2,
-      opt_textTok (kept_cons hk).1 (fun h => by rw [h, trims_nil])]
-    simp [undashLast, lastFlag]
-
-
-theorem undashPairs_plain : ∀ (tn : Bool) (ps : List (Bytes × Tag)), ∀ lt ∈ undashPairs tn ps,
-    lt.2.otrim = false ∧ lt.2.ctrim = false
-  | _, [], lt, h => by simp [undashPairs] at h
-  | tn, (l, t) :: ps, lt, h => by
-    simp only [undashPairs, List.mem_cons] at h
-    rcases h with rfl | h
-    · exact ⟨rfl, rfl⟩
-    · exact undashPairs_plain _ ps lt h
-
-/-- both templates of C13 tokenize to the same stream when trimming empties no chunk -/
-theorem tokenize_undash (ps : List (Bytes × Tag)) (last : Bytes)
-    (hwf : ∀ lt ∈ ps, WfTag lt.2 ∧ WfTag lt.2.plain)
-    (hlit : ∀ lt ∈ undashPairs false ps, Lit lt.1)
-    (hlast : NoOpener (undashLast false ps last)) (hk : Kept false ps last) :
-    tokenize (spell ps last) = .ok (expected (undashPairs false ps) (undashLast false ps last)) ∧
-    tokenize (spell (undashPairs false ps) (undashLast false ps last)) =
-      .ok (expected (undashPairs false ps) (undashLast false ps last)) := by
-  have h1 : scanOpt (spell ps last) = .ok (expected ps last) :=
-    scanOpt_chunks ps last
-      (fun lt hm => ⟨lit_of_undash false ps hlit lt hm, (hwf lt hm).1⟩)
-      (noOpener_of_ltIf hlast)
-  have h2 : scanOpt (spell (undashPairs false ps) (undashLast false ps last)) =
-      .ok (expected (undashPairs false ps) (undashLast false ps last)) :=
-    scanOpt_chunks _ _
-      (fun lt hm => ⟨hlit lt hm, wf_of_undash false ps (fun x hx => (hwf x hx).2) lt hm⟩) hlast
-  constructor
-  · simp only [tokenize, scan_eq_scanOpt, h1, applyWs]
-    rw [stream_undash last ps false hk]
-  · simp only [tokenize, scan_eq_scanOpt, h2, applyWs]
-    rw [plain_stream _ _ (undashPairs_plain false ps)]
-
-
-/-! ## rendering is insensitive to empty text nodes -/
-
-mutual
-/-- remove every `.text []` node, at every depth -/
-def stripN : Node → Node
-  | .ifN c t e => .ifN c (stripL t) (stripL e)
-  | .forN k v s bd e => .forN k v s (stripL bd) (stripL e)
-  | .block n bd => .block n (stripL bd)
-  | .macro n ps dn de bd => .macro n ps dn de (stripL bd)
-  | .apply f bd => .apply f (stripL bd)
-  | .spaceless bd => .spaceless (stripL bd)
-  | n => n
-def stripL : List Node → List Node
-  | [] => []
-  | .text s :: r => if s.isEmpty then stripL r else .text s :: stripL r
-  | n :: r => stripN n :: stripL r
-end
-
-def stripD (d : BlockDef) : BlockDef := { d with body := stripL d.body }
-def stripC (c : Ctx) : Ctx :=
-  { c with blockDefs := c.blockDefs.map (fun kv => (kv.1, kv.2.map stripD)), chain := c.chain.map stripD }
-def stripS (st : St) : St := { st with ctx := stripC st.ctx }
-def stripT : Transfer → Transfer
-  | .root t => .root t
-  | .body t ns => .body t (stripL ns)
-  | .macroCall t n a => .macroCall t n a
-def stripE (E : Env) : Env := Env.withTpls E (E.tpls.map (fun kv => (kv.1, stripL kv.2)))
-
-/-- map the final state of a result -/
-def mapSt {α} (g : St → St) : R (α × St) → R (α × St)
-  | .ok (a, st) => .ok (a, g st)
-  | .error e => .error e
-
-@[simp] theorem mapSt_ok {α} (g : St → St) (a : α) (st : St) : mapSt g (.ok (a, st)) = .ok (a, g st) := rfl
-@[simp] theorem mapSt_error {α} (g : St → St) (e : Err) : mapSt g (.error e : R (α × St)) = .error e := rfl
-
-theorem mapSt_bind {α β} (g : St → St) (x : R (α × St)) (k : α × St → R (β × St)) :
-    (mapSt g x >>= k) = (x >>= fun a => k (a.1, g a.2)) := by
-  cases x with
-  | error e => rfl
-  | ok a => rfl
-
-theorem bind_mapSt {α β} (g : St → St) (x : R α) (k : α → R (β × St)) :
-    mapSt g (x >>= k) = (x >>= fun a => mapSt g (k a)) := by
-  cases x with
-  | error e => rfl
-  | ok a => rfl
-
-theorem stripS_emit (st : St) (k : CbKind) (n : Bytes) (s : Bool) : (stripS st).emit k n s = stripS (st.emit k n s) := rfl
-theorem stripS_spyCalls (st : St) : (stripS st).spyCalls = st.spyCalls := rfl
-theorem stripS_denied (E : Env) (st : St) (al : List Bytes) (n : Bytes) :
-    denied E (stripS st).ctx al n = denied E st.ctx al n := rfl
-theorem stripS_getMacro (st : St) (n : Bytes) : (stripS st).ctx.getMacro n = st.ctx.getMacro n := rfl
-theorem stripS_getVar (st : St) (n : Bytes) : (stripS st).ctx.getVar n = st.ctx.getVar n := rfl
-theorem stripS_hasVar (st : St) (n : Bytes) : (stripS st).ctx.hasVar n = st.ctx.hasVar n := rfl
-theorem stripS_vars (st : St) : (stripS st).ctx.vars = st.ctx.vars := rfl
-theorem stripS_allowedCheck (E : Env) (st : St) (al : List Bytes) (n : Bytes) (w : String) :
-    allowedCheck E (stripS st) al n w = allowedCheck E st al n w := rfl
-
-theorem invokeSpy_strip (E : Env) (k : CbKind) (n : Bytes) (st : St) :
-    invokeSpy E k n (stripS st) = (invokeSpy E k n st).map stripS := by
-  simp only [invokeSpy, stripS_spyCalls]
-  by_cases h : (E.failAt == some st.spyCalls) = true
-  · simp only [h, if_true]; rfl
-  · simp only [h]; rfl
-
-theorem applyFilter_strip (E : Env) (n : Bytes) (v : Val) (a : List Val) (st : St) :
-    applyFilter E n v a (stripS st) = mapSt stripS (applyFilter E n v a st) := by
-  simp only [applyFilter, stripS_denied, invokeSpy_strip]
-  by_cases h1 : (E.F.chokeFilter && denied E st.ctx E.allowedFilters n) = true
-  · simp only [h1, if_true]; rfl
-  · simp only [h1]
-    by_cases h2 : E.spyFilters.contains n = true
-    · simp only [h2, if_true]
-      cases invokeSpy E CbKind.filter n st <;> rfl
-    · simp only [h2]
-      cases builtinFilter n v a with
-      | none => rfl
-      | some r => cases r <;> rfl
-
-theorem applyChain_strip (E : Env) : ∀ (ch : List (Bytes × List Val)) (v : Val) (st : St),
-    applyChain E ch v (stripS st) = mapSt stripS (applyChain E ch v st)
-  | [], v, st => rfl
-  | (n, a) :: r, v, st => by
-    simp only [applyChain, applyFilter_strip, mapSt_bind, bind_mapSt]
-    apply bind_congr_ok
-    intro x _
-    exact applyChain_strip E r x.1 x.2
-
-theorem callFunction_strip (E : Env) (n : Bytes) (a : List Val) (st : St) :
-    callFunction E n a (stripS st) = mapSt stripS (callFunction E n a st) := by
-  simp only [callFunction, stripS_denied, stripS_getMacro, invokeSpy_strip]
-  by_cases h1 : (E.F.chokeFunc && denied E st.ctx E.allowedFunctions n && (st.ctx.getMacro n).isNone) = true
-  · simp only [h1, if_true]; rfl
-  · simp only [h1]
-    by_cases h2 : (n == b "parent") = true
-    · simp only [h2, if_true]; rfl
-    · simp only [h2]
-      by_cases h3 : E.spyFunctions.contains n = true
-      · simp only [h3, if_true]
-        cases invokeSpy E CbKind.function n st <;> rfl
-      · simp only [h3]
-        cases builtinFunction n a with
-        | some r => cases r <;> rfl
-        | none =>
-          cases st.ctx.getMacro n with
-          | none => rfl
-          | some tm => rfl
-
-
-theorem mapSt_pure {α} (g : St → St) (a : α) (st : St) : mapSt g (pure (a, st) : R (α × St)) = pure (a, g st) := rfl
-
-/-- the non-`defined` branch of a test, common to all operand shapes -/
-theorem test_else_strip (E : Env) (name : Bytes) (args : List Expr) (ev : St → R ((Val × List (Bytes × List Val)) × St))
-    (st : St) (he : ev (stripS st) = mapSt stripS (ev st))
-    (ha : ∀ st', evalArgs E args (stripS st') = mapSt stripS (evalArgs E args st')) :
-    (do
-        let ((v, _), st1) ← ev (stripS st)
-        let (av, st2) ← evalArgs E args st1
-        if E.spyTests.contains name then do
-          let st3 ← invokeSpy E .test name st2
-          pure ((Val.bool true, ([] : List (Bytes × List Val))), st3)
-        else match builtinTest name v av with
-          | some r => do let x ← r; pure ((Val.bool x, []), st2.emit .test name false)
-          | none => rerr "test not found") =
-    mapSt stripS (do
-        let ((v, _), st1) ← ev st
-        let (av, st2) ← evalArgs E args st1
-        if E.spyTests.contains name then do
-          let st3 ← invokeSpy E .test name st2
-          pure ((Val.bool true, ([] : List (Bytes × List Val))), st3)
-        else match builtinTest name v av with
-          | some r => do let x ← r; pure ((Val.bool x, []), st2.emit .test name false)
-          | none => rerr "test not found") := by
-  rw [he]
-  simp only [mapSt_bind, bind_mapSt, ha]
-  apply bind_congr_ok
-  intro a _
-  apply bind_congr_ok
-  intro x _
-  by_cases hsp : E.spyTests.contains name = true
-  · simp only [hsp, if_true, invokeSpy_strip]
-    cases invokeSpy E CbKind.test name x.2 <;> rfl
-  · simp only [hsp]
-    cases builtinTest name a.1.1 x.1 with
-    | none => rfl
-    | some r => cases r <;> rfl
-
-/-- the generic tail of a test (operand is neither an attribute access nor a variable) -/
-theorem test_other_strip (E : Env) (name : Bytes) (args : List Expr) (ev : St → R ((Val × List (Bytes × List Val)) × St))
-    (st : St) (he : ev (stripS st) = mapSt stripS (ev st))
-    (ha : ∀ st', evalArgs E args (stripS st') = mapSt stripS (evalArgs E args st')) :
-    (if (name == b "defined") = true then do
-        let ((v, _), st1) ← ev (stripS st)
-        let (_, st2) ← evalArgs E args st1
-        pure ((Val.bool (match v with | .null => false | _ => true), ([] : List (Bytes × List Val))), st2.emit .test name false)
-      else do
-        let ((v, _), st1) ← ev (stripS st)
-        let (av, st2) ← evalArgs E args st1
-        if E.spyTests.contains name then do
-          let st3 ← invokeSpy E .test name st2
-          pure ((Val.bool true, ([] : List (Bytes × List Val))), st3)
-        else match builtinTest name v av with
-          | some r => do let x ← r; pure ((Val.bool x, []), st2.emit .test name false)
-          | none => rerr "test not found") =
-    mapSt stripS (if (name == b "defined") = true then do
-        let ((v, _), st1) ← ev st
-        let (_, st2) ← evalArgs E args st1
-        pure ((Val.bool (match v with | .null => false | _ => true), ([] : List (Bytes × List Val))), st2.emit .test name false)
-      else do
-        let ((v, _), st1) ← ev st
-        let (av, st2) ← evalArgs E args st1
-        if E.spyTests.contains name then do
-          let st3 ← invokeSpy E .test name st2
-          pure ((Val.bool true, ([] : List (Bytes × List Val))), st3)
-        else match builtinTest name v av with
-          | some r => do let x ← r; pure ((Val.bool x, []), st2.emit .test name false)
-          | none => rerr "test not found") := by
-  rw [he]
-  by_cases hd : (name == b "defined") = true
-  · simp only [hd, if_true, mapSt_bind, bind_mapSt, ha]
-    apply bind_congr_ok
-    intro a _
-    apply bind_congr_ok
-    intro x _
-    rfl
-  · simp only [hd, Bool.false_eq_true, if_false, mapSt_bind, bind_mapSt, ha]
-    apply bind_congr_ok
-    intro a _
-    apply bind_congr_ok
-    intro x _
-    by_cases hsp : E.spyTests.contains name = true
-    · simp only [hsp, if_true, invokeSpy_strip]
-      cases invokeSpy E CbKind.test name x.2 <;> rfl
-    · simp only [hsp]
-      cases builtinTest name a.1.1 x.1 with
-      | none => rfl
-      | some r => cases r <;> rfl
-
-mutual
-theorem evalX_strip (E : Env) : ∀ (e : Expr) (ap : Bool) (st : St),
-    evalX E ap e (stripS st) = mapSt stripS (evalX E ap e st)
-  | .null, ap, st => rfl
-  | .bool _, ap, st => rfl
-  | .int _, ap, st => rfl
-  | .str _, ap, st => rfl
-  | .unsup _, ap, st => rfl
-  | .var n, ap, st => by
-    simp only [evalX, stripS_hasVar, stripS_getMacro, stripS_getVar]
-    by_cases h : st.ctx.hasVar n = true
-    · simp only [h, if_true]; rfl
-    · simp only [h]
-      cases getKV n E.globals with
-      | some g => rfl
-      | none =>
-        cases st.ctx.getMacro n with
-        | none => rfl
-        | some tm => rfl
-  | .unary op e, ap, st => by
-    simp only [evalX, evalX_strip E e, mapSt_bind, bind_mapSt]
-    apply bind_congr_ok
-    intro a _
-    cases op
-    · rfl
-    · simp only [bind_mapSt]; apply bind_congr_ok; intro x _; rfl
-    · simp only [bind_mapSt]; apply bind_congr_ok; intro x _; rfl
-  | .binary op l r, ap, st => by
-    simp only [evalX, evalX_strip E l, evalX_strip E r, mapSt_bind, bind_mapSt]
-    apply bind_congr_ok
-    intro a _
-    split
-    · rfl
-    · split
-      · rfl
-      · simp only [bind_mapSt]
-        apply bind_congr_ok
-        intro x _
-        cases binop op a.1.1 x.1.1 <;> rfl
-  | .badBinary l r, ap, st => by
-    simp only [evalX, evalX_strip E l, evalX_strip E r, mapSt_bind, bind_mapSt]
-    apply bind_congr_ok
-    intro a _
-    apply bind_congr_ok
-    intro x _
-    rfl
-  | .cond c t f, ap, st => by
-    simp only [evalX, evalX_strip E c, mapSt_bind, bind_mapSt]
-    apply bind_congr_ok
-    intro a _
-    split
-    · exact evalX_strip E t true a.2
-    · exact evalX_strip E f true a.2
-  | .attr e name, ap, st => by
-    simp only [evalX, evalX_strip E e, mapSt_bind, bind_mapSt]
-    apply bind_congr_ok
-    intro a _
-    rfl
-  | .item e i, ap, st => by
-    simp only [evalX, evalX_strip E e, evalX_strip E i, mapSt_bind, bind_mapSt]
-    apply bind_congr_ok
-    intro a _
-    apply bind_congr_ok
-    intro x _
-    cases getItem a.1.1 x.1.1 <;> rfl
-  | .filter e name args, ap, st => by
-    cases ap
-    · simp only [evalX, Bool.false_eq_true, if_false, evalArgs_strip E args, evalX_strip E e, mapSt_bind, bind_mapSt]
-      apply bind_congr_ok
-      intro a _
-      apply bind_congr_ok
-      intro x _
-      rfl
-    · simp only [evalX, if_true, stripS_allowedCheck, evalArgs_strip E args, evalX_strip E e, mapSt_bind, bind_mapSt]
-      apply bind_congr_ok
-      intro u _
-      apply bind_congr_ok
-      intro a _
-      apply bind_congr_ok
-      intro x _
-      rw [applyChain_strip, mapSt_bind]
-      apply bind_congr_ok
-      intro y _
-      rfl
-  | .call name args, ap, st => by
-    simp only [evalX, stripS_allowedCheck, stripS_getMacro, evalArgs_strip E args, mapSt_bind, bind_mapSt]
-    apply bind_congr_ok
-    intro u _
-    cases st.ctx.getMacro name with
-    | some tm =>
-      simp only [bind_mapSt]
-      apply bind_congr_ok
-      intro a _
-      rfl
-    | none =>
-      simp only [bind_mapSt]
-      apply bind_congr_ok
-      intro a _
-      rw [callFunction_strip, mapSt_bind]
-      apply bind_congr_ok
-      intro y _
-      rfl
-  | .mcall obj name args, ap, st => by
-    simp only [evalX, stripS_allowedCheck, evalX_strip E obj, evalArgs_strip E args, mapSt_bind, bind_mapSt]
-    apply bind_congr_ok
-    intro u _
-    apply bind_congr_ok
-    intro a _
-    apply bind_congr_ok
-    intro x _
-    split
-    · rename_i heq
-      simp only [heq]; rfl
-    · rename_i heq
-      simp only [heq]
-      have hm : (stripS x.2).ctx.getMacro name = x.2.ctx.getMacro name := rfl
-      rw [hm]
-      cases hgm : x.2.ctx.getMacro name with
-      | some tm => rfl
-      | none =>
-        simp only [callFunction_strip, mapSt_bind, bind_mapSt]
-        apply bind_congr_ok
-        intro y _
-        rfl
-  | .test (.attr obj a) name args, ap, st => by
-    rw [evalX.eq_16 E ap (stripS st), evalX.eq_16 E ap st]
-    by_cases hd : (name == b "defined") = true
-    · simp only [hd, if_true, evalX_strip E obj]
-      cases evalX E true obj st with
-      | error e => cases e <;> rfl
-      | ok x =>
-        obtain ⟨⟨o, fl⟩, st1⟩ := x
-        cases o <;> rfl
-    · simp only [hd, Bool.false_eq_true, if_false]
-      exact test_else_strip E name args _ st (evalX_strip E (.attr obj a) true st) (fun st' => evalArgs_strip E args st')
-  | .test (.var n) name args, ap, st => by
-    rw [evalX.eq_17 E ap (stripS st), evalX.eq_17 E ap st]
-    by_cases hd : (name == b "defined") = true
-    · simp only [hd, if_true, stripS_hasVar, stripS_getVar]
-      by_cases hv : st.ctx.hasVar n = true
-      · simp only [hv, Bool.true_or, if_true]; rfl
-      · simp only [hv, Bool.false_or]
-        cases getKV n E.globals with
-        | some g => rfl
-        | none => rfl
-    · simp only [hd, Bool.false_eq_true, if_false]
-      exact test_else_strip E name args _ st (evalX_strip E (.var n) true st) (fun st' => evalArgs_strip E args st')
-  | .test (.null) name args, ap, st => by
-    rw [evalX.eq_18 E ap (stripS st) (.null) name args (by intro _ _ h; cases h) (by intro _ h; cases h),
-      evalX.eq_18 E ap st (.null) name args (by intro _ _ h; cases h) (by intro _ h; cases h)]
-    exact test_other_strip E name args _ st (evalX_strip E (.null) true st) (fun st' => evalArgs_strip E args st')
-  | .test (.bool v) name args, ap, st => by
-    rw [evalX.eq_18 E ap (stripS st) (.bool v) name args (by intro _ _ h; cases h) (by intro _ h; cases h),
-      evalX.eq_18 E ap st (.bool v) name args (by intro _ _ h; cases h) (by intro _ h; cases h)]
-    exact test_other_strip E name args _ st (evalX_strip E (.bool v) true st) (fun st' => evalArgs_strip E args st')
-  | .test (.int i) name args, ap, st => by
-    rw [evalX.eq_18 E ap (stripS st) (.int i) name args (by intro _ _ h; cases h) (by intro _ h; cases h),
-      evalX.eq_18 E ap st (.int i) name args (by intro _ _ h; cases h) (by intro _ h; cases h)]
-    exact test_other_strip E name args _ st (evalX_strip E (.int i) true st) (fun st' => evalArgs_strip E args st')
-  | .test (.str s) name args, ap, st => by
-    rw [evalX.eq_18 E ap (stripS st) (.str s) name args (by intro _ _ h; cases h) (by intro _ h; cases h),
-      evalX.eq_18 E ap st (.str s) name args (by intro _ _ h; cases h) (by intro _ h; cases h)]
-    exact test_other_strip E name args _ st (evalX_strip E (.str s) true st) (fun st' => evalArgs_strip E args st')
-  | .test (.unsup w) name args, ap, st => by
-    rw [evalX.eq_18 E ap (stripS st) (.unsup w) name args (by intro _ _ h; cases h) (by intro _ h; cases h),
-      evalX.eq_18 E ap st (.unsup w) name args (by intro _ _ h; cases h) (by intro _ h; cases h)]
-    exact test_other_strip E name args _ st (evalX_strip E (.unsup w) true st) (fun st' => evalArgs_strip E args st')
-  | .test (.unary op x) name args, ap, st => by
-    rw [evalX.eq_18 E ap (stripS st) (.unary op x) name args (by intro _ _ h; cases h) (by intro _ h; cases h),
-      evalX.eq_18 E ap st (.unary op x) name args (by intro _ _ h; cases h) (by intro _ h; cases h)]
-    exact test_other_strip E name args _ st (evalX_strip E (.unary op x) true st) (fun st' => evalArgs_strip E args st')
-  | .test (.binary op l r) name args, ap, st => by
-    rw [evalX.eq_18 E ap (stripS st) (.binary op l r) name args (by intro _ _ h; cases h) (by intro _ h; cases h),
-      evalX.eq_18 E ap st (.binary op l r) name args (by intro _ _ h; cases h) (by intro _ h; cases h)]
-    exact test_other_strip E name args _ st (evalX_strip E (.binary op l r) true st) (fun st' => evalArgs_strip E args st')
-  | .test (.badBinary l r) name args, ap, st => by
-    rw [evalX.eq_18 E ap (stripS st) (.badBinary l r) name args (by intro _ _ h; cases h) (by intro _ h; cases h),
-      evalX.eq_18 E ap st (.badBinary l r) name args (by intro _ _ h; cases h) (by intro _ h; cases h)]
-    exact test_other_strip E name args _ st (evalX_strip E (.badBinary l r) true st) (fun st' => evalArgs_strip E args st')
-  | .test (.cond c t f) name args, ap, st => by
-    rw [evalX.eq_18 E ap (stripS st) (.cond c t f) name args (by intro _ _ h; cases h) (by intro _ h; cases h),
-      evalX.eq_18 E ap st (.cond c t f) name args (by intro _ _ h; cases h) (by intro _ h; cases h)]
-    exact test_other_strip E name args _ st (evalX_strip E (.cond c t f) true st) (fun st' => evalArgs_strip E args st')
-  | .test (.item x i) name args, ap, st => by
-    rw [evalX.eq_18 E ap (stripS st) (.item x i) name args (by intro _ _ h; cases h) (by intro _ h; cases h),
-      evalX.eq_18 E ap st (.item x i) name args (by intro _ _ h; cases h) (by intro _ h; cases h)]
-    exact test_other_strip E name args _ st (evalX_strip E (.item x i) true st) (fun st' => evalArgs_strip E args st')
-  | .test (.filter x nm as) name args, ap, st => by
-    rw [evalX.eq_18 E ap (stripS st) (.filter x nm as) name args (by intro _ _ h; cases h) (by intro _ h; cases h),
-      evalX.eq_18 E ap st (.filter x nm as) name args (by intro _ _ h; cases h) (by intro _ h; cases h)]
-    exact test_other_strip E name args _ st (evalX_strip E (.filter x nm as) true st) (fun st' => evalArgs_strip E args st')
-  | .test (.call nm as) name args, ap, st => by
-    rw [evalX.eq_18 E ap (stripS st) (.call nm as) name args (by intro _ _ h; cases h) (by intro _ h; cases h),
-      evalX.eq_18 E ap st (.call nm as) name args (by intro _ _ h; cases h) (by intro _ h; cases h)]
-    exact test_other_strip E name args _ st (evalX_strip E (.call nm as) true st) (fun st' => evalArgs_strip E args st')
-  | .test (.mcall o nm as) name args, ap, st => by
-    rw [evalX.eq_18 E ap (stripS st) (.mcall o nm as) name args (by intro _ _ h; cases h) (by intro _ h; cases h),
-      evalX.eq_18 E ap st (.mcall o nm as) name args (by intro _ _ h; cases h) (by intro _ h; cases h)]
-    exact test_other_strip E name args _ st (evalX_strip E (.mcall o nm as) true st) (fun st' => evalArgs_strip E args st')
-  | .test (.test x nm as) name args, ap, st => by
-    rw [evalX.eq_18 E ap (stripS st) (.test x nm as) name args (by intro _ _ h; cases h) (by intro _ h; cases h),
-      evalX.eq_18 E ap st (.test x nm as) name args (by intro _ _ h; cases h) (by intro _ h; cases h)]
-    exact test_other_strip E name args _ st (evalX_strip E (.test x nm as) true st) (fun st' => evalArgs_strip E args st')
-  | .test (.array xs) name args, ap, st => by
-    rw [evalX.eq_18 E ap (stripS st) (.array xs) name args (by intro _ _ h; cases h) (by intro _ h; cases h),
-      evalX.eq_18 E ap st (.array xs) name args (by intro _ _ h; cases h) (by intro _ h; cases h)]
-    exact test_other_strip E name args _ st (evalX_strip E (.array xs) true st) (fun st' => evalArgs_strip E args st')
-  | .test (.hash xs) name args, ap, st => by
-    rw [evalX.eq_18 E ap (stripS st) (.hash xs) name args (by intro _ _ h; cases h) (by intro _ h; cases h),
-      evalX.eq_18 E ap st (.hash xs) name args (by intro _ _ h; cases h) (by intro _ h; cases h)]
-    exact test_other_strip E name args _ st (evalX_strip E (.hash xs) true st) (fun st' => evalArgs_strip E args st')
-  | .array items, ap, st => by
-    simp only [evalX, evalArgs_strip E items, mapSt_bind, bind_mapSt]
-    apply bind_congr_ok
-    intro a _
-    rfl
-  | .hash items, ap, st => by
-    simp only [evalX, evalPairs_strip E items, mapSt_bind, bind_mapSt]
-    apply bind_congr_ok
-    intro a _
-    rfl
-
-theorem evalArgs_strip (E : Env) : ∀ (es : List Expr) (st : St),
-    evalArgs E es (stripS st) = mapSt stripS (evalArgs E es st)
-  | [], st => rfl
-  | e :: es, st => by
-    simp only [evalArgs, evalX_strip E e, evalArgs_strip E es, mapSt_bind, bind_mapSt]
-    apply bind_congr_ok
-    intro a _
-    apply bind_congr_ok
-    intro x _
-    rfl
-
-theorem evalPairs_strip (E : Env) : ∀ (es : List Expr) (st : St),
-    evalPairs E es (stripS st) = mapSt stripS (evalPairs E es st)
-  | [], st => rfl
-  | [_], st => rfl
-  | k :: v :: es, st => by
-    simp only [evalPairs, evalX_strip E k, evalX_strip E v, evalPairs_strip E es, mapSt_bind, bind_mapSt]
-    apply bind_congr_ok
-    intro a _
-    apply bind_congr_ok
-    intro key _
-    apply bind_congr_ok
-    intro x _
-    apply bind_congr_ok
-    intro y _
-    rfl
-end
-
-
-/-! ### transfers, printing, loops -/
-
-/-- the transfer function of the stripped engine simulates the original one -/
-def GoStrip (go' go : Go) : Prop := ∀ tr st, go' (stripT tr) (stripS st) = mapSt stripS (go tr st)
-
-theorem printVal_strip {go' go : Go} (hg : GoStrip go' go) (v : Val) (st : St) :
-    printVal go' v (stripS st) = mapSt stripS (printVal go v st) := by
-  unfold printVal
-  cases v with
-  | callable t m args => exact hg (.macroCall t m args) st
-  | parentFn =>
-    simp only
-    by_cases hin : st.ctx.inBlock = true
-    · have e1 : ¬ ((!(stripS st).ctx.inBlock) = true) := by
-        show ¬ ((!st.ctx.inBlock) = true); simp [hin]
-      have e2 : ¬ ((!st.ctx.inBlock) = true) := by simp [hin]
-      rw [if_neg e1, if_neg e2]
-      have hdrop : List.drop ((stripS st).ctx.level + 1) (stripS st).ctx.chain =
-          (List.drop (st.ctx.level + 1) st.ctx.chain).map stripD := by
-        show List.drop (st.ctx.level + 1) (st.ctx.chain.map stripD) = _
-        rw [List.map_drop]
-      rw [hdrop]
-      cases List.drop (st.ctx.level + 1) st.ctx.chain with
-      | nil => rfl
-      | cons d r =>
-        simp only [List.map_cons]
-        have := hg (.body d.tpl d.body) { st with ctx := { st.ctx with level := st.ctx.level + 1 } }
-        simp only [stripT] at this
-        show (go' (.body d.tpl (stripL d.body)) (stripS { st with ctx := { st.ctx with level := st.ctx.level + 1 } }) >>= _) = _
-        rw [this, mapSt_bind, bind_mapSt]
-        apply bind_congr_ok
-        intro a _
-        rfl
-    · have e1 : (!(stripS st).ctx.inBlock) = true := by
-        show (!st.ctx.inBlock) = true; simpa using hin
-      have e2 : (!st.ctx.inBlock) = true := by simpa using hin
-      rw [if_pos e1, if_pos e2]
-      rfl
-  | _ =>
-    simp only
-    cases toStr _ <;> rfl
-
-theorem loopOver_strip {f' f : St → R Out} (hf : ∀ s, f' (stripS s) = mapSt stripS (f s))
-    (kv : Option Bytes) (vv : Bytes) (n : Nat) :
-    ∀ (items : List (Val × Val)) (i : Nat) (st : St),
-      loopOver f' kv vv n i items (stripS st) = mapSt stripS (loopOver f kv vv n i items st)
-  | [], i, st => rfl
-  | (k, v) :: r, i, st => by
-    cases kv with
-    | none =>
-      simp only [loopOver]
-      have := hf { st with ctx := (st.ctx.setVar vv v).setVar (b "loop") (loopMeta i n) }
-      show (f' (stripS { st with ctx := (st.ctx.setVar vv v).setVar (b "loop") (loopMeta i n) }) >>= _) = _
-      rw [this, mapSt_bind, bind_mapSt]
-      apply bind_congr_ok
-      intro a _
-      simp only [loopOver_strip hf none vv n r (i + 1) a.2, mapSt_bind, bind_mapSt]
-      apply bind_congr_ok
-      intro x _
-      rfl
-    | some kk =>
-      simp only [loopOver]
-      have := hf { st with ctx := ((st.ctx.setVar vv v).setVar kk k).setVar (b "loop") (loopMeta i n) }
-      show (f' (stripS { st with ctx := ((st.ctx.setVar vv v).setVar kk k).setVar (b "loop") (loopMeta i n) }) >>= _) = _
-      rw [this, mapSt_bind, bind_mapSt]
-      apply bind_congr_ok
-      intro a _
-      simp only [loopOver_strip hf (some kk) vv n r (i + 1) a.2, mapSt_bind, bind_mapSt]
-      apply bind_congr_ok
-      intro x _
-      rfl
-
-
-/-! ### list plumbing -/
-
-theorem getKV_map {α β} (g : α → β) (k : Bytes) : ∀ (l : List (Bytes × α)),
-    getKV k (l.map (fun kv => (kv.1, g kv.2))) = (getKV k l).map g
-  | [] => rfl
-  | (k', a) :: r => by
-    have ih := getKV_map g k r
-    unfold getKV at ih ⊢
-    simp only [List.map_cons, List.find?_cons]
-    by_cases h : (k' == k) = true
-    · simp [h]
-    · simp only [h]; exact ih
-
-theorem specChain_strip (tpl nm : Bytes) (body : List Node) (defs : List BlockDef) :
-    Inh.specChain tpl nm (stripL body) (defs.map stripD) = (Inh.specChain tpl nm body defs).map stripD := by
-  unfold Inh.specChain
-  have hc : ((defs.map stripD).getLast?.map (·.tpl == tpl)).getD false = (defs.getLast?.map (·.tpl == tpl)).getD false := by
-    rw [List.getLast?_map]
-    cases defs.getLast? <;> rfl
-  rw [hc]
-  split
-  · rfl
-  · simp [stripD]
-
-theorem headD_strip (ch : List BlockDef) (d : BlockDef) : (ch.map stripD).headD (stripD d) = stripD (ch.headD d) := by
-  cases ch <;> rfl
-
-theorem tpl_strip (E : Env) (name : Bytes) : (stripE E).tpl? name = (E.tpl? name).map stripL := by
-  unfold Env.tpl? stripE Env.withTpls
-  simp only
-  induction E.tpls with
-  | nil => rfl
-  | cons kv r ih =>
-    simp only [List.map_cons, List.find?_cons]
-    by_cases h : (kv.1 == name) = true
-    · simp [h]
-    · simp only [h]; exact ih
-
-theorem stripL_cons (n : Node) (r : List Node) (h : ∀ s, n ≠ .text s) : stripL (n :: r) = stripN n :: stripL r := by
-  cases n <;> first | rfl | exact absurd rfl (h _)
-
-theorem stripL_text (s : Bytes) (r : List Node) :
-    stripL (.text s :: r) = if s.isEmpty then stripL r else .text s :: stripL r := by
-  rw [stripL]
-
-theorem lastExtends_strip : ∀ (nodes : List Node), lastExtends (stripL nodes) = lastExtends nodes
-  | [] => rfl
-  | n :: r => by
-    have ih := lastExtends_strip r
-    cases n with
-    | text s =>
-      rw [stripL_text]
-      split <;> simp [lastExtends, ih]
-    | _ => rw [stripL_cons _ _ (by intro s h; cases h)]; simp [stripN, lastExtends, ih]
-
-theorem registerBlocks_strip (tpl : Bytes) : ∀ (nodes : List Node) (defs : List (Bytes × List BlockDef)),
-    registerBlocks tpl (stripL nodes) (defs.map (fun kv => (kv.1, kv.2.map stripD))) =
-      (registerBlocks tpl nodes defs).map (fun kv => (kv.1, kv.2.map stripD))
-  | [], defs => rfl
-  | n :: r, defs => by
-    cases n with
-    | text s =>
-      rw [stripL_text]
-      split <;> simp [registerBlocks, registerBlocks_strip tpl r defs]
-    | block name body =>
-      rw [stripL_cons _ _ (by intro s h; cases h)]
-      simp only [stripN, registerBlocks]
-      rw [← registerBlocks_strip tpl r]
-      congr 1
-      rw [getKV_map]
-      simp only [setKV, List.map_cons, List.filter_map]
-      congr 1
-      cases getKV name defs <;> simp [stripD]
-    | _ =>
-      rw [stripL_cons _ _ (by intro s h; cases h)]
-      simp [stripN, registerBlocks, registerBlocks_strip tpl r defs]
-
-
-/-! ### nodes -/
-
-theorem evalX_stripE (E : Env) (ap : Bool) (e : Expr) (st : St) : evalX (stripE E) ap e st = evalX E ap e st :=
-  evalX_env E _ e ap st
-theorem evalArgs_stripE (E : Env) (es : List Expr) (st : St) : evalArgs (stripE E) es st = evalArgs E es st :=
-  evalArgs_env E _ es st
-theorem applyFilter_stripE (E : Env) (n : Bytes) (v : Val) (a : List Val) (st : St) :
-    applyFilter (stripE E) n v a st = applyFilter E n v a st := rfl
-
-theorem unblock_strip (c : Ctx) (r : R Out) :
-    Inh.unblock (stripC c) (mapSt stripS r) = mapSt stripS (Inh.unblock c r) := by
-  cases r with
-  | error e => rfl
-  | ok a => rfl
-
-theorem block_strip (E : Env) {go' go : Go} (hg : GoStrip go' go) (tpl name : Bytes) (body : List Node) (st : St) :
-    renderNode (stripE E) go' tpl (.block name (stripL body)) (stripS st) =
-      mapSt stripS (renderNode E go tpl (.block name body) st) := by
-  rw [Inh.block_eq, Inh.block_eq]
-  have hdefs : (getKV name (stripS st).ctx.blockDefs).getD [] = ((getKV name st.ctx.blockDefs).getD []).map stripD := by
-    show (getKV name (st.ctx.blockDefs.map (fun kv => (kv.1, kv.2.map stripD)))).getD [] = _
-    rw [getKV_map]
-    cases getKV name st.ctx.blockDefs <;> rfl
-  rw [hdefs, specChain_strip]
-  have hme : (⟨tpl, name, stripL body⟩ : BlockDef) = stripD ⟨tpl, name, body⟩ := rfl
-  rw [hme, headD_strip]
-  generalize Inh.specChain tpl name body ((getKV name st.ctx.blockDefs).getD []) = ch
-  generalize ch.headD ⟨tpl, name, body⟩ = hd
-  have := hg (.body hd.tpl hd.body) (Inh.blockSt st ch)
-  rw [← unblock_strip, ← this]
-  rfl
-
-
-theorem setAll_blockDefs : ∀ (c : Ctx) (ns : List Bytes) (vs : List Val),
-    (setAll c ns vs).blockDefs = c.blockDefs ∧ (setAll c ns vs).chain = c.chain
-  | c, [], _ => ⟨rfl, rfl⟩
-  | c, _ :: _, [] => ⟨rfl, rfl⟩
-  | c, n :: ns, v :: vs => by
-    simp only [setAll]
-    exact setAll_blockDefs (c.setVar n v) ns vs
-
-theorem stripC_of_nil {c : Ctx} (h1 : c.blockDefs = []) (h2 : c.chain = []) : stripC c = c := by
-  cases c
-  simp only at h1 h2
-  subst h1 h2
-  rfl
-
-theorem stripS_setAll (st : St) (ic : Ctx) (h1 : ic.blockDefs = []) (h2 : ic.chain = []) (ns : List Bytes) (vs : List Val) :
-    ({ stripS st with ctx := setAll ic ns vs } : St) = stripS { st with ctx := setAll ic ns vs } := by
-  have := stripC_of_nil (c := setAll ic ns vs) ((setAll_blockDefs ic ns vs).1.trans h1) ((setAll_blockDefs ic ns vs).2.trans h2)
-  show _ = ({ st with ctx := stripC (setAll ic ns vs) } : St)
-  rw [this]
-  rfl
-
-theorem bind_pure_id {α} (x : R (α × St)) : (x >>= fun a => pure (a.1, a.2)) = x := by
-  cases x <;> rfl
-
-mutual
-theorem renderNode_strip (E : Env) {go' go : Go} (hg : GoStrip go' go) (tpl : Bytes) :
-    ∀ (n : Node) (st : St),
-      renderNode (stripE E) go' tpl (stripN n) (stripS st) = mapSt stripS (renderNode E go tpl n st)
-  | .text s, st => rfl
-  | .verbatim s, st => rfl
-  | .print e, st => by
-    simp only [stripN, renderNode, evalX_stripE, evalX_strip, mapSt_bind, bind_mapSt]
-    apply bind_congr_ok
-    intro a _
-    exact printVal_strip hg _ _
-  | .ifN c t e, st => by
-    simp only [stripN, renderNode, evalX_stripE, evalX_strip, mapSt_bind, bind_mapSt]
-    apply bind_congr_ok
-    intro a _
-    split
-    · exact renderNodes_strip E hg tpl t a.2
-    · exact renderNodes_strip E hg tpl e a.2
-  | .forN key val seq body els, st => by
-    simp only [stripN, renderNode, evalX_stripE, evalX_strip, mapSt_bind, bind_mapSt]
-    apply bind_congr_ok
-    intro a _
-    apply bind_congr_ok
-    intro items _
-    split
-    · exact renderNodes_strip E hg tpl els a.2
-    · exact renderNodes_strip E hg tpl els a.2
-    · rw [loopOver_strip (f' := fun s => renderNodes (stripE E) go' tpl (stripL body) s)
-        (f := fun s => renderNodes E go tpl body s) (fun s => renderNodes_strip E hg tpl body s)]
-      simp only [mapSt_bind, bind_mapSt, stripS_vars]
-      apply bind_congr_ok
-      intro x _
-      cases getKV (b "loop") a.2.ctx.vars <;> rfl
-  | .setN name e, st => by
-    simp only [stripN, renderNode, evalX_stripE, evalX_strip, mapSt_bind, bind_mapSt]
-    apply bind_congr_ok
-    intro a _
-    rfl
-  | .doN e, st => by
-    simp only [stripN, renderNode, evalX_stripE, evalX_strip, mapSt_bind, bind_mapSt]
-    apply bind_congr_ok
-    intro a _
-    rfl
-  | .block name body, st => block_strip E hg tpl name body st
-  | .extends e, st => by
-    simp only [stripN, renderNode, evalX_stripE, evalX_strip, mapSt_bind, bind_mapSt, tpl_strip]
-    apply bind_congr_ok
-    intro a _
-    apply bind_congr_ok
-    intro name _
-    split
-    · rfl
-    · cases E.tpl? name with
-      | none => rfl
-      | some ns =>
-        simp only [Option.map_some]
-        have := hg (.root name) { a.2 with ctx := { freshCtx a.2.ctx.vars (E.F.propExtends && a.2.ctx.sandboxed) a.2.ctx.inside with blockDefs := a.2.ctx.blockDefs } }
-        simp only [stripT] at this
-        show (go' (.root name) (stripS { a.2 with ctx := { freshCtx a.2.ctx.vars (E.F.propExtends && a.2.ctx.sandboxed) a.2.ctx.inside with blockDefs := a.2.ctx.blockDefs } }) >>= _) = _
-        rw [this, mapSt_bind, bind_mapSt]
-        apply bind_congr_ok
-        intro x _
-        rfl
-  | .include te names exprs ignoreMissing only sandboxed, st => by
-    simp only [stripN, renderNode, evalX_stripE, evalX_strip, mapSt_bind, bind_mapSt, tpl_strip, evalArgs_stripE]
-    apply bind_congr_ok
-    intro a _
-    apply bind_congr_ok
-    intro name _
-    split
-    · rfl
-    · cases E.tpl? name with
-      | none =>
-        simp only [Option.map_none]
-        cases ignoreMissing <;> rfl
-      | some ns =>
-        simp only [Option.map_some]
-        have hpol : (stripE E).hasPolicy = E.hasPolicy := rfl
-        rw [hpol]
-        split
-        · rfl
-        · rw [evalArgs_strip, mapSt_bind, bind_mapSt]
-          apply bind_congr_ok
-          intro x _
-          cases only <;> cases sandboxed <;>
-            (simp only [Bool.not_false, Bool.not_true, Bool.and_true, Bool.and_false,
-                if_true, Bool.false_eq_true, if_false, Bool.false_or, Bool.true_or]
-             rw [stripS_setAll _ _ rfl rfl]
-             have hroot := hg (.root name)
-             simp only [stripT] at hroot
-             rw [hroot, mapSt_bind, bind_mapSt]
-             apply bind_congr_ok
-             intro y _
-             rfl)
-  | .macro name ps dn de body, st => rfl
-  | .importN te alias, st => by
-    simp only [stripN, renderNode, evalX_stripE, evalX_strip, mapSt_bind, bind_mapSt, tpl_strip]
-    apply bind_congr_ok
-    intro a _
-    apply bind_congr_ok
-    intro name _
-    split
-    · rfl
-    · cases E.tpl? name with
-      | none => rfl
-      | some ns =>
-        simp only [Option.map_some]
-        have hroot := hg (.root name) { a.2 with ctx := freshCtx [] (E.F.propImport && a.2.ctx.sandboxed) a.2.ctx.inside }
-        simp only [stripT] at hroot
-        show (go' (.root name) (stripS { a.2 with ctx := freshCtx [] (E.F.propImport && a.2.ctx.sandboxed) a.2.ctx.inside }) >>= _) = _
-        rw [hroot, mapSt_bind, bind_mapSt]
-        apply bind_congr_ok
-        intro x _
-        rfl
-  | .fromN te names, st => by
-    simp only [stripN, renderNode, evalX_stripE, evalX_strip, mapSt_bind, bind_mapSt, tpl_strip]
-    apply bind_congr_ok
-    intro a _
-    apply bind_congr_ok
-    intro name _
-    split
-    · rfl
-    · cases E.tpl? name with
-      | none => rfl
-      | some ns =>
-        simp only [Option.map_some]
-        have hroot := hg (.root name) { a.2 with ctx := freshCtx [] (E.F.propFrom && a.2.ctx.sandboxed) a.2.ctx.inside }
-        simp only [stripT] at hroot
-        show (go' (.root name) (stripS { a.2 with ctx := freshCtx [] (E.F.propFrom && a.2.ctx.sandboxed) a.2.ctx.inside }) >>= _) = _
-        rw [hroot, mapSt_bind, bind_mapSt]
-        apply bind_congr_ok
-        intro x _
-        show (bindFrom x.2.ctx.macros names a.2.ctx.macros >>= _) = _
-        rw [bind_mapSt]
-        apply bind_congr_ok
-        intro ms _
-        rfl
-  | .apply filter body, st => by
-    simp only [stripN, renderNode, renderNodes_strip E hg tpl body st, mapSt_bind, bind_mapSt, applyFilter_stripE]
-    apply bind_congr_ok
-    intro a _
-    rw [applyFilter_strip, mapSt_bind]
-    apply bind_congr_ok
-    intro x _
-    cases toStr x.1 <;> rfl
-  | .spaceless _, st => rfl
-
-theorem renderNodes_strip (E : Env) {go' go : Go} (hg : GoStrip go' go) (tpl : Bytes) :
-    ∀ (ns : List Node) (st : St),
-      renderNodes (stripE E) go' tpl (stripL ns) (stripS st) = mapSt stripS (renderNodes E go tpl ns st)
-  | [], st => rfl
-  | n :: r, st => by
-    have ihr := renderNodes_strip E hg tpl r
-    have hgen : renderNodes (stripE E) go' tpl (stripN n :: stripL r) (stripS st) =
-        mapSt stripS (renderNodes E go tpl (n :: r) st) := by
-      simp only [renderNodes, renderNode_strip E hg tpl n st, mapSt_bind, bind_mapSt]
-      apply bind_congr_ok
-      intro a _
-      rw [ihr, mapSt_bind]
-      apply bind_congr_ok
-      intro x _
-      rfl
-    cases n with
-    | text s =>
-      rw [stripL_text]
-      by_cases hs : s.isEmpty = true
-      · simp only [hs, if_true, ihr]
-        have : s = [] := by simpa using hs
-        subst this
-        simp only [renderNodes, renderNode, pure_eq_ok, ok_bind, List.nil_append]
-        congr 1
-        cases renderNodes E go tpl r st <;> rfl
-      · simp only [hs]
-        exact hgen
-    | _ => rw [stripL_cons _ _ (by intro s h; cases h)]; exact hgen
-end
-
-
-/-! ### roots, macro calls, the fuel-indexed top level -/
-
-theorem renderRoot_strip (E : Env) {go' go : Go} (hg : GoStrip go' go) (tpl : Bytes) (st : St) :
-    renderRoot (stripE E) go' tpl (stripS st) = mapSt stripS (renderRoot E go tpl st) := by
-  unfold renderRoot
-  rw [tpl_strip]
-  cases E.tpl? tpl with
-  | none => rfl
-  | some nodes =>
-    simp only [Option.map_some, lastExtends_strip]
-    have hreg : ({ stripS st with ctx := { (stripS st).ctx with
-          blockDefs := registerBlocks tpl (stripL nodes) (stripS st).ctx.blockDefs } } : St) =
-        stripS { st with ctx := { st.ctx with blockDefs := registerBlocks tpl nodes st.ctx.blockDefs } } := by
-      show _ = ({ st with ctx := stripC { st.ctx with blockDefs := registerBlocks tpl nodes st.ctx.blockDefs } } : St)
-      simp only [stripS, stripC]
-      rw [registerBlocks_strip]
-    rw [hreg]
-    cases lastExtends nodes with
-    | none => exact renderNodes_strip E hg tpl nodes _
-    | some e => exact renderNode_strip E hg tpl (.extends e) _
-
-theorem findMacro_foldl_strip (name : Bytes) : ∀ (nodes : List Node) (acc : Option (List Bytes × List Bytes × List Expr × List Node)),
-    (stripL nodes).foldl (fun acc n => match n with
-        | .macro m ps dn de body => if m == name then some (ps, dn, de, body) else acc
-        | _ => acc) (acc.map (fun x => (x.1, x.2.1, x.2.2.1, stripL x.2.2.2))) =
-      (nodes.foldl (fun acc n => match n with
-        | .macro m ps dn de body => if m == name then some (ps, dn, de, body) else acc
-        | _ => acc) acc).map (fun x => (x.1, x.2.1, x.2.2.1, stripL x.2.2.2))
-  | [], acc => rfl
-  | n :: r, acc => by
-    cases n with
-    | text s =>
-      rw [stripL_text]
-      split
-      · simp only [List.foldl_cons]; exact findMacro_foldl_strip name r acc
-      · simp only [List.foldl_cons]; exact findMacro_foldl_strip name r acc
-    | «macro» m ps dn de body =>
-      rw [stripL_cons _ _ (by intro s h; cases h)]
-      simp only [stripN, List.foldl_cons]
-      by_cases hm : (m == name) = true
-      · simp only [hm, if_true]
-        exact findMacro_foldl_strip name r (some (ps, dn, de, body))
-      · simp only [hm]
-        exact findMacro_foldl_strip name r acc
-    | _ =>
-      rw [stripL_cons _ _ (by intro s h; cases h)]
-      simp only [stripN, List.foldl_cons]
-      exact findMacro_foldl_strip name r acc
-
-theorem findMacro_strip (nodes : List Node) (name : Bytes) :
-    findMacro (stripL nodes) name = (findMacro nodes name).map (fun x => (x.1, x.2.1, x.2.2.1, stripL x.2.2.2)) :=
-  findMacro_foldl_strip name nodes none
-
-theorem topMacroNames_strip : ∀ (nodes : List Node), topMacroNames (stripL nodes) = topMacroNames nodes
-  | [] => rfl
-  | n :: r => by
-    have ih := topMacroNames_strip r
-    unfold topMacroNames at ih ⊢
-    cases n with
-    | text s =>
-      rw [stripL_text]
-      split <;> simp [ih]
-    | _ =>
-      rw [stripL_cons _ _ (by intro s h; cases h)]
-      simp [stripN, ih]
-
-theorem containsOpener_nil : containsOpener [] = false := by decide +kernel
-
-theorem any_strip (p : Node → Bool) (h0 : p (.text []) = false) (h1 : ∀ n, p (stripN n) = p n) :
-    ∀ (body : List Node), (stripL body).any p = body.any p
-  | [] => rfl
-  | n :: r => by
-    have ih := any_strip p h0 h1 r
-    cases n with
-    | text s =>
-      rw [stripL_text]
-      by_cases hs : s.isEmpty = true
-      · have : s = [] := by simpa using hs
-        subst this
-        simp [ih, h0]
-      · simp [hs, ih]
-    | _ =>
-      rw [stripL_cons _ _ (by intro s h; cases h)]
-      simp only [List.any_cons, ih, h1]
-
-theorem evalExpr_strip (E : Env) (e : Expr) (st : St) :
-    evalExpr E e (stripS st) = mapSt stripS (evalExpr E e st) := by
-  unfold evalExpr
-  rw [evalX_strip, mapSt_bind, bind_mapSt]
-  apply bind_congr_ok
-  intro a _
-  rfl
-
-theorem bindParams_strip (E : Env) (dn : List Bytes) (de : List Expr) :
-    ∀ (ps : List Bytes) (args : List Val) (st : St) (acc : List (Bytes × Val)),
-      bindParams E dn de ps args (stripS st) acc = mapSt stripS (bindParams E dn de ps args st acc)
-  | [], _, st, acc => by simp only [bindParams]; rfl
-  | p :: ps, a :: as, st, acc => by simp only [bindParams, bindParams_strip E dn de ps as]
-  | p :: ps, [], st, acc => by
-    simp only [bindParams]
-    cases lookupDefault p dn de with
-    | none => exact bindParams_strip E dn de ps [] st _
-    | some e =>
-      simp only [evalExpr_strip, mapSt_bind, bind_mapSt]
-      apply bind_congr_ok
-      intro a _
-      exact bindParams_strip E dn de ps [] a.2 _
-
-
-theorem bindParams_stripE (E : Env) (dn : List Bytes) (de : List Expr) (ps : List Bytes) (args : List Val) (st : St)
-    (acc : List (Bytes × Val)) : bindParams (stripE E) dn de ps args st acc = bindParams E dn de ps args st acc :=
-  bindParams_env E _ dn de ps args st acc
-
-theorem callMacro_strip (E : Env) {go' go : Go} (hg : GoStrip go' go) (t m : Bytes) (args : List Val) (st : St) :
-    callMacro (stripE E) go' t m args (stripS st) = mapSt stripS (callMacro E go t m args st) := by
-  unfold callMacro
-  rw [tpl_strip]
-  cases E.tpl? t with
-  | none => rfl
-  | some nodes =>
-    simp only [Option.map_some, findMacro_strip, topMacroNames_strip]
-    cases findMacro nodes m with
-    | none => rfl
-    | some x =>
-      obtain ⟨ps, dn, de, body⟩ := x
-      simp only [Option.map_some]
-      rw [any_strip _ (by simp only [containsOpener_nil]) (by intro n; cases n <;> rfl)]
-      split
-      · rfl
-      · rw [bindParams_stripE, bindParams_strip, mapSt_bind, bind_mapSt]
-        apply bind_congr_ok
-        intro a _
-        have hb := hg (.body t body) { a.2 with ctx :=
-          { vars := a.1, macros := (topMacroNames nodes).map (fun m => (m, t, m)),
-            parents := st.ctx.asScope :: st.ctx.parents,
-            sandboxed := E.F.propMacro && st.ctx.sandboxed, inside := st.ctx.inside } }
-        simp only [stripT] at hb
-        show (go' (.body t (stripL body)) (stripS { a.2 with ctx :=
-          { vars := a.1, macros := (topMacroNames nodes).map (fun m => (m, t, m)),
-            parents := st.ctx.asScope :: st.ctx.parents,
-            sandboxed := E.F.propMacro && st.ctx.sandboxed, inside := st.ctx.inside } }) >>= _) = _
-        rw [hb, mapSt_bind, bind_mapSt]
-        apply bind_congr_ok
-        intro x _
-        rfl
-
-/-- the engine whose templates have lost their empty text nodes simulates the original one -/
-theorem run_strip (E : Env) : ∀ f, GoStrip (run (stripE E) f) (run E f)
-  | 0 => fun _ _ => rfl
-  | f+1 => by
-    intro tr st
-    cases tr with
-    | root t => simp only [stripT, run]; exact renderRoot_strip E (run_strip E f) t st
-    | body t ns => simp only [stripT, run]; exact renderNodes_strip E (run_strip E f) t ns st
-    | macroCall t m a => simp only [stripT, run]; exact callMacro_strip E (run_strip E f) t m a st
-
-theorem renderTop_strip (E : Env) (name : Bytes) (vars : List (Bytes × Val)) :
-    renderTop (stripE E) name vars = renderTop E name vars := by
-  unfold renderTop
-  rw [tpl_strip]
-  cases E.tpl? name with
-  | none => rfl
-  | some nodes =>
-    simp only [Option.map_some]
-    have := run_strip E defaultFuel (.root name) { ctx := { vars := vars } }
-    simp only [stripT] at this
-    have hs : stripS ({ ctx := { vars := vars } } : St) = { ctx := { vars := vars } } := rfl
-    rw [hs] at this
-    rw [this]
-    cases run E defaultFuel (Transfer.root name) { ctx := { vars := vars } } <;> rfl
-
-theorem envOf_strip (nodes : List Node) : stripE (envOf nodes) = envOf (stripL nodes) := rfl
-
-/-- Rendering is insensitive to empty text nodes: removing every `.text []` node (at every depth) from a template
-    changes neither the output nor the error nor the trace. -/
-theorem renderNodesTop_strip (nodes : List Node) (vars : List (Bytes × Val)) :
-    renderNodesTop (stripL nodes) vars = renderNodesTop nodes vars := by
-  unfold renderNodesTop
-  rw [← envOf_strip, renderTop_strip]
-
-
-
-/-! ## locality of the expression parser: it never looks past the first token that is not an expression token -/
-
-/-- a token that no expression parser accepts (delimiters, TEXT, EOF) -/
-def EndTok (d : Token) : Prop := ¬ ExprKind d.kind
-
-theorem EndTok.kinds {d : Token} (h : EndTok d) :
-    d.kind ≠ NAME ∧ d.kind ≠ NUMBER ∧ d.kind ≠ STRING ∧ d.kind ≠ OPERATOR ∧ d.kind ≠ PUNCT := by
-  unfold EndTok ExprKind at h
-  simp only [NAME, NUMBER, STRING, OPERATOR, PUNCT]
-  omega
-
-theorem EndTok.isP {d : Token} (h : EndTok d) (c : UInt8) : isP d c = false := by
-  simp [Twig.isP, h.kinds.2.2.2.2]
-theorem EndTok.isName {d : Token} (h : EndTok d) (s : String) : isName d s = false := by
-  simp [Twig.isName, h.kinds.1]
-theorem EndTok.stop {d : Token} (h : EndTok d) : StopTok d := ⟨h.kinds.1, h.kinds.2.2.2.1, h.kinds.2.2.2.2⟩
-
-/-- `ts` and `ts'` are the same expression tokens followed by the same end token, then `r` resp. `r'` -/
-def TS (r r' ts ts' : List Token) : Prop :=
-  ∃ xs d, AllK xs ∧ EndTok d ∧ ts = xs ++ d :: r ∧ ts' = xs ++ d :: r'
-
-theorem TS.cases {r r' ts ts' : List Token} (h : TS r r' ts ts') :
-    (∃ d, EndTok d ∧ ts = d :: r ∧ ts' = d :: r') ∨
-    (∃ x t t', ExprKind x.kind ∧ ts = x :: t ∧ ts' = x :: t' ∧ TS r r' t t') := by
-  obtain ⟨xs, d, hk, hd, rfl, rfl⟩ := h
-  cases xs with
-  | nil => exact .inl ⟨d, hd, rfl, rfl⟩
-  | cons x xs =>
-    rw [allK_cons] at hk
-    exact .inr ⟨x, xs ++ d :: r, xs ++ d :: r', hk.1, rfl, rfl, xs, d, hk.2, hd, rfl, rfl⟩
-
-theorem TS.end_ {r r' : List Token} {d : Token} (hd : EndTok d) : TS r r' (d :: r) (d :: r') :=
-  ⟨[], d, allK_nil, hd, rfl, rfl⟩
-
-theorem TS.cons {r r' t t' : List Token} {x : Token} (hx : ExprKind x.kind) (h : TS r r' t t') :
-    TS r r' (x :: t) (x :: t') := by
-  obtain ⟨xs, d, hk, hd, rfl, rfl⟩ := h
-  exact ⟨x :: xs, d, (allK_cons x xs).mpr ⟨hx, hk⟩, hd, rfl, rfl⟩
-
-/-- results agree: same error, or same value with rests that are again `TS`-related -/
-def RRel {α} (r r' : List Token) (x y : R (α × List Token)) : Prop :=
-  match x, y with
-  | .ok (a, u), .ok (a', u') => a = a' ∧ TS r r' u u'
-  | .error e, .error e' => e = e'
-  | _, _ => False
-
-theorem RRel.ok {α} {r r' u u' : List Token} (a : α) (h : TS r r' u u') :
-    RRel r r' (.ok (a, u) : R (α × List Token)) (.ok (a, u')) := ⟨rfl, h⟩
-theorem RRel.pure {α} {r r' u u' : List Token} (a : α) (h : TS r r' u u') :
-    RRel r r' (pure (a, u) : R (α × List Token)) (pure (a, u')) := ⟨rfl, h⟩
-theorem RRel.err {α} {r r' : List Token} (e : Err) : RRel r r' (.error e : R (α × List Token)) (.error e) := rfl
-theorem RRel.perr {α} {r r' : List Token} (m : String) : RRel r r' (perr m : R (α × List Token)) (perr m) := rfl
-
-theorem RRel.bind {α β} {r r' : List Token} {x y : R (α × List Token)} {k k' : α × List Token → R (β × List Token)}
-    (h : RRel r r' x y) (hk : ∀ a u u', TS r r' u u' → RRel r r' (k (a, u)) (k' (a, u'))) :
-    RRel r r' (x >>= k) (y >>= k') := by
-  cases x with
+  have hg := (Fuel.tplGood (4 * ts.length + 16)).outer ts (by omega)
+  cases hp : parseOuter (4 * ts.length + 16) ts with
   | error e =>
-    cases y with
-    | error e' => simp only [RRel] at h; subst h; rfl
-    | ok b => simp [RRel] at h
-  | ok a =>
-    cases y with
-    | error e' => simp [RRel] at h
-    | ok b =>
-      obtain ⟨a1, u⟩ := a
-      obtain ⟨b1, u'⟩ := b
-      simp only [RRel] at h
-      obtain ⟨rfl, ht⟩ := h
-      exact hk a1 u u' ht
+    intro h
+    have h' : (Except.error e : R (List Node)) = .error .fuel := h
+    cases h'
+    exact hg.nf hp
+  | ok p =>
+    obtain ⟨nodes, rest⟩ := p
+    show (if hasDup (blockNamesL nodes) then perr "the block has already been defined" else pure nodes) ≠ _
+    split <;> intro h <;> cases h
 
-theorem RRel.ite {α} {r r' : List Token} {c : Prop} [Decidable c] {a a' b b' : R (α × List Token)}
-    (h1 : c → RRel r r' a a') (h2 : ¬c → RRel r r' b b') :
-    RRel r r' (if c then a else b) (if c then a' else b') := by
-  by_cases h : c
-  · simp only [h, if_true]; exact h1 h
-  · simp only [h, if_false]; exact h2 h
+/-- `parseTemplate` never reports the fuel error -/
+theorem parseTemplate_ne_fuel (s : Bytes) : parseTemplate s ≠ .error .fuel := by
+  rw [parseTemplate_eq_with]
+  unfold parseTemplateWith
+  split
+  · intro h; cases h
+  · exact parseTokens_ne_fuel _
 
-theorem peek_TS {r r' ts ts' : List Token} (h : TS r r' ts ts') : peekBinary ts = peekBinary ts' := by
-  rcases h.cases with ⟨d, hd, rfl, rfl⟩ | ⟨x, t, t', hx, rfl, rfl, ht⟩
-  · rw [stop_peek hd.stop, stop_peek hd.stop]
-  · rcases ht.cases with ⟨d, hd, rfl, rfl⟩ | ⟨y, t2, t2', hy, rfl, rfl, ht2⟩
-    · simp [peekBinary, hd.kinds.1]
-    · simp [peekBinary]
+/-! ## text tokens and a comment group in front of a token stream -/
 
+def textToks (xs : List Bytes) : List Token := xs.map (fun v => (⟨TEXT, v⟩ : Token))
 
-structure LocAt (f : Nat) : Prop where
-  expr : ∀ r r' ts ts', TS r r' ts ts' → RRel r r' (parseExpression f ts) (parseExpression f ts')
-  cond : ∀ c r r' ts ts', TS r r' ts ts' → RRel r r' (parseConditional f c ts) (parseConditional f c ts')
-  bin : ∀ m r r' ts ts', TS r r' ts ts' → RRel r r' (parseBinaryPrec f m ts) (parseBinaryPrec f m ts')
-  loop : ∀ m l r r' ts ts', TS r r' ts ts' → RRel r r' (parseLoop f m l ts) (parseLoop f m l ts')
-  test : ∀ l neg name r r' ts ts', TS r r' ts ts' → RRel r r' (parseTest f l neg name ts) (parseTest f l neg name ts')
-  args : ∀ close msg r r' ts ts', TS r r' ts ts' → RRel r r' (parseArgs f close msg ts) (parseArgs f close msg ts')
-  argsLoop : ∀ close msg r r' ts ts', TS r r' ts ts' →
-    RRel r r' (parseArgsLoop f close msg ts) (parseArgsLoop f close msg ts')
-  operand : ∀ r r' ts ts', TS r r' ts ts' → RRel r r' (parseOperand f ts) (parseOperand f ts')
-  suffix : ∀ e r r' ts ts', TS r r' ts ts' → RRel r r' (parseSuffix f e ts) (parseSuffix f e ts')
-  filters : ∀ e r r' ts ts', TS r r' ts ts' → RRel r r' (parseFilters f e ts) (parseFilters f e ts')
-  simple : ∀ r r' ts ts', TS r r' ts ts' → RRel r r' (parseSimple f ts) (parseSimple f ts')
-  attrs : ∀ e r r' ts ts', TS r r' ts ts' → RRel r r' (parseAttrs f e ts) (parseAttrs f e ts')
-  map : ∀ r r' ts ts', TS r r' ts ts' → RRel r r' (parseMap f ts) (parseMap f ts')
-  mapLoop : ∀ r r' ts ts', TS r r' ts ts' → RRel r r' (parseMapLoop f ts) (parseMapLoop f ts')
+/-- any fuel above `|ts|` gives the result of fuel `|ts|+1` -/
+theorem parseOuter_enough {f : Nat} {ts : List Token} (h : ts.length + 1 ≤ f) :
+    parseOuter f ts = parseOuter (ts.length + 1) ts :=
+  (Fuel.tplStable h).outer ts ((Fuel.tplGood _).outer ts (Nat.le_refl _)).nf
 
-theorem locAt_zero : LocAt 0 := by
-  constructor <;> intros <;> simp only [parseExpression, parseConditional, parseBinaryPrec,
-    parseLoop, parseTest, parseArgs, parseArgsLoop, parseOperand, parseSuffix, parseFilters, parseSimple,
-    parseAttrs, parseMap, parseMapLoop] <;> exact RRel.err _
+theorem textsThen_append (xs ys : List Bytes) (ns : List Node) :
+    textsThen xs (textsThen ys ns) = textsThen (xs ++ ys) ns := by
+  simp [textsThen, List.map_append, List.append_assoc]
 
-theorem loc_expr (f : Nat) (ih : LocAt f) (r r' ts ts' : List Token) (h : TS r r' ts ts') :
-    RRel r r' (parseExpression (f+1) ts) (parseExpression (f+1) ts') := by
-  unfold parseExpression
-  refine RRel.bind (ih.bin 1 _ _ _ _ h) ?_
-  intro e u u' hu
-  rcases hu.cases with ⟨d, hd, rfl, rfl⟩ | ⟨x, t, t', hx, rfl, rfl, ht⟩
-  · simp only [hd.isP, Bool.false_eq_true, if_false]
-    exact RRel.pure e (TS.end_ hd)
-  · simp only
-    split
-    · exact ih.cond e _ _ _ _ ht
-    · exact RRel.pure e (TS.cons hx ht)
+theorem parseOuter_textToks (Q : List Token) : ∀ (xs : List Bytes) (f : Nat),
+    parseOuter (f + xs.length) (textToks xs ++ Q) = (parseOuter f Q >>= fun x => pure (textsThen xs x.1, x.2))
+  | [], f => by
+    show parseOuter f Q = _
+    cases parseOuter f Q <;> rfl
+  | x :: xs, f => by
+    have : f + (x :: xs).length = (f + xs.length) + 1 := by simp only [List.length_cons]; omega
+    rw [this]
+    show parseOuter _ (⟨TEXT, x⟩ :: (textToks xs ++ Q)) = _
+    rw [parseOuter_text, parseOuter_textToks Q xs f]
+    cases parseOuter f Q <;> rfl
 
-theorem loc_cond (f : Nat) (ih : LocAt f) (c : Expr) (r r' ts ts' : List Token) (h : TS r r' ts ts') :
-    RRel r r' (parseConditional (f+1) c ts) (parseConditional (f+1) c ts') := by
-  unfold parseConditional
-  refine RRel.bind (ih.expr _ _ _ _ h) ?_
-  intro e u u' hu
-  rcases hu.cases with ⟨d, hd, rfl, rfl⟩ | ⟨x, t, t', hx, rfl, rfl, ht⟩
-  · simp only [hd.isP, Bool.false_eq_true, if_false]
-    exact RRel.perr _
-  · simp only
-    split
-    · refine RRel.bind (ih.expr _ _ _ _ ht) ?_
-      intro e2 v v' hv
-      exact RRel.pure _ hv
-    · exact RRel.perr _
+/-- the parse of a token stream with exactly the fuel it needs, and the duplicate-block check -/
+def parseCore (Q : List Token) : R (List Node) :=
+  parseOuter (Q.length + 1) Q >>= fun x =>
+    if hasDup (blockNamesL x.1) then perr "the block has already been defined" else pure x.1
 
-theorem loc_bin (f : Nat) (ih : LocAt f) (m : Nat) (r r' ts ts' : List Token) (h : TS r r' ts ts') :
-    RRel r r' (parseBinaryPrec (f+1) m ts) (parseBinaryPrec (f+1) m ts') := by
-  unfold parseBinaryPrec
-  refine RRel.bind (ih.operand _ _ _ _ h) ?_
-  intro e u u' hu
-  exact ih.loop m e _ _ _ _ hu
+/-- text tokens, then (optionally) a comment group, then text tokens in front of a stream `Q`: the parse is the parse
+    of `Q` with those text nodes in front -/
+theorem parseTokens_texts (xs : List Bytes) (Q : List Token) :
+    parseTokens (textToks xs ++ Q) = mapNodes (textsThen xs) (parseCore Q) := by
+  unfold parseTokens parseCore
+  obtain ⟨F, hF⟩ : ∃ F, 4 * (textToks xs ++ Q).length + 16 = F + xs.length ∧ Q.length + 1 ≤ F :=
+    ⟨4 * (textToks xs ++ Q).length + 16 - xs.length, by
+      simp only [textToks, List.length_append, List.length_map]; omega⟩
+  rw [hF.1, parseOuter_textToks, parseOuter_enough hF.2]
+  cases parseOuter (Q.length + 1) Q with
+  | error e => rfl
+  | ok x =>
+    simp only [ok_bind, pure_eq_ok, blockNamesL_texts]
+    split <;> rfl
 
+theorem parseTokens_texts_comment (xs1 xs2 : List Bytes) (v : Bytes) (cs : List Token) (e : Token)
+    (hcs : ∀ c ∈ cs, c.kind ≠ COMMENT_END) (he : e.kind = COMMENT_END) (Q : List Token) :
+    parseTokens (textToks xs1 ++ ⟨COMMENT_START, v⟩ :: (cs ++ e :: (textToks xs2 ++ Q))) =
+      mapNodes (textsThen (xs1 ++ xs2)) (parseCore Q) := by
+  unfold parseTokens parseCore
+  obtain ⟨F, hF⟩ : ∃ F, 4 * (textToks xs1 ++ ⟨COMMENT_START, v⟩ :: (cs ++ e :: (textToks xs2 ++ Q))).length + 16 =
+      ((F + xs2.length) + 1) + xs1.length ∧ Q.length + 1 ≤ F :=
+    ⟨4 * (textToks xs1 ++ ⟨COMMENT_START, v⟩ :: (cs ++ e :: (textToks xs2 ++ Q))).length + 16
+        - xs1.length - 1 - xs2.length, by
+      simp only [textToks, List.length_append, List.length_map, List.length_cons]; omega⟩
+  rw [hF.1, parseOuter_textToks, parseOuter_comment _ _ _ _ _ hcs he, parseOuter_textToks, parseOuter_enough hF.2]
+  cases parseOuter (Q.length + 1) Q with
+  | error e => rfl
+  | ok x =>
+    simp only [ok_bind, pure_eq_ok, blockNamesL_texts, textsThen_append]
+    split <;> rfl
 
-def _root_.Twig.Peek.width : Peek → Nat
-  | .none => 0
-  | .notDefined => 2
-  | .isT _ w => w
-  | .op _ w => w
+/-- hence rendering such a stream: only the concatenation of the text tokens matters -/
+theorem render_texts_regroup (A B : List Token) (xs ys : List Bytes) (Q : List Token)
+    (hA : parseTokens A = mapNodes (textsThen xs) (parseCore Q))
+    (hB : parseTokens B = mapNodes (textsThen ys) (parseCore Q))
+    (h : xs.flatten = ys.flatten) (vars : List (Bytes × Val)) :
+    (parseTokens A >>= fun ns => renderNodesTop ns vars) = (parseTokens B >>= fun ns => renderNodesTop ns vars) := by
+  rw [hA, hB]
+  cases parseCore Q with
+  | error e => rfl
+  | ok ns => exact renderNodesTop_texts ns xs ys h vars
 
-theorem nil_beq_in : (([] : Bytes) == b "in") = false := by decide +kernel
-theorem nil_beq_defined : (([] : Bytes) == b "defined") = false := by decide +kernel
-theorem nil_beq_not : (([] : Bytes) == b "not") = false := by decide +kernel
-theorem nil_beq_with : (([] : Bytes) == b "with") = false := by decide +kernel
+/-! ## vocabulary of the old statement `C13_commutes_render_partial` -/
 
-/-- an operator spelling takes one token, or two when the second token is a NAME -/
-theorem peek_two (ts : List Token) :
-    ((peekBinary ts).width ≤ 1 ∧ ((peekBinary ts).width = 1 → ∃ t r, ts = t :: r ∧ ExprKind t.kind)) ∨
-    (∃ t n r, ts = t :: n :: r ∧ ExprKind t.kind ∧ ExprKind n.kind ∧ (peekBinary ts).width ≤ 2) := by
-  cases ts with
-  | nil => exact .inl ⟨by simp [peekBinary, Peek.width], by simp [peekBinary, Peek.width]⟩
-  | cons t r =>
-    by_cases hop : t.kind = OPERATOR
-    · left
-      have : (t.kind == OPERATOR) = true := by simp [hop]
-      simp only [peekBinary, this, if_true]
-      cases opOfSymbol t.val with
-      | none => exact ⟨by simp [Peek.width], by simp [Peek.width]⟩
-      | some o => exact ⟨by simp [Peek.width], fun _ => ⟨t, r, rfl, by rw [hop]; decide⟩⟩
-    · have h1 : (t.kind == OPERATOR) = false := by simp [hop]
-      by_cases hn : t.kind = NAME
-      · have h2 : (t.kind != NAME) = false := by simp [hn]
-        have htk : ExprKind t.kind := by rw [hn]; decide
-        have fin1 : ∀ (nx : Bytes), nx = [] →
-            ((if (t.val == b "and") = true then Peek.op BinOp.and 1
-              else if (t.val == b "or") = true then Peek.op BinOp.or 1
-              else if (t.val == b "in") = true then Peek.op BinOp.in_ 1
-              else if (t.val == b "matches") = true then Peek.op BinOp.matches_ 1
-              else if (t.val == b "not") = true then
-                if (nx == b "in") = true then Peek.op BinOp.notIn 2
-                else if (nx == b "defined") = true then Peek.notDefined else Peek.none
-              else if (t.val == b "is") = true then
-                if (nx == b "not") = true then Peek.isT true 2 else Peek.isT false 1
-              else if (t.val == b "starts") = true then
-                (if (nx == b "with") = true then Peek.op BinOp.startsWith 2 else Peek.none)
-              else if (t.val == b "ends") = true then
-                (if (nx == b "with") = true then Peek.op BinOp.endsWith 2 else Peek.none)
-              else Peek.none : Peek).width ≤ 1) := by
-          intro nx hnx
-          subst hnx
-          simp only [nil_beq_in, nil_beq_defined, nil_beq_not, nil_beq_with, Bool.false_eq_true, if_false]
-          repeat' split
-          all_goals decide
-        have fin2 : ∀ (nx : Bytes),
-            ((if (t.val == b "and") = true then Peek.op BinOp.and 1
-              else if (t.val == b "or") = true then Peek.op BinOp.or 1
-              else if (t.val == b "in") = true then Peek.op BinOp.in_ 1
-              else if (t.val == b "matches") = true then Peek.op BinOp.matches_ 1
-              else if (t.val == b "not") = true then
-                if (nx == b "in") = true then Peek.op BinOp.notIn 2
-                else if (nx == b "defined") = true then Peek.notDefined else Peek.none
-              else if (t.val == b "is") = true then
-                if (nx == b "not") = true then Peek.isT true 2 else Peek.isT false 1
-              else if (t.val == b "starts") = true then
-                (if (nx == b "with") = true then Peek.op BinOp.startsWith 2 else Peek.none)
-              else if (t.val == b "ends") = true then
-                (if (nx == b "with") = true then Peek.op BinOp.endsWith 2 else Peek.none)
-              else Peek.none : Peek).width ≤ 2) := by
-          intro nx
-          repeat' split
-          all_goals decide
-        cases r with
-        | nil =>
-          left
-          simp only [peekBinary, h1, h2, Bool.false_eq_true, if_false]
-          exact ⟨fin1 _ rfl, fun _ => ⟨t, [], rfl, htk⟩⟩
-        | cons n r2 =>
-          by_cases hnk : n.kind = NAME
-          · right
-            refine ⟨t, n, r2, rfl, htk, by rw [hnk]; decide, ?_⟩
-            simp only [peekBinary, h1, h2, Bool.false_eq_true, if_false]
-            exact fin2 _
-          · left
-            have hnk' : (n.kind == NAME) = false := by simp [hnk]
-            simp only [peekBinary, h1, h2, hnk', Bool.false_eq_true, if_false]
-            exact ⟨fin1 _ rfl, fun _ => ⟨t, n :: r2, rfl, htk⟩⟩
-      · left
-        have h2 : (t.kind != NAME) = true := by simp [hn]
-        simp only [peekBinary, h1, h2, Bool.false_eq_true, if_false, if_true]
-        exact ⟨by simp [Peek.width], by simp [Peek.width]⟩
-
-theorem peek_drop {r r' ts ts' : List Token} (h : TS r r' ts ts') :
-    TS r r' (ts.drop (peekBinary ts).width) (ts'.drop (peekBinary ts).width) := by
-  rcases peek_two ts with ⟨hle, h1⟩ | ⟨t, n, r2, rfl, ht, hn, hle⟩
-  · have : (peekBinary ts).width = 0 ∨ (peekBinary ts).width = 1 := by omega
-    rcases this with h0 | h1'
-    · rw [h0]; exact h
-    · rw [h1']
-      obtain ⟨t, r2, rfl, ht⟩ := h1 h1'
-      rcases h.cases with ⟨d, hd, e1, rfl⟩ | ⟨x, u, u', hx, e1, rfl, hu⟩
-      · obtain ⟨rfl, rfl⟩ := List.cons.inj e1; exact absurd ht hd
-      · obtain ⟨rfl, rfl⟩ := List.cons.inj e1; exact hu
-  · rcases h.cases with ⟨d, hd, e1, rfl⟩ | ⟨x, u, u', hx, e1, rfl, hu⟩
-    · obtain ⟨rfl, _⟩ := List.cons.inj e1; exact absurd ht hd
-    · obtain ⟨rfl, rfl⟩ := List.cons.inj e1
-      rcases hu.cases with ⟨d, hd, e1, rfl⟩ | ⟨y, v, v', hy, e1, rfl, hv⟩
-      · obtain ⟨rfl, _⟩ := List.cons.inj e1; exact absurd hn hd
-      · obtain ⟨rfl, rfl⟩ := List.cons.inj e1
-        have : (peekBinary (t :: n :: r2)).width = 0 ∨ (peekBinary (t :: n :: r2)).width = 1 ∨
-            (peekBinary (t :: n :: r2)).width = 2 := by omega
-        rcases this with h0 | h0 | h0 <;> rw [h0]
-        · exact TS.cons hx (TS.cons hy hv)
-        · exact TS.cons hy hv
-        · exact hv
-
-
-theorem loc_loop (f : Nat) (ih : LocAt f) (m : Nat) (l : Expr) (r r' ts ts' : List Token) (h : TS r r' ts ts') :
-    RRel r r' (parseLoop (f+1) m l ts) (parseLoop (f+1) m l ts') := by
-  unfold parseLoop
-  rw [← peek_TS h]
-  have hd := peek_drop h
-  cases hp : peekBinary ts with
-  | none => exact RRel.pure l h
-  | notDefined =>
-    rw [hp] at hd
-    exact ih.loop _ _ _ _ _ _ hd
-  | isT neg w =>
-    rw [hp] at hd
-    simp only [Peek.width] at hd
-    simp only
-    split
-    · exact RRel.pure l h
-    · rcases hd.cases with ⟨d, hd', e1, e2⟩ | ⟨x, t, t', hx, e1, e2, ht⟩
-      · rw [e1, e2]
-        have : (d.kind == NAME) = false := by simp [hd'.kinds.1]
-        simp only [this, Bool.false_eq_true, if_false]
-        refine RRel.bind (ih.bin _ _ _ _ _ (TS.end_ hd')) ?_
-        intro a u u' hu
-        exact ih.loop _ _ _ _ _ _ hu
-      · rw [e1, e2]
-        simp only
-        split
-        · refine RRel.bind (ih.test _ _ _ _ _ _ _ ht) ?_
-          intro a u u' hu
-          exact ih.loop _ _ _ _ _ _ hu
-        · refine RRel.bind (ih.bin _ _ _ _ _ (TS.cons hx ht)) ?_
-          intro a u u' hu
-          exact ih.loop _ _ _ _ _ _ hu
-  | op o w =>
-    rw [hp] at hd
-    simp only [Peek.width] at hd
-    simp only
-    split
-    · exact RRel.pure l h
-    · refine RRel.bind (ih.bin _ _ _ _ _ hd) ?_
-      intro a u u' hu
-      exact ih.loop _ _ _ _ _ _ hu
-
-theorem loc_test (f : Nat) (ih : LocAt f) (l : Expr) (neg : Bool) (name : Bytes) (r r' ts ts' : List Token)
-    (h : TS r r' ts ts') :
-    RRel r r' (parseTest (f+1) l neg name ts) (parseTest (f+1) l neg name ts') := by
-  unfold parseTest
-  rcases h.cases with ⟨d, hd, rfl, rfl⟩ | ⟨x, t, t', hx, rfl, rfl, ht⟩
-  · simp only [hd.isP, Bool.false_eq_true, if_false]
-    exact RRel.pure _ (TS.end_ hd)
-  · simp only
-    split
-    · refine RRel.bind (ih.args _ _ _ _ _ _ ht) ?_
-      intro a u u' hu
-      exact RRel.pure _ hu
-    · exact RRel.pure _ (TS.cons hx ht)
-
-theorem loc_args (f : Nat) (ih : LocAt f) (close : UInt8) (msg : String) (r r' ts ts' : List Token)
-    (h : TS r r' ts ts') :
-    RRel r r' (parseArgs (f+1) close msg ts) (parseArgs (f+1) close msg ts') := by
-  unfold parseArgs
-  rcases h.cases with ⟨d, hd, rfl, rfl⟩ | ⟨x, t, t', hx, rfl, rfl, ht⟩
-  · simp only [hd.isP, Bool.false_eq_true, if_false]
-    exact ih.argsLoop _ _ _ _ _ _ (TS.end_ hd)
-  · simp only
-    split
-    · exact RRel.pure _ ht
-    · exact ih.argsLoop _ _ _ _ _ _ (TS.cons hx ht)
-
-theorem loc_argsLoop (f : Nat) (ih : LocAt f) (close : UInt8) (msg : String) (r r' ts ts' : List Token)
-    (h : TS r r' ts ts') :
-    RRel r r' (parseArgsLoop (f+1) close msg ts) (parseArgsLoop (f+1) close msg ts') := by
-  unfold parseArgsLoop
-  refine RRel.bind (ih.expr _ _ _ _ h) ?_
-  intro e u u' hu
-  rcases hu.cases with ⟨d, hd, rfl, rfl⟩ | ⟨x, t, t', hx, rfl, rfl, ht⟩
-  · simp only [hd.isP, Bool.false_eq_true, if_false]
-    exact RRel.perr _
-  · simp only
-    split
-    · refine RRel.bind (ih.argsLoop _ _ _ _ _ _ ht) ?_
-      intro es v v' hv
-      exact RRel.pure _ hv
-    · split
-      · exact RRel.pure _ ht
-      · exact RRel.perr _
-
-theorem loc_operand (f : Nat) (ih : LocAt f) (r r' ts ts' : List Token) (h : TS r r' ts ts') :
-    RRel r r' (parseOperand (f+1) ts) (parseOperand (f+1) ts') := by
-  unfold parseOperand
-  refine RRel.bind (ih.simple _ _ _ _ h) ?_
-  intro e u u' hu
-  exact ih.suffix e _ _ _ _ hu
-
-theorem loc_suffix (f : Nat) (ih : LocAt f) (e : Expr) (r r' ts ts' : List Token) (h : TS r r' ts ts') :
-    RRel r r' (parseSuffix (f+1) e ts) (parseSuffix (f+1) e ts') := by
-  unfold parseSuffix
-  rcases h.cases with ⟨d, hd, rfl, rfl⟩ | ⟨x, t, t', hx, rfl, rfl, ht⟩
-  · simp only [hd.isP, Bool.false_eq_true, if_false]
-    exact RRel.pure _ (TS.end_ hd)
-  · simp only
-    split
-    · refine RRel.bind (ih.expr _ _ _ _ ht) ?_
-      intro i u u' hu
-      rcases hu.cases with ⟨d, hd, rfl, rfl⟩ | ⟨y, v, v', hy, rfl, rfl, hv⟩
-      · simp only [hd.isP, Bool.false_eq_true, if_false]
-        exact RRel.perr _
-      · simp only
-        split
-        · exact ih.suffix _ _ _ _ _ hv
-        · exact RRel.perr _
-    · split
-      · refine RRel.bind (ih.filters _ _ _ _ _ (TS.cons hx ht)) ?_
-        intro e' u u' hu
-        exact ih.suffix _ _ _ _ _ hu
-      · exact RRel.pure _ (TS.cons hx ht)
-
-
-theorem EndTok.kindbeq {d : Token} (h : EndTok d) :
-    (d.kind == NAME) = false ∧ (d.kind == NUMBER) = false ∧ (d.kind == STRING) = false ∧
-    (d.kind == OPERATOR) = false ∧ (d.kind == PUNCT) = false := by
-  obtain ⟨h1, h2, h3, h4, h5⟩ := h.kinds
-  simp [h1, h2, h3, h4, h5]
-
-theorem loc_filters (f : Nat) (ih : LocAt f) (e : Expr) (r r' ts ts' : List Token) (h : TS r r' ts ts') :
-    RRel r r' (parseFilters (f+1) e ts) (parseFilters (f+1) e ts') := by
-  unfold parseFilters
-  rcases h.cases with ⟨d, hd, rfl, rfl⟩ | ⟨x, t, t', hx, rfl, rfl, ht⟩
-  · simp only [hd.isP, Bool.false_eq_true, if_false]
-    exact RRel.pure _ (TS.end_ hd)
-  · simp only
-    split
-    · rcases ht.cases with ⟨d, hd, rfl, rfl⟩ | ⟨y, t2, t2', hy, rfl, rfl, ht2⟩
-      · simp only [hd.kindbeq.1, Bool.false_eq_true, if_false]
-        exact RRel.perr _
-      · simp only
-        split
-        · rcases ht2.cases with ⟨d, hd, rfl, rfl⟩ | ⟨z, t3, t3', hz, rfl, rfl, ht3⟩
-          · simp only [hd.isP, Bool.false_eq_true, if_false, pure_eq_ok, ok_bind]
-            exact ih.filters _ _ _ _ _ (TS.end_ hd)
-          · simp only
-            split
-            · refine RRel.bind (ih.args _ _ _ _ _ _ ht3) ?_
-              intro a u u' hu
-              exact ih.filters _ _ _ _ _ hu
-            · simp only [pure_eq_ok, ok_bind]
-              exact ih.filters _ _ _ _ _ (TS.cons hz ht3)
-        · exact RRel.perr _
-    · exact RRel.pure _ (TS.cons hx ht)
-
-theorem loc_attrs (f : Nat) (ih : LocAt f) (e : Expr) (r r' ts ts' : List Token) (h : TS r r' ts ts') :
-    RRel r r' (parseAttrs (f+1) e ts) (parseAttrs (f+1) e ts') := by
-  unfold parseAttrs
-  rcases h.cases with ⟨d, hd, rfl, rfl⟩ | ⟨x, t, t', hx, rfl, rfl, ht⟩
-  · simp only [hd.isP, Bool.false_eq_true, if_false]
-    exact RRel.pure _ (TS.end_ hd)
-  · simp only
-    split
-    · rcases ht.cases with ⟨d, hd, rfl, rfl⟩ | ⟨y, t2, t2', hy, rfl, rfl, ht2⟩
-      · simp only [hd.kindbeq.1, Bool.false_eq_true, if_false]
-        exact RRel.perr _
-      · simp only
-        split
-        · rcases ht2.cases with ⟨d, hd, rfl, rfl⟩ | ⟨z, t3, t3', hz, rfl, rfl, ht3⟩
-          · simp only [hd.isP, Bool.false_eq_true, if_false]
-            exact ih.attrs _ _ _ _ _ (TS.end_ hd)
-          · simp only
-            split
-            · refine RRel.bind (ih.args _ _ _ _ _ _ ht3) ?_
-              intro a u u' hu
-              exact ih.attrs _ _ _ _ _ hu
-            · exact ih.attrs _ _ _ _ _ (TS.cons hz ht3)
-        · exact RRel.perr _
-    · exact RRel.pure _ (TS.cons hx ht)
-
-theorem loc_map (f : Nat) (ih : LocAt f) (r r' ts ts' : List Token) (h : TS r r' ts ts') :
-    RRel r r' (parseMap (f+1) ts) (parseMap (f+1) ts') := by
-  unfold parseMap
-  rcases h.cases with ⟨d, hd, rfl, rfl⟩ | ⟨x, t, t', hx, rfl, rfl, ht⟩
-  · simp only [hd.isP, Bool.false_eq_true, if_false]
-    refine RRel.bind (ih.mapLoop _ _ _ _ (TS.end_ hd)) ?_
-    intro a u u' hu
-    exact RRel.pure _ hu
-  · simp only
-    split
-    · exact RRel.pure _ ht
-    · refine RRel.bind (ih.mapLoop _ _ _ _ (TS.cons hx ht)) ?_
-      intro a u u' hu
-      exact RRel.pure _ hu
-
-theorem loc_mapLoop (f : Nat) (ih : LocAt f) (r r' ts ts' : List Token) (h : TS r r' ts ts') :
-    RRel r r' (parseMapLoop (f+1) ts) (parseMapLoop (f+1) ts') := by
-  unfold parseMapLoop
-  refine RRel.bind (ih.expr _ _ _ _ h) ?_
-  intro k u u' hu
-  rcases hu.cases with ⟨d, hd, rfl, rfl⟩ | ⟨x, t, t', hx, rfl, rfl, ht⟩
-  · simp only [hd.isP, Bool.false_eq_true, if_false]
-    exact RRel.perr _
-  · simp only
-    split
-    · refine RRel.bind (ih.expr _ _ _ _ ht) ?_
-      intro v w w' hw
-      rcases hw.cases with ⟨d, hd, rfl, rfl⟩ | ⟨y, t2, t2', hy, rfl, rfl, ht2⟩
-      · simp only [hd.isP, Bool.false_eq_true, if_false]
-        exact RRel.perr _
-      · simp only
-        split
-        · refine RRel.bind (ih.mapLoop _ _ _ _ ht2) ?_
-          intro kvs z z' hz
-          exact RRel.pure _ hz
-        · split
-          · exact RRel.pure _ ht2
-          · exact RRel.perr _
-    · exact RRel.perr _
-
-
-theorem loc_simple (f : Nat) (ih : LocAt f) (r r' ts ts' : List Token) (h : TS r r' ts ts') :
-    RRel r r' (parseSimple (f+1) ts) (parseSimple (f+1) ts') := by
-  unfold parseSimple
-  rcases h.cases with ⟨d, hd, rfl, rfl⟩ | ⟨x, t, t', hx, rfl, rfl, ht⟩
-  · simp only [hd.isP, hd.isName, hd.kindbeq.1, hd.kindbeq.2.1, hd.kindbeq.2.2.1, hd.kindbeq.2.2.2.1,
-      Bool.false_and, Bool.false_eq_true, if_false]
-    exact RRel.perr _
-  · dsimp only
-    refine RRel.ite (fun _ => ?_) (fun _ => ?_)
-    · refine RRel.bind (ih.simple _ _ _ _ ht) ?_
-      intro e u u' hu; exact RRel.pure _ hu
-    refine RRel.ite (fun _ => ?_) (fun _ => ?_)
-    · refine RRel.bind (ih.simple _ _ _ _ ht) ?_
-      intro e u u' hu; exact RRel.pure _ hu
-    refine RRel.ite (fun _ => ?_) (fun _ => ?_)
-    · refine RRel.bind (ih.simple _ _ _ _ ht) ?_
-      intro e u u' hu; exact RRel.pure _ hu
-    refine RRel.ite (fun _ => ?_) (fun _ => ?_)
-    · exact RRel.pure _ ht
-    refine RRel.ite (fun _ => ?_) (fun _ => ?_)
-    · exact RRel.pure _ ht
-    refine RRel.ite (fun _ => ?_) (fun _ => ?_)
-    · refine RRel.ite (fun _ => ?_) (fun _ => ?_)
-      · exact RRel.pure _ ht
-      refine RRel.ite (fun _ => ?_) (fun _ => ?_)
-      · exact RRel.pure _ ht
-      refine RRel.ite (fun _ => ?_) (fun _ => ?_)
-      · exact RRel.pure _ ht
-      rcases ht.cases with ⟨d, hd, rfl, rfl⟩ | ⟨y, t2, t2', hy, rfl, rfl, ht2⟩
-      · simp only [hd.isP, Bool.false_eq_true, if_false]
-        exact ih.attrs _ _ _ _ _ (TS.end_ hd)
-      · dsimp only
-        refine RRel.ite (fun _ => ?_) (fun _ => ?_)
-        · refine RRel.bind (ih.args _ _ _ _ _ _ ht2) ?_
-          intro a u u' hu; exact RRel.pure _ hu
-        · exact ih.attrs _ _ _ _ _ (TS.cons hy ht2)
-    refine RRel.ite (fun _ => ?_) (fun _ => ?_)
-    · refine RRel.bind (ih.args _ _ _ _ _ _ ht) ?_
-      intro a u u' hu; exact RRel.pure _ hu
-    refine RRel.ite (fun _ => ?_) (fun _ => ?_)
-    · exact ih.map _ _ _ _ ht
-    refine RRel.ite (fun _ => ?_) (fun _ => ?_)
-    · refine RRel.bind (ih.expr _ _ _ _ ht) ?_
-      intro e u u' hu
-      rcases hu.cases with ⟨d, hd, rfl, rfl⟩ | ⟨y, t2, t2', hy, rfl, rfl, ht2⟩
-      · simp only [hd.isP, Bool.false_eq_true, if_false]
-        exact RRel.perr _
-      · dsimp only
-        refine RRel.ite (fun _ => ?_) (fun _ => ?_)
-        · exact RRel.pure _ ht2
-        · exact RRel.perr _
-    · exact RRel.perr _
-
-theorem locAt_succ (f : Nat) (ih : LocAt f) : LocAt (f+1) where
-  expr := loc_expr f ih
-  cond := loc_cond f ih
-  bin := loc_bin f ih
-  loop := loc_loop f ih
-  test := loc_test f ih
-  args := loc_args f ih
-  argsLoop := loc_argsLoop f ih
-  operand := loc_operand f ih
-  suffix := loc_suffix f ih
-  filters := loc_filters f ih
-  simple := loc_simple f ih
-  attrs := loc_attrs f ih
-  map := loc_map f ih
-  mapLoop := loc_mapLoop f ih
-
-/-- every expression-parser function is local: its result on `xs ++ d :: r` (expression tokens `xs`, a
-    non-expression token `d`) does not depend on `r`, and what it leaves is a suffix `ys ++ d :: r` -/
-theorem locAt : ∀ f, LocAt f
-  | 0 => locAt_zero
-  | f+1 => locAt_succ f (locAt f)
-
-
-
-/-! ## fuel monotonicity of the expression parser (same technique as `tmonoAt`) -/
-
-structure EMonoAt (f : Nat) : Prop where
-  expr : ∀ ts, FLe (parseExpression f ts) (parseExpression (f+1) ts)
-  cond : ∀ c ts, FLe (parseConditional f c ts) (parseConditional (f+1) c ts)
-  bin : ∀ m ts, FLe (parseBinaryPrec f m ts) (parseBinaryPrec (f+1) m ts)
-  loop : ∀ m l ts, FLe (parseLoop f m l ts) (parseLoop (f+1) m l ts)
-  test : ∀ l neg name ts, FLe (parseTest f l neg name ts) (parseTest (f+1) l neg name ts)
-  args : ∀ close msg ts, FLe (parseArgs f close msg ts) (parseArgs (f+1) close msg ts)
-  argsLoop : ∀ close msg ts, FLe (parseArgsLoop f close msg ts) (parseArgsLoop (f+1) close msg ts)
-  operand : ∀ ts, FLe (parseOperand f ts) (parseOperand (f+1) ts)
-  suffix : ∀ e ts, FLe (parseSuffix f e ts) (parseSuffix (f+1) e ts)
-  filters : ∀ e ts, FLe (parseFilters f e ts) (parseFilters (f+1) e ts)
-  simple : ∀ ts, FLe (parseSimple f ts) (parseSimple (f+1) ts)
-  attrs : ∀ e ts, FLe (parseAttrs f e ts) (parseAttrs (f+1) e ts)
-  map : ∀ ts, FLe (parseMap f ts) (parseMap (f+1) ts)
-  mapLoop : ∀ ts, FLe (parseMapLoop f ts) (parseMapLoop (f+1) ts)
-
-theorem emonoAt_zero : EMonoAt 0 := by
-  constructor <;> intros <;> exact .inl (by simp [parseExpression, parseConditional, parseBinaryPrec,
-    parseLoop, parseTest, parseArgs, parseArgsLoop, parseOperand, parseSuffix, parseFilters, parseSimple,
-    parseAttrs, parseMap, parseMapLoop])
-
-macro "efle" ih:ident : tactic => `(tactic| repeat' first
-  | exact FLe.refl _
-  | exact EMonoAt.expr $ih _ | exact EMonoAt.cond $ih _ _ | exact EMonoAt.bin $ih _ _
-  | exact EMonoAt.loop $ih _ _ _ | exact EMonoAt.test $ih _ _ _ _ | exact EMonoAt.args $ih _ _ _
-  | exact EMonoAt.argsLoop $ih _ _ _ | exact EMonoAt.operand $ih _ | exact EMonoAt.suffix $ih _ _
-  | exact EMonoAt.filters $ih _ _ | exact EMonoAt.simple $ih _ | exact EMonoAt.attrs $ih _ _
-  | exact EMonoAt.map $ih _ | exact EMonoAt.mapLoop $ih _
-  | refine FLe.bind ?_ (fun ⟨_, _⟩ => ?_)
-  | refine FLe.ite (fun _ => ?_) (fun _ => ?_)
-  | split
-  | dsimp only)
-
-theorem emonoAt_succ (f : Nat) (ih : EMonoAt f) : EMonoAt (f+1) where
-  expr ts := by unfold parseExpression; efle ih
-  cond c ts := by unfold parseConditional; efle ih
-  bin m ts := by unfold parseBinaryPrec; efle ih
-  loop m l ts := by unfold parseLoop; efle ih
-  test l neg name ts := by unfold parseTest; efle ih
-  args close msg ts := by unfold parseArgs; efle ih
-  argsLoop close msg ts := by unfold parseArgsLoop; efle ih
-  operand ts := by unfold parseOperand; efle ih
-  suffix e ts := by unfold parseSuffix; efle ih
-  filters e ts := by unfold parseFilters; efle ih
-  simple ts := by unfold parseSimple; efle ih
-  attrs e ts := by unfold parseAttrs; efle ih
-  map ts := by unfold parseMap; efle ih
-  mapLoop ts := by unfold parseMapLoop; efle ih
-
-theorem emonoAt : ∀ f, EMonoAt f
-  | 0 => emonoAt_zero
-  | f+1 => emonoAt_succ f (emonoAt f)
-
-theorem parseExpression_mono {f f' : Nat} {ts : List Token} (hne : parseExpression f ts ≠ .error .fuel)
-    (hle : f ≤ f') : parseExpression f' ts = parseExpression f ts :=
-  (FLe.chain (parseExpression · ts) (fun f => (emonoAt f).expr ts) hle).eq_of_ne hne
-
-
-
-/-! ## the parser is insensitive to empty TEXT tokens (outer positions) -/
-
-def isDrop (t : Token) : Bool := t.kind == TEXT && t.val.isEmpty
-
-theorem D_cons (t : Token) (r : List Token) :
-    dropEmptyText (t :: r) = if isDrop t then dropEmptyText r else t :: dropEmptyText r := by
-  simp only [dropEmptyText, List.filter_cons, isDrop]
-  by_cases h : (t.kind == TEXT && t.val.isEmpty) = true
-  · simp [h]
-  · simp [h]
-
-theorem D_cons_keep {t : Token} (h : isDrop t = false) (r : List Token) :
-    dropEmptyText (t :: r) = t :: dropEmptyText r := by rw [D_cons, h]; rfl
-theorem D_nil : dropEmptyText [] = [] := rfl
-
-theorem isDrop_of_kind {t : Token} (h : t.kind ≠ TEXT) : isDrop t = false := by
-  simp [isDrop, h]
-
-theorem D_append_allK {xs : List Token} (h : AllK xs) (r : List Token) :
-    dropEmptyText (xs ++ r) = xs ++ dropEmptyText r := by
-  induction xs with
-  | nil => rfl
-  | cons x xs ih =>
-    rw [allK_cons] at h
-    rw [List.cons_append, D_cons_keep (isDrop_of_kind (exprKind_ne_text h.1)), ih h.2]; rfl
-
-/-- number of empty TEXT tokens -/
-def extra : List Token → Nat
-  | [] => 0
-  | t :: r => (if isDrop t then 1 else 0) + extra r
-
-theorem extra_append (a c : List Token) : extra (a ++ c) = extra a + extra c := by
-  induction a with
-  | nil => simp [extra]
-  | cons t a ih => simp [extra, ih]; omega
-
-theorem extra_le_cons (t : Token) (r : List Token) : extra r ≤ extra (t :: r) := by
-  simp [extra]
-
-theorem D_length (ts : List Token) : (dropEmptyText ts).length ≤ ts.length := by
-  unfold dropEmptyText; exact List.length_filter_le _ _
-
-/-- the end token of a tag -/
-def IsEnd (d : Token) : Prop := d.kind = VAR_END ∨ d.kind = BLOCK_END
-
-theorem IsEnd.endTok {d : Token} (h : IsEnd d) : EndTok d := by
-  unfold EndTok ExprKind
-  rcases h with h | h <;> rw [h] <;> decide
-
-theorem IsEnd.keep {d : Token} (h : IsEnd d) : isDrop d = false := by
-  apply isDrop_of_kind
-  rcases h with h | h <;> rw [h] <;> decide
-
-/-- handlers whose simulation is not proved (yet) -/
+/-- the two block tags that `C13_commutes_render_partial` excluded (now covered by `C13_commutes_render`) -/
 def unsupportedTags : List Bytes := [b "include", b "verbatim"]
 
-/-- token streams at an outer position: text tokens, comment groups, tags (start token, expression tokens, end
-    token), up to EOF -/
-inductive WFo : List Token → Prop
-  | nil : WFo []
-  | eof (t : Token) (r : List Token) : t.kind = EOF → WFo (t :: r)
-  | text (t : Token) (r : List Token) : t.kind = TEXT → WFo r → WFo (t :: r)
-  | comment (s : Token) (cs : List Token) (e : Token) (r : List Token) : s.kind = COMMENT_START →
-      (∀ c ∈ cs, c.kind ≠ COMMENT_END) → e.kind = COMMENT_END → WFo r → WFo (s :: (cs ++ e :: r))
-  | tag (s : Token) (xs : List Token) (d : Token) (r : List Token) : (s.kind = VAR_START ∨ s.kind = BLOCK_START) →
-      AllK xs → IsEnd d → (s.kind = BLOCK_START → ∀ n xs', xs = n :: xs' → n.val ∉ unsupportedTags) →
-      (s.kind = BLOCK_START → d.kind = BLOCK_END) → WFo r → WFo (s :: (xs ++ d :: r))
-
-/-- after a block start token: expression tokens, an end token, an outer stream -/
-theorem WFo.block_inv {s : Token} {l : List Token} (h : WFo (s :: l)) (hs : s.kind = BLOCK_START) :
-    ∃ xs d r, l = xs ++ d :: r ∧ AllK xs ∧ IsEnd d ∧ WFo r ∧ d.kind = BLOCK_END := by
-  cases h with
-  | eof _ _ hk => rw [hs] at hk; cases hk
-  | text _ _ hk _ => rw [hs] at hk; cases hk
-  | comment _ cs e r hk _ _ _ => rw [hs] at hk; cases hk
-  | tag _ xs d r _ hx hd _ hp hr => exact ⟨xs, d, r, rfl, hx, hd, hr, hp hs⟩
-
-/-- `parseOuter` stops only at the end of the stream, at EOF or at a block start token -/
-def HeadOK (ts : List Token) : Prop := ∀ t r, ts = t :: r → t.kind = EOF ∨ t.kind = BLOCK_START
-
-theorem HeadOK.keep {t : Token} {r : List Token} (h : HeadOK (t :: r)) : isDrop t = false := by
-  apply isDrop_of_kind
-  rcases h t r rfl with h | h <;> rw [h] <;> decide
-
-
-/-- X-side result vs Y-side result: the Y side (stream without empty TEXT tokens) drives; values related by `φ`,
-    the X-side rest is a well-formed outer stream satisfying `P` and the Y-side rest is its image -/
-def RelR {α} (φ : α → α → Prop) (P : List Token → Prop) (x y : R (α × List Token)) : Prop :=
-  match y with
-  | .error e => x = .error e
-  | .ok (a', r') => ∃ a r, x = .ok (a, r) ∧ φ a a' ∧ WFo r ∧ r' = dropEmptyText r ∧ P r
-
-def fuelErr {α} : R α := .error .fuel
-
-theorem bind_ne_fuel {α β} {x : R α} {k : α → R β} (h : (x >>= k) ≠ fuelErr) : x ≠ fuelErr := by
-  intro hx; rw [hx] at h; exact h rfl
-
-theorem RelR.bind {α β} {φ : α → α → Prop} {ψ : β → β → Prop} {P Q : List Token → Prop}
-    {X1 Y1 : R (α × List Token)} {kx ky : α × List Token → R (β × List Token)}
-    (hy : (Y1 >>= ky) ≠ fuelErr) (h1 : Y1 ≠ fuelErr → RelR φ P X1 Y1)
-    (hk : ∀ a a' r, φ a a' → WFo r → P r → ky (a', dropEmptyText r) ≠ fuelErr →
-      RelR ψ Q (kx (a, r)) (ky (a', dropEmptyText r))) :
-    RelR ψ Q (X1 >>= kx) (Y1 >>= ky) := by
-  have h1' := h1 (bind_ne_fuel hy)
-  cases Y1 with
-  | error e =>
-    simp only [RelR] at h1'
-    rw [h1']; rfl
-  | ok b =>
-    obtain ⟨a', r'⟩ := b
-    simp only [RelR] at h1'
-    obtain ⟨a, r, hx, hφ, hw, rfl, hp⟩ := h1'
-    rw [hx]
-    exact hk a a' r hφ hw hp hy
-
-theorem RelR.weaken {α} {φ : α → α → Prop} {P Q : List Token → Prop} {x y : R (α × List Token)}
-    (h : RelR φ P x y) (hpq : ∀ r, P r → Q r) : RelR φ Q x y := by
-  unfold RelR at h ⊢
-  cases y with
-  | error e => exact h
-  | ok b =>
-    obtain ⟨a', r'⟩ := b
-    obtain ⟨a, r, hx, hφ, hw, hr, hp⟩ := h
-    exact ⟨a, r, hx, hφ, hw, hr, hpq r hp⟩
-
-/-- `parseExpression` with the fuel the template parser gives it, on the two streams -/
-theorem peX {r r' ts ts' : List Token} (h : TS r r' ts ts') (hlen : r'.length ≤ r.length)
-    (hne : parseExpression (exprFuel ts') ts' ≠ fuelErr) :
-    RRel r r' (parseExpression (exprFuel ts) ts) (parseExpression (exprFuel ts') ts') := by
-  have hF : exprFuel ts' ≤ exprFuel ts := by
-    obtain ⟨xs, d, _, _, rfl, rfl⟩ := h
-    simp only [exprFuel, List.length_append, List.length_cons]; omega
-  have hl := (locAt (exprFuel ts')).expr r r' ts ts' h
-  have hne' : parseExpression (exprFuel ts') ts ≠ .error .fuel := by
-    intro hx
-    rw [hx] at hl
-    cases hy : parseExpression (exprFuel ts') ts' with
-    | error e => rw [hy] at hl; simp only [RRel] at hl; rw [hy, ← hl] at hne; exact hne rfl
-    | ok b => rw [hy] at hl; simp [RRel] at hl
-  rw [parseExpression_mono hne' hF]
-  exact hl
-
-/-- `expectK` on related streams: both fail alike, or both consume the end token -/
-theorem expectK_TS {r r' u u' : List Token} (h : TS r r' u u') (K : Nat) (hK : ¬ ExprKind K) (msg : String) :
-    (expectK K msg u = perr msg ∧ expectK K msg u' = perr msg) ∨ (expectK K msg u = .ok r ∧ expectK K msg u' = .ok r') := by
-  rcases h.cases with ⟨d, hd, rfl, rfl⟩ | ⟨x, t, t', hx, rfl, rfl, ht⟩
-  · simp only [expectK]
-    by_cases hk : (d.kind == K) = true
-    · right; simp [hk]
-    · left; simp [hk]
-  · simp only [expectK]
-    by_cases hk : (x.kind == K) = true
-    · have : x.kind = K := by simpa using hk
-      rw [this] at hx; exact absurd hx hK
-    · left; simp [hk]
-
-
-def PhiL (ns ns' : List Node) : Prop := stripL ns = ns'
-def PhiN (n n' : Node) : Prop := stripN n = n' ∧ ∀ s, n ≠ .text s
-
-structure SimAt (f : Nat) : Prop where
-  outer : ∀ k ts, WFo ts → extra ts ≤ k → parseOuter f (dropEmptyText ts) ≠ fuelErr →
-    RelR PhiL (fun r2 => HeadOK r2 ∧ extra r2 ≤ extra ts) (parseOuter (f + k) ts) (parseOuter f (dropEmptyText ts))
-  tag : ∀ k name xs d r, AllK xs → IsEnd d → d.kind = BLOCK_END → WFo r → extra r ≤ k → name ∉ unsupportedTags →
-    parseTag f name (xs ++ d :: dropEmptyText r) ≠ fuelErr →
-    RelR PhiN (fun r2 => extra r2 ≤ extra r) (parseTag (f + k) name (xs ++ d :: r))
-      (parseTag f name (xs ++ d :: dropEmptyText r))
-  ifTail : ∀ k he ts, WFo ts → HeadOK ts → extra ts ≤ k → parseIfTail f he (dropEmptyText ts) ≠ fuelErr →
-    RelR PhiL (fun r2 => extra r2 ≤ extra ts) (parseIfTail (f + k) he ts) (parseIfTail f he (dropEmptyText ts))
-
-theorem simAt_zero : SimAt 0 := by
-  constructor
-  · intro k ts _ _ h; exact absurd (by simp [parseOuter, fuelErr]) h
-  · intro k name xs d r _ _ _ _ _ _ h; exact absurd (by simp [parseTag, fuelErr]) h
-  · intro k he ts _ _ _ h; exact absurd (by simp [parseIfTail, fuelErr]) h
-
-theorem stripL_cons_N {n : Node} (h : ∀ s, n ≠ .text s) (r : List Node) : stripL (n :: r) = stripN n :: stripL r :=
-  stripL_cons n r h
-
-theorem D_comment (s : Token) (cs : List Token) (e : Token) (r : List Token) (hs : s.kind = COMMENT_START)
-    (he : e.kind = COMMENT_END) :
-    dropEmptyText (s :: (cs ++ e :: r)) = s :: (dropEmptyText cs ++ e :: dropEmptyText r) := by
-  rw [D_cons_keep (isDrop_of_kind (by rw [hs]; decide))]
-  have : dropEmptyText (cs ++ e :: r) = dropEmptyText cs ++ dropEmptyText (e :: r) := by
-    simp [dropEmptyText]
-  rw [this, D_cons_keep (isDrop_of_kind (by rw [he]; decide))]
-
-theorem D_tag (s : Token) (xs : List Token) (d : Token) (r : List Token)
-    (hs : s.kind = VAR_START ∨ s.kind = BLOCK_START) (hx : AllK xs) (hd : IsEnd d) :
-    dropEmptyText (s :: (xs ++ d :: r)) = s :: (xs ++ d :: dropEmptyText r) := by
-  rw [D_cons_keep (isDrop_of_kind (by rcases hs with h | h <;> rw [h] <;> decide)), D_append_allK hx,
-    D_cons_keep hd.keep]
-
-theorem TS_tail {xs : List Token} {d : Token} (hx : AllK xs) (hd : IsEnd d) (r : List Token) :
-    TS r (dropEmptyText r) (xs ++ d :: r) (xs ++ d :: dropEmptyText r) :=
-  ⟨xs, d, hx, hd.endTok, rfl, rfl⟩
-
-theorem extra_tag_le (s : Token) (xs : List Token) (d : Token) (r : List Token) :
-    extra r ≤ extra (s :: (xs ++ d :: r)) := by
-  have := extra_append xs (d :: r)
-  have h2 := extra_le_cons d r
-  have h3 := extra_le_cons s (xs ++ d :: r)
-  omega
-
-theorem outer_succ (f : Nat) (ih : SimAt f) : ∀ ts, WFo ts → ∀ k, extra ts ≤ k →
-    parseOuter (f+1) (dropEmptyText ts) ≠ fuelErr →
-    RelR PhiL (fun r2 => HeadOK r2 ∧ extra r2 ≤ extra ts) (parseOuter (f + 1 + k) ts)
-      (parseOuter (f+1) (dropEmptyText ts)) := by
-  intro ts hw
-  induction hw with
-  | nil =>
-    intro k _ _
-    have : f + 1 + k = (f + k) + 1 := by omega
-    rw [this, D_nil, parseOuter_nil, parseOuter_nil]
-    exact ⟨[], [], rfl, rfl, WFo.nil, rfl, ⟨(by intro t r h; cases h), Nat.le_refl _⟩⟩
-  | eof t r ht =>
-    intro k _ _
-    have : f + 1 + k = (f + k) + 1 := by omega
-    have hk : isDrop t = false := isDrop_of_kind (by rw [ht]; decide)
-    rw [this, D_cons_keep hk]
-    obtain ⟨tk_, tv⟩ := t
-    simp only at ht; subst ht
-    rw [parseOuter_eof, parseOuter_eof]
-    exact ⟨[], _, rfl, rfl, WFo.eof _ _ rfl, (D_cons_keep hk _).symm, ⟨(by intro t r h; cases h; exact .inl rfl), Nat.le_refl _⟩⟩
-  | text t r ht hr ihr =>
-    intro k hk hy
-    obtain ⟨tk_, tv⟩ := t
-    simp only at ht; subst ht
-    by_cases hdrop : isDrop ⟨TEXT, tv⟩ = true
-    · have htv : tv = [] := by simpa [isDrop] using hdrop
-      subst htv
-      rw [D_cons, hdrop, if_pos rfl] at hy ⊢
-      have hk' : 1 + extra r ≤ k := by simpa [extra, hdrop] using hk
-      obtain ⟨k', rfl⟩ : ∃ k', k = k' + 1 := ⟨k - 1, by omega⟩
-      have : f + 1 + (k' + 1) = (f + 1 + k') + 1 := by omega
-      rw [this, parseOuter_text]
-      have h1 := ihr k' (by omega) hy
-      unfold RelR at h1 ⊢
-      cases hyv : parseOuter (f+1) (dropEmptyText r) with
-      | error e => rw [hyv] at h1; simp only at h1 ⊢; rw [h1]; rfl
-      | ok b =>
-        obtain ⟨ns', r'⟩ := b
-        rw [hyv] at h1
-        obtain ⟨ns, r2, hx, hφ, hw2, hr2, hp⟩ := h1
-        refine ⟨.text [] :: ns, r2, by rw [hx]; rfl, ?_, hw2, hr2, ⟨hp.1, Nat.le_trans hp.2 (extra_le_cons _ r)⟩⟩
-        show stripL (.text [] :: ns) = ns'
-        rw [stripL_text]; exact hφ
-    · have hdrop' : isDrop ⟨TEXT, tv⟩ = false := by simpa using hdrop
-      rw [D_cons_keep hdrop'] at hy ⊢
-      have : f + 1 + k = (f + k) + 1 := by omega
-      rw [this, parseOuter_text, parseOuter_text]
-      rw [parseOuter_text] at hy
-      have hkr : extra r ≤ k := Nat.le_trans (extra_le_cons _ r) hk
-      refine RelR.bind hy (fun h => ih.outer k r hr hkr h) ?_
-      intro ns ns' r2 hφ hw2 hp _
-      refine ⟨.text tv :: ns, r2, rfl, ?_, hw2, rfl, ⟨hp.1, Nat.le_trans hp.2 (extra_le_cons _ r)⟩⟩
-      show stripL (.text tv :: ns) = .text tv :: ns'
-      have : tv.isEmpty = false := by simpa [isDrop] using hdrop'
-      rw [stripL_text, this]
-      simp only [Bool.false_eq_true, if_false]
-      rw [hφ]
-  | comment s cs e r hs hcs he hr ihr =>
-    intro k hk hy
-    have : f + 1 + k = (f + k) + 1 := by omega
-    obtain ⟨sk, sv⟩ := s
-    simp only at hs; subst hs
-    rw [D_comment _ cs e r rfl he] at hy ⊢
-    have hcs' : ∀ c ∈ dropEmptyText cs, c.kind ≠ COMMENT_END := by
-      intro c hc
-      exact hcs c (List.mem_filter.mp hc).1
-    rw [this, parseOuter_comment _ _ cs e r hcs he, parseOuter_comment _ _ _ e _ hcs' he]
-    rw [parseOuter_comment _ _ _ e _ hcs' he] at hy
-    have hkr : extra r ≤ k := by
-      have := extra_append cs (e :: r)
-      have h2 := extra_le_cons e r
-      have h3 := extra_le_cons ⟨COMMENT_START, sv⟩ (cs ++ e :: r)
-      omega
-    have hle : extra r ≤ extra (⟨COMMENT_START, sv⟩ :: (cs ++ e :: r)) := by
-      have := extra_append cs (e :: r)
-      have h2 := extra_le_cons e r
-      have h3 := extra_le_cons ⟨COMMENT_START, sv⟩ (cs ++ e :: r)
-      omega
-    exact (ih.outer k r hr hkr hy).weaken (fun r2 h => ⟨h.1, Nat.le_trans h.2 hle⟩)
-  | tag s xs d r hs hx hd hsup hpair hr ihr =>
-    intro k hk hy
-    have hfk : f + 1 + k = (f + k) + 1 := by omega
-    rw [D_tag s xs d r hs hx hd] at hy ⊢
-    have hle := extra_tag_le s xs d r
-    have hkr : extra r ≤ k := Nat.le_trans hle hk
-    have hts := TS_tail hx hd r
-    obtain ⟨sk, sv⟩ := s
-    simp only at hs
-    rcases hs with hs | hs
-    · -- a print tag
-      subst hs
-      have hX : parseOuter (f + k + 1) (⟨VAR_START, sv⟩ :: (xs ++ d :: r)) =
-          (parseExpression (exprFuel (xs ++ d :: r)) (xs ++ d :: r) >>= fun x =>
-            expectK VAR_END "expected }} or -}}" x.2 >>= fun r2 =>
-            parseOuter (f + k) r2 >>= fun y => pure (.print x.1 :: y.1, y.2)) := by
-        rw [parseOuter.eq_def]; simp [VAR_START, EOF, TEXT]
-      have hY : parseOuter (f + 1) (⟨VAR_START, sv⟩ :: (xs ++ d :: dropEmptyText r)) =
-          (parseExpression (exprFuel (xs ++ d :: dropEmptyText r)) (xs ++ d :: dropEmptyText r) >>= fun x =>
-            expectK VAR_END "expected }} or -}}" x.2 >>= fun r2 =>
-            parseOuter f r2 >>= fun y => pure (.print x.1 :: y.1, y.2)) := by
-        rw [parseOuter.eq_def]; simp [VAR_START, EOF, TEXT]
-      rw [hfk, hX, hY]
-      rw [hY] at hy
-      have hpe := peX hts (D_length r) (bind_ne_fuel hy)
-      cases hye : parseExpression (exprFuel (xs ++ d :: dropEmptyText r)) (xs ++ d :: dropEmptyText r) with
-      | error e =>
-        rw [hye] at hpe
-        cases hxe : parseExpression (exprFuel (xs ++ d :: r)) (xs ++ d :: r) with
-        | error e' => rw [hxe] at hpe; simp only [RRel] at hpe; subst hpe; rfl
-        | ok b => rw [hxe] at hpe; simp [RRel] at hpe
-      | ok b' =>
-        obtain ⟨e, u'⟩ := b'
-        rw [hye] at hpe hy
-        cases hxe : parseExpression (exprFuel (xs ++ d :: r)) (xs ++ d :: r) with
-        | error e' => rw [hxe] at hpe; simp [RRel] at hpe
-        | ok b =>
-          obtain ⟨e2, u⟩ := b
-          rw [hxe] at hpe
-          simp only [RRel] at hpe
-          obtain ⟨rfl, hu⟩ := hpe
-          simp only [ok_bind] at hy ⊢
-          rcases expectK_TS hu VAR_END (by decide) "expected }} or -}}" with ⟨h1, h2⟩ | ⟨h1, h2⟩
-          · rw [h1, h2]; rfl
-          · rw [h2] at hy
-            rw [h1, h2]
-            simp only [ok_bind] at hy ⊢
-            refine RelR.bind hy (fun h => ih.outer k r hr hkr h) ?_
-            intro ns ns' r2 hφ hw2 hp _
-            refine ⟨.print e2 :: ns, r2, rfl, ?_, hw2, rfl, ⟨hp.1, Nat.le_trans hp.2 hle⟩⟩
-            show stripL (.print e2 :: ns) = .print e2 :: ns'
-            rw [stripL_cons_N (by intro s h; cases h), hφ]; rfl
-    · -- a block tag
-      subst hs
-      have hX : ∀ (g : Nat) (L : List Token), parseOuter (g + 1) (⟨BLOCK_START, sv⟩ :: L) =
-          (match L with
-          | n :: r1 =>
-            if n.kind != NAME then perr "expected block name"
-            else if endTagNames.contains n.val then pure ([], ⟨BLOCK_START, sv⟩ :: L)
-            else parseTag g n.val r1 >>= fun x => parseOuter g x.2 >>= fun y => pure (x.1 :: y.1, y.2)
-          | [] => perr "expected block name") := by
-        intro g L
-        rw [parseOuter.eq_def]
-        cases L <;> simp [BLOCK_START, VAR_START, EOF, TEXT]
-      rw [hfk, hX, hX]
-      rw [hX] at hy
-      cases xs with
-      | nil =>
-        have : (d.kind != NAME) = true := by simp [hd.endTok.kinds.1]
-        simp only [List.nil_append, this, if_true]
-        rfl
-      | cons n xs' =>
-        rw [allK_cons] at hx
-        simp only [List.cons_append] at hy ⊢
-        by_cases hn : (n.kind != NAME) = true
-        · simp only [hn, if_true]; rfl
-        · simp only [hn, Bool.false_eq_true, if_false] at hy ⊢
-          by_cases he : endTagNames.contains n.val = true
-          · simp only [he, if_true]
-            refine ⟨[], _, rfl, rfl, WFo.tag _ (n :: xs') d r (.inr rfl) ((allK_cons n xs').mpr hx) hd hsup hpair hr, ?_, ⟨?_, Nat.le_refl _⟩⟩
-            · exact (D_tag ⟨BLOCK_START, sv⟩ (n :: xs') d r (.inr rfl) ((allK_cons n xs').mpr hx) hd).symm
-            · intro t r h; cases h; exact .inr rfl
-          · simp only [he, Bool.false_eq_true, if_false] at hy ⊢
-            refine RelR.bind hy (fun h => ih.tag k n.val xs' d r hx.2 hd (hpair rfl) hr hkr (hsup rfl n xs' rfl) h) ?_
-            intro node node' r2 hφ hw2 hp2 hy2
-            refine RelR.bind hy2 (fun h => ih.outer k r2 hw2 (Nat.le_trans hp2 hkr) h) ?_
-            · intro ns ns' r3 hφ3 hw3 hp3 _
-              refine ⟨node :: ns, r3, rfl, ?_, hw3, rfl, ⟨hp3.1, Nat.le_trans hp3.2 (Nat.le_trans hp2 hle)⟩⟩
-              show stripL (node :: ns) = node' :: ns'
-              rw [stripL_cons_N hφ.2, hφ.1, hφ3]
-
-
-/-- a tag header that is one expression up to the end token `K`: both sides fail alike or continue on `r` / `D r` -/
-theorem hdrExpr {β} {ψ : β → β → Prop} {Q : List Token → Prop} {xs : List Token} {d : Token} (r : List Token)
-    (hx : AllK xs) (hd : IsEnd d) (K : Nat) (hK : ¬ ExprKind K) (msg : String)
-    (kx ky : Expr → List Token → R (β × List Token))
-    (hy : (parseExpression (exprFuel (xs ++ d :: dropEmptyText r)) (xs ++ d :: dropEmptyText r) >>= fun x =>
-      expectK K msg x.2 >>= fun r2 => ky x.1 r2) ≠ fuelErr)
-    (hk : ∀ e, ky e (dropEmptyText r) ≠ fuelErr → RelR ψ Q (kx e r) (ky e (dropEmptyText r))) :
-    RelR ψ Q
-      (parseExpression (exprFuel (xs ++ d :: r)) (xs ++ d :: r) >>= fun x =>
-        expectK K msg x.2 >>= fun r2 => kx x.1 r2)
-      (parseExpression (exprFuel (xs ++ d :: dropEmptyText r)) (xs ++ d :: dropEmptyText r) >>= fun x =>
-        expectK K msg x.2 >>= fun r2 => ky x.1 r2) := by
-  have hts := TS_tail hx hd r
-  have hpe := peX hts (D_length r) (bind_ne_fuel hy)
-  cases hye : parseExpression (exprFuel (xs ++ d :: dropEmptyText r)) (xs ++ d :: dropEmptyText r) with
-  | error e =>
-    rw [hye] at hpe
-    cases hxe : parseExpression (exprFuel (xs ++ d :: r)) (xs ++ d :: r) with
-    | error e' => rw [hxe] at hpe; simp only [RRel] at hpe; subst hpe; rfl
-    | ok b => rw [hxe] at hpe; simp [RRel] at hpe
-  | ok b' =>
-    obtain ⟨e, u'⟩ := b'
-    rw [hye] at hpe hy
-    cases hxe : parseExpression (exprFuel (xs ++ d :: r)) (xs ++ d :: r) with
-    | error e' => rw [hxe] at hpe; simp [RRel] at hpe
-    | ok b =>
-      obtain ⟨e2, u⟩ := b
-      rw [hxe] at hpe
-      simp only [RRel] at hpe
-      obtain ⟨rfl, hu⟩ := hpe
-      simp only [ok_bind] at hy ⊢
-      rcases expectK_TS hu K hK msg with ⟨h1, h2⟩ | ⟨h1, h2⟩
-      · rw [h1, h2]; rfl
-      · rw [h2] at hy
-        rw [h1, h2]
-        simp only [ok_bind] at hy ⊢
-        exact hk e2 hy
-
-/-- a tag header that is just the end token `K` -/
-theorem hdrEnd {β} {ψ : β → β → Prop} {Q : List Token → Prop} {xs : List Token} {d : Token} (r : List Token)
-    (hx : AllK xs) (hd : IsEnd d) (K : Nat) (hK : ¬ ExprKind K) (msg : String)
-    (kx ky : List Token → R (β × List Token))
-    (hy : (expectK K msg (xs ++ d :: dropEmptyText r) >>= fun r2 => ky r2) ≠ fuelErr)
-    (hk : ky (dropEmptyText r) ≠ fuelErr → RelR ψ Q (kx r) (ky (dropEmptyText r))) :
-    RelR ψ Q (expectK K msg (xs ++ d :: r) >>= fun r2 => kx r2)
-      (expectK K msg (xs ++ d :: dropEmptyText r) >>= fun r2 => ky r2) := by
-  rcases expectK_TS (TS_tail hx hd r) K hK msg with ⟨h1, h2⟩ | ⟨h1, h2⟩
-  · rw [h1, h2]; rfl
-  · rw [h2] at hy
-    rw [h1, h2]
-    simp only [ok_bind] at hy ⊢
-    exact hk hy
-
-
-theorem ifTail_unfold (g : Nat) (he : Bool) (s n : Token) (r : List Token) (hs : s.kind = BLOCK_START)
-    (hn : n.kind = NAME) :
-    parseIfTail (g+1) he (s :: n :: r) =
-      if n.val == b "elseif" then
-        (if he then perr "unexpected elseif after else" else
-          parseExpression (exprFuel r) r >>= fun x =>
-            expectK BLOCK_END "expected block end after elseif condition" x.2 >>= fun r2 =>
-              (parseOuter g r2 >>= fun y => parseIfTail g false y.2 >>= fun z => pure ([.ifN x.1 y.1 z.1], z.2)))
-      else if n.val == b "else" then
-        (if he then perr "multiple else blocks found" else
-          expectK BLOCK_END "expected block end after else tag" r >>= fun r1 =>
-            parseOuter g r1 >>= fun y => parseIfTail g true y.2 >>= fun z => pure (y.1, z.2))
-      else if n.val == b "endif" then
-        expectK BLOCK_END "expected block end after endif" r >>= fun r1 => pure ([], r1)
-      else perr "expected elseif, else, or endif" := by
-  rw [parseIfTail]
-  simp only [hs, hn, bne_self_eq_false, Bool.false_eq_true, if_false]
-
-theorem stripL_single_if (c : Expr) (t e : List Node) : stripL [.ifN c t e] = [.ifN c (stripL t) (stripL e)] := by
-  rw [stripL_cons_N (by intro s h; cases h)]; rfl
-
-theorem ifTail_succ (f : Nat) (ih : SimAt f) (k : Nat) (he : Bool) (ts : List Token) (hw : WFo ts) (hh : HeadOK ts)
-    (hk : extra ts ≤ k) (hy : parseIfTail (f+1) he (dropEmptyText ts) ≠ fuelErr) :
-    RelR PhiL (fun r2 => extra r2 ≤ extra ts) (parseIfTail (f + 1 + k) he ts)
-      (parseIfTail (f+1) he (dropEmptyText ts)) := by
-  have hfk : f + 1 + k = (f + k) + 1 := by omega
-  rw [hfk]
-  cases ts with
-  | nil => rfl
-  | cons s l =>
-    have hskeep := hh.keep
-    rw [D_cons_keep hskeep] at hy ⊢
-    rcases hh s l rfl with hs | hs
-    · -- EOF: both fail alike
-      have hne : (s.kind != BLOCK_START) = true := by rw [hs]; decide
-      have hX : ∀ g he' l', parseIfTail (g+1) he' (s :: l') = perr "unexpected end of template, expected endif" := by
-        intro g he' l'
-        rw [parseIfTail.eq_def]
-        cases l' with
-        | nil => simp [hne]
-        | cons n r => simp [hne]
-      rw [hX, hX]; rfl
-    · obtain ⟨xs, d, r, rfl, hx, hd, hr, _⟩ := hw.block_inv hs
-      rw [D_append_allK hx, D_cons_keep hd.keep] at hy ⊢
-      have hle := extra_tag_le s xs d r
-      have hkr : extra r ≤ k := Nat.le_trans hle hk
-      cases xs with
-      | nil =>
-        have hdn : (d.kind != NAME) = true := by simp [hd.endTok.kinds.1]
-        have hX : ∀ g he' l', parseIfTail (g+1) he' (s :: d :: l') = perr "expected block name" := by
-          intro g he' l'
-          rw [parseIfTail]
-          simp [hs, hdn]
-        simp only [List.nil_append]
-        rw [hX, hX]; rfl
-      | cons n xs' =>
-        rw [allK_cons] at hx
-        simp only [List.cons_append] at hy ⊢
-        by_cases hn : n.kind = NAME
-        · rw [ifTail_unfold _ _ _ _ _ hs hn] at hy ⊢
-          rw [ifTail_unfold _ _ _ _ _ hs hn]
-          by_cases h1 : (n.val == b "elseif") = true
-          · simp only [h1, if_true] at hy ⊢
-            cases he with
-            | true => rfl
-            | false =>
-              simp only [Bool.false_eq_true, if_false] at hy ⊢
-              refine hdrExpr r hx.2 hd BLOCK_END (by decide) _
-                (fun c r2 => parseOuter (f + k) r2 >>= fun y => parseIfTail (f + k) false y.2 >>= fun z =>
-                  pure ([Node.ifN c y.1 z.1], z.2))
-                (fun c r2 => parseOuter f r2 >>= fun y => parseIfTail f false y.2 >>= fun z =>
-                  pure ([Node.ifN c y.1 z.1], z.2)) hy ?_
-              intro c hy1
-              refine RelR.bind hy1 (fun h => ih.outer k r hr hkr h) ?_
-              intro body body' r3 hφ hw3 hp3 hy2
-              refine RelR.bind hy2 (fun h => ih.ifTail k false r3 hw3 hp3.1 (Nat.le_trans hp3.2 hkr) h) ?_
-              intro els els' r4 hφ4 hw4 hp4 _
-              refine ⟨[.ifN c body els], r4, rfl, ?_, hw4, rfl, Nat.le_trans hp4 (Nat.le_trans hp3.2 hle)⟩
-              show stripL [.ifN c body els] = [.ifN c body' els']
-              rw [stripL_single_if, hφ, hφ4]
-          · simp only [h1, Bool.false_eq_true, if_false] at hy ⊢
-            by_cases h2 : (n.val == b "else") = true
-            · simp only [h2, if_true] at hy ⊢
-              cases he with
-              | true => rfl
-              | false =>
-                simp only [Bool.false_eq_true, if_false] at hy ⊢
-                refine hdrEnd r hx.2 hd BLOCK_END (by decide) _
-                  (fun r1 => parseOuter (f + k) r1 >>= fun y => parseIfTail (f + k) true y.2 >>= fun z => pure (y.1, z.2))
-                  (fun r1 => parseOuter f r1 >>= fun y => parseIfTail f true y.2 >>= fun z => pure (y.1, z.2)) hy ?_
-                intro hy1
-                refine RelR.bind hy1 (fun h => ih.outer k r hr hkr h) ?_
-                intro body body' r3 hφ hw3 hp3 hy2
-                refine RelR.bind hy2 (fun h => ih.ifTail k true r3 hw3 hp3.1 (Nat.le_trans hp3.2 hkr) h) ?_
-                intro els els' r4 hφ4 hw4 hp4 _
-                exact ⟨body, r4, rfl, hφ, hw4, rfl, Nat.le_trans hp4 (Nat.le_trans hp3.2 hle)⟩
-            · simp only [h2, Bool.false_eq_true, if_false] at hy ⊢
-              by_cases h3 : (n.val == b "endif") = true
-              · simp only [h3, if_true] at hy ⊢
-                refine hdrEnd r hx.2 hd BLOCK_END (by decide) _
-                  (fun r1 => pure ([], r1)) (fun r1 => pure ([], r1)) hy ?_
-                intro _
-                exact ⟨[], r, rfl, rfl, hr, rfl, hle⟩
-              · simp only [h3, Bool.false_eq_true, if_false]
-                rfl
-        · have hnn : (n.kind != NAME) = true := by simp [hn]
-          have hX : ∀ g he' l', parseIfTail (g+1) he' (s :: n :: l') = perr "expected block name" := by
-            intro g he' l'
-            rw [parseIfTail]
-            simp [hs, hnn]
-          rw [hX, hX]; rfl
-
-
-/-- matching `{% name` at the head of what `parseOuter` returned -/
-theorem expectTag_sim (nm msg : String) {r5 : List Token} (hw : WFo r5) (hh : HeadOK r5) :
-    (expectTag nm msg r5 = perr msg ∧ expectTag nm msg (dropEmptyText r5) = perr msg) ∨
-    (∃ xs' d rr, AllK xs' ∧ IsEnd d ∧ WFo rr ∧ extra rr ≤ extra r5 ∧
-      expectTag nm msg r5 = .ok (xs' ++ d :: rr) ∧ expectTag nm msg (dropEmptyText r5) = .ok (xs' ++ d :: dropEmptyText rr)) := by
-  cases r5 with
-  | nil => exact .inl ⟨rfl, rfl⟩
-  | cons s l =>
-    rw [D_cons_keep hh.keep]
-    rcases hh s l rfl with hs | hs
-    · left
-      have hne : (s.kind == BLOCK_START) = false := by rw [hs]; decide
-      constructor
-      · cases l <;> simp [expectTag, hne]
-      · cases dropEmptyText l <;> simp [expectTag, hne]
-    · obtain ⟨xs, d, rr, rfl, hx, hd, hr, _⟩ := hw.block_inv hs
-      rw [D_append_allK hx, D_cons_keep hd.keep]
-      have hsb : (s.kind == BLOCK_START) = true := by simp [hs]
-      cases xs with
-      | nil =>
-        left
-        have : isName d nm = false := hd.endTok.isName nm
-        simp [expectTag, this]
-      | cons n xs' =>
-        rw [allK_cons] at hx
-        by_cases hn : isName n nm = true
-        · right
-          refine ⟨xs', d, rr, hx.2, hd, hr, ?_, ?_, ?_⟩
-          · have := extra_tag_le s (n :: xs') d rr
-            have h2 := extra_tag_le n xs' d rr
-            simp only [List.cons_append] at this ⊢
-            exact Nat.le_trans (Nat.le_refl _) this
-          · simp [expectTag, hsb, hn]
-          · simp [expectTag, hsb, hn]
-        · left
-          simp [expectTag, hn]
-
-/-- header-only handlers: both sides fail alike, or both return the same node and stop right after the end token -/
-def RRelEnd (N : Node → Prop) (r r' : List Token) (x y : R (Node × List Token)) : Prop :=
-  match y with
-  | .error e => x = .error e
-  | .ok (n', u') => x = .ok (n', r) ∧ u' = r' ∧ N n'
-
-/-- nodes without node-list children -/
-def Leaf (n : Node) : Prop := stripN n = n ∧ ∀ s, n ≠ .text s
-
-theorem RRelEnd.toRelR {N : Node → Prop} {r : List Token} {x y : R (Node × List Token)}
-    (h : RRelEnd N r (dropEmptyText r) x y) (hr : WFo r) (hn : ∀ n, N n → Leaf n) :
-    RelR PhiN (fun r2 => extra r2 ≤ extra r) x y := by
-  unfold RRelEnd at h
-  unfold RelR
-  cases y with
-  | error e => exact h
-  | ok b =>
-    obtain ⟨n', u'⟩ := b
-    obtain ⟨hx, rfl, hN⟩ := h
-    exact ⟨n', r, hx, hn n' hN, hr, rfl, Nat.le_refl _⟩
-
-/-- `expression, then the end token` on `TS`-related streams, for header-only handlers -/
-theorem peX_end {r r' ts ts' : List Token} (h : TS r r' ts ts') (hlen : r'.length ≤ r.length) (K : Nat)
-    (hK : ¬ ExprKind K) (msg : String) (mk : Expr → Node)
-    (hy : (parseExpression (exprFuel ts') ts' >>= fun x => expectK K msg x.2 >>= fun r2 => pure (mk x.1, r2)) ≠ fuelErr) :
-    RRelEnd (fun n => ∃ e, n = mk e) r r'
-      (parseExpression (exprFuel ts) ts >>= fun x => expectK K msg x.2 >>= fun r2 => pure (mk x.1, r2))
-      (parseExpression (exprFuel ts') ts' >>= fun x => expectK K msg x.2 >>= fun r2 => pure (mk x.1, r2)) := by
-  have hpe := peX h hlen (bind_ne_fuel hy)
-  cases hye : parseExpression (exprFuel ts') ts' with
-  | error e =>
-    rw [hye] at hpe
-    cases hxe : parseExpression (exprFuel ts) ts with
-    | error e' => rw [hxe] at hpe; simp only [RRel] at hpe; subst hpe; rfl
-    | ok b => rw [hxe] at hpe; simp [RRel] at hpe
-  | ok b' =>
-    obtain ⟨e, u'⟩ := b'
-    rw [hye] at hpe
-    cases hxe : parseExpression (exprFuel ts) ts with
-    | error e' => rw [hxe] at hpe; simp [RRel] at hpe
-    | ok b =>
-      obtain ⟨e2, u⟩ := b
-      rw [hxe] at hpe
-      simp only [RRel] at hpe
-      obtain ⟨rfl, hu⟩ := hpe
-      simp only [ok_bind]
-      rcases expectK_TS hu K hK msg with ⟨h1, h2⟩ | ⟨h1, h2⟩
-      · rw [h1, h2]; rfl
-      · rw [h1, h2]; exact ⟨rfl, rfl, e2, rfl⟩
-
-/-- the common tail of `apply`, `spaceless`, `macro`: a body, the end tag, the end token -/
-theorem bodyEnd {f : Nat} (ih : SimAt f) (k : Nat) (r : List Token) (hr : WFo r) (hkr : extra r ≤ k)
-    (nm m2 m3 : String) (mk : List Node → Node)
-    (hmk : ∀ bd, stripN (mk bd) = mk (stripL bd) ∧ ∀ s, mk bd ≠ .text s)
-    (hy : (parseOuter f (dropEmptyText r) >>= fun y => expectTag nm m2 y.2 >>= fun r4 =>
-      expectK BLOCK_END m3 r4 >>= fun r5 => pure (mk y.1, r5)) ≠ fuelErr) :
-    RelR PhiN (fun r2 => extra r2 ≤ extra r)
-      (parseOuter (f + k) r >>= fun y => expectTag nm m2 y.2 >>= fun r4 =>
-        expectK BLOCK_END m3 r4 >>= fun r5 => pure (mk y.1, r5))
-      (parseOuter f (dropEmptyText r) >>= fun y => expectTag nm m2 y.2 >>= fun r4 =>
-        expectK BLOCK_END m3 r4 >>= fun r5 => pure (mk y.1, r5)) := by
-  refine RelR.bind hy (fun h => ih.outer k r hr hkr h) ?_
-  intro body body' r3 hφ hw3 hp3 hy2
-  rcases expectTag_sim nm m2 hw3 hp3.1 with ⟨h1, h2⟩ | ⟨xs2, d2, rr, hx2, hd2, hrr, hle2, h1, h2⟩
-  · simp only [h1, h2]; rfl
-  · simp only [h1, h2, ok_bind] at hy2 ⊢
-    rcases expectK_TS (TS_tail hx2 hd2 rr) BLOCK_END (by decide) m3 with ⟨e1, e2⟩ | ⟨e1, e2⟩
-    · rw [e1, e2]; rfl
-    · rw [e1, e2]
-      refine ⟨mk body, rr, rfl, ⟨?_, (hmk body).2⟩, hrr, rfl, Nat.le_trans hle2 hp3.2⟩
-      rw [(hmk body).1, hφ]
-
-/-- what the `for` handler does with what follows the loop body -/
-def forEnd (g : Nat) (key : Option Bytes) (val : Bytes) (seq : Expr) (body : List Node) (r5 : List Token) :
-    R (Node × List Token) :=
-  match r5 with
-  | s :: n :: r6 =>
-    if (s.kind != BLOCK_START) = true then perr "unexpected end of template, expected endfor"
-    else if (n.kind != NAME) = true then perr "expected block name"
-    else if (n.val == b "else") = true then
-      expectK BLOCK_END "expected block end after else" r6 >>= fun r7 =>
-      parseOuter g r7 >>= fun y =>
-      expectTag "endfor" "expected endfor" y.2 >>= fun r9 =>
-      expectK BLOCK_END "expected block end after endfor" r9 >>= fun r10 =>
-      pure (Node.forN key val seq body y.1, r10)
-    else if (n.val == b "endfor") = true then
-      expectK BLOCK_END "expected block end after endfor" r6 >>= fun r7 =>
-      pure (Node.forN key val seq body [], r7)
-    else perr "expected else or endfor"
-  | [s] =>
-    if (s.kind != BLOCK_START) = true then perr "unexpected end of template, expected endfor"
-    else perr "expected block name"
-  | [] => perr "unexpected end of template, expected endfor"
-
-theorem forEnd_sim {f : Nat} (ih : SimAt f) (k : Nat) (key : Option Bytes) (val : Bytes) (seq : Expr)
-    (body body' : List Node) (hb : stripL body = body') (r5 : List Token) (hw : WFo r5) (hh : HeadOK r5)
-    (hk5 : extra r5 ≤ k) (B : Nat) (hB : extra r5 ≤ B)
-    (hy : forEnd f key val seq body' (dropEmptyText r5) ≠ fuelErr) :
-    RelR PhiN (fun r2 => extra r2 ≤ B) (forEnd (f + k) key val seq body r5)
-      (forEnd f key val seq body' (dropEmptyText r5)) := by
-  cases r5 with
-  | nil => rfl
-  | cons s l =>
-    rw [D_cons_keep hh.keep] at hy ⊢
-    rcases hh s l rfl with hs | hs
-    · have hne : (s.kind != BLOCK_START) = true := by rw [hs]; decide
-      have hX : ∀ g bd l', forEnd g key val seq bd (s :: l') = perr "unexpected end of template, expected endfor" := by
-        intro g bd l'
-        unfold forEnd
-        cases l' <;> simp [hne]
-      rw [hX, hX]; rfl
-    · obtain ⟨xs, d, rr, rfl, hx, hd, hr, _⟩ := hw.block_inv hs
-      rw [D_append_allK hx, D_cons_keep hd.keep] at hy ⊢
-      have hle := extra_tag_le s xs d rr
-      have hsb : (s.kind != BLOCK_START) = false := by simp [hs]
-      cases xs with
-      | nil =>
-        have hdn : (d.kind != NAME) = true := by simp [hd.endTok.kinds.1]
-        simp only [List.nil_append, forEnd, hsb, hdn, Bool.false_eq_true, if_false, if_true]
-        rfl
-      | cons n xs' =>
-        rw [allK_cons] at hx
-        simp only [List.cons_append, forEnd, hsb, Bool.false_eq_true, if_false] at hy ⊢
-        by_cases hn : (n.kind != NAME) = true
-        · simp only [hn, if_true]; rfl
-        · simp only [hn, Bool.false_eq_true, if_false] at hy ⊢
-          by_cases h1 : (n.val == b "else") = true
-          · simp only [h1, if_true] at hy ⊢
-            rcases expectK_TS (TS_tail hx.2 hd rr) BLOCK_END (by decide) "expected block end after else" with
-              ⟨e1, e2⟩ | ⟨e1, e2⟩
-            · rw [e1, e2]; rfl
-            rw [e2] at hy
-            rw [e1, e2]
-            simp only [ok_bind] at hy ⊢
-            refine RelR.bind hy (fun h => ih.outer k rr hr (Nat.le_trans hle hk5) h) ?_
-            intro els els' r8 hφ hw8 hp8 hy2
-            rcases expectTag_sim "endfor" "expected endfor" hw8 hp8.1 with ⟨h1', h2'⟩ |
-              ⟨xs2, d2, r9, hx2, hd2, hr9, hle2, h1', h2'⟩
-            · simp only [h1', h2']; rfl
-            · simp only [h1', h2', ok_bind] at hy2 ⊢
-              rcases expectK_TS (TS_tail hx2 hd2 r9) BLOCK_END (by decide) "expected block end after endfor" with
-                ⟨e3, e4⟩ | ⟨e3, e4⟩
-              · rw [e3, e4]; rfl
-              · rw [e3, e4]
-                refine ⟨Node.forN key val seq body els, r9, rfl, ⟨?_, by intro s h; cases h⟩, hr9, rfl, ?_⟩
-                · show Node.forN key val seq (stripL body) (stripL els) = _
-                  rw [hb, hφ]
-                · exact Nat.le_trans hle2 (Nat.le_trans hp8.2 (Nat.le_trans hle hB))
-          · simp only [h1, Bool.false_eq_true, if_false] at hy ⊢
-            by_cases h2 : (n.val == b "endfor") = true
-            · simp only [h2, if_true] at hy ⊢
-              rcases expectK_TS (TS_tail hx.2 hd rr) BLOCK_END (by decide) "expected block end after endfor" with
-                ⟨e1, e2⟩ | ⟨e1, e2⟩
-              · rw [e1, e2]; rfl
-              · rw [e1, e2]
-                refine ⟨Node.forN key val seq body [], rr, rfl, ⟨?_, by intro s h; cases h⟩, hr, rfl,
-                  Nat.le_trans hle hB⟩
-                show Node.forN key val seq (stripL body) (stripL []) = _
-                rw [hb]; rfl
-            · simp only [h2, Bool.false_eq_true, if_false]
-              rfl
-
-/-- the `for` handler after the loop variables -/
-def forK (g : Nat) (key : Option Bytes) (val : Bytes) (r1 : List Token) : R (Node × List Token) :=
-  match r1 with
-  | i :: r2 =>
-    if (!isName i "in") = true then perr "expected 'in' keyword after variable name"
-    else
-      parseExpression (exprFuel r2) r2 >>= fun x =>
-      expectK BLOCK_END "expected block end after for statement" x.2 >>= fun r4 =>
-      parseOuter g r4 >>= fun y => forEnd g key val x.1 y.1 y.2
-  | [] => perr "expected 'in' keyword after variable name"
-
-theorem forK_sim {f : Nat} (ih : SimAt f) (k : Nat) (key : Option Bytes) (val : Bytes) (r : List Token)
-    (hr : WFo r) (hkr : extra r ≤ k) {L L' : List Token} (hL : TS r (dropEmptyText r) L L')
-    (hy : forK f key val L' ≠ fuelErr) :
-    RelR PhiN (fun r2 => extra r2 ≤ extra r) (forK (f + k) key val L) (forK f key val L') := by
-  rcases hL.cases with ⟨d, hd, rfl, rfl⟩ | ⟨i, t, t', hi, rfl, rfl, ht⟩
-  · have : (!isName d "in") = true := by simp [hd.isName]
-    simp only [forK, this, if_true]
-    rfl
-  · simp only [forK] at hy ⊢
-    by_cases hin : (!isName i "in") = true
-    · simp only [hin, if_true]; rfl
-    · simp only [hin, Bool.false_eq_true, if_false] at hy ⊢
-      obtain ⟨xs, d, hx, hd, rfl, rfl⟩ := ht
-      have hd' : IsEnd d ∨ True := .inr trivial
-      -- `d` is an end token of the expression parsers; `expectK BLOCK_END` decides whether it is the block end
-      have hpe := peX (r := r) (r' := dropEmptyText r) ⟨xs, d, hx, hd, rfl, rfl⟩ (D_length r) (bind_ne_fuel hy)
-      cases hye : parseExpression (exprFuel (xs ++ d :: dropEmptyText r)) (xs ++ d :: dropEmptyText r) with
-      | error e =>
-        rw [hye] at hpe
-        cases hxe : parseExpression (exprFuel (xs ++ d :: r)) (xs ++ d :: r) with
-        | error e' => rw [hxe] at hpe; simp only [RRel] at hpe; subst hpe; rfl
-        | ok b => rw [hxe] at hpe; simp [RRel] at hpe
-      | ok b' =>
-        obtain ⟨e, u'⟩ := b'
-        rw [hye] at hpe hy
-        cases hxe : parseExpression (exprFuel (xs ++ d :: r)) (xs ++ d :: r) with
-        | error e' => rw [hxe] at hpe; simp [RRel] at hpe
-        | ok b =>
-          obtain ⟨e2, u⟩ := b
-          rw [hxe] at hpe
-          simp only [RRel] at hpe
-          obtain ⟨rfl, hu⟩ := hpe
-          simp only [ok_bind] at hy ⊢
-          rcases expectK_TS hu BLOCK_END (by decide) "expected block end after for statement" with ⟨h1, h2⟩ | ⟨h1, h2⟩
-          · rw [h1, h2]; rfl
-          · rw [h2] at hy
-            rw [h1, h2]
-            simp only [ok_bind] at hy ⊢
-            refine RelR.bind hy (fun h => ih.outer k r hr hkr h) ?_
-            intro body body' r5 hφ hw5 hp5 hy2
-            exact forEnd_sim ih k key val e2 body body' hφ r5 hw5 hp5.1 (Nat.le_trans hp5.2 hkr) _ hp5.2 hy2
-
-/-- the `for` handler after the first loop variable `v` -/
-def forHdr (g : Nat) (v : Token) (r0 : List Token) : R (Node × List Token) :=
-  match r0 with
-  | c :: v2 :: r' =>
-    if isP c 44 = true then
-      (if (v2.kind == NAME) = true then forK g (some v.val) v2.val r'
-       else perr "expected value variable name after comma")
-    else forK g none v.val r0
-  | [c] => if isP c 44 = true then perr "expected value variable name after comma" else forK g none v.val r0
-  | [] => forK g none v.val r0
-
-theorem forHdr_end (g : Nat) (v d : Token) (hd : EndTok d) (l : List Token) :
-    forHdr g v (d :: l) = forK g none v.val (d :: l) := by
-  cases l <;> simp [forHdr, hd.isP]
-
-theorem forHdr_sim {f : Nat} (ih : SimAt f) (k : Nat) (v : Token) (r : List Token)
-    (hr : WFo r) (hkr : extra r ≤ k) {L L' : List Token} (hL : TS r (dropEmptyText r) L L')
-    (hy : forHdr f v L' ≠ fuelErr) :
-    RelR PhiN (fun r2 => extra r2 ≤ extra r) (forHdr (f + k) v L) (forHdr f v L') := by
-  rcases hL.cases with ⟨d, hd, rfl, rfl⟩ | ⟨c, t, t', hc, rfl, rfl, ht⟩
-  · rw [forHdr_end _ _ _ hd] at hy ⊢
-    rw [forHdr_end _ _ _ hd]
-    exact forK_sim ih k none v.val r hr hkr (TS.end_ hd) hy
-  · rcases ht.cases with ⟨d, hd, rfl, rfl⟩ | ⟨v2, t2, t2', hv2, rfl, rfl, ht2⟩
-    · simp only [forHdr] at hy ⊢
-      by_cases hcp : isP c 44 = true
-      · have : (d.kind == NAME) = false := by simp [hd.kinds.1]
-        simp only [hcp, if_true, this, Bool.false_eq_true, if_false]
-        rfl
-      · simp only [hcp, Bool.false_eq_true, if_false] at hy ⊢
-        exact forK_sim ih k none v.val r hr hkr (TS.cons hc (TS.end_ hd)) hy
-    · simp only [forHdr] at hy ⊢
-      by_cases hcp : isP c 44 = true
-      · simp only [hcp, if_true] at hy ⊢
-        by_cases hvn : (v2.kind == NAME) = true
-        · simp only [hvn, if_true] at hy ⊢
-          exact forK_sim ih k _ _ r hr hkr ht2 hy
-        · simp only [hvn, Bool.false_eq_true, if_false]
-          rfl
-      · simp only [hcp, Bool.false_eq_true, if_false] at hy ⊢
-        exact forK_sim ih k none v.val r hr hkr (TS.cons hc (TS.cons hv2 ht2)) hy
-
-theorem parseTag_for (g : Nat) (v : Token) (r0 : List Token) (hv : (v.kind != NAME) = false) :
-    parseTag (g+1) (b "for") (v :: r0) = forHdr g v r0 := by
-  unfold parseTag
-  simp only [show (b "for" == b "if") = false from by decide +kernel,
-    show (b "for" == b "for") = true from by decide +kernel, Bool.false_eq_true, if_false, if_true, hv]
-  cases r0 with
-  | nil => simp only [forHdr, pure_eq_ok, ok_bind]; rfl
-  | cons c t =>
-    cases t with
-    | nil =>
-      simp only [forHdr]
-      by_cases hc : isP c 44 = true
-      · simp only [hc, if_true]; rfl
-      · simp only [hc, Bool.false_eq_true, if_false, pure_eq_ok, ok_bind]; rfl
-    | cons v2 r' =>
-      simp only [forHdr]
-      by_cases hc : isP c 44 = true
-      · simp only [hc, if_true]
-        by_cases hv2 : (v2.kind == NAME) = true
-        · simp only [hv2, if_true, pure_eq_ok, ok_bind]; rfl
-        · simp only [hv2, Bool.false_eq_true, if_false]; rfl
-      · simp only [hc, Bool.false_eq_true, if_false, pure_eq_ok, ok_bind]; rfl
-
-/-- the `set` handler after the first expression -/
-def setTail (name : Bytes) (e : Expr) (r2 : List Token) : R (Node × List Token) :=
-  match r2 with
-  | o :: r' =>
-    if (o.kind == OPERATOR && o.val != [61]) = true then
-      parseExpression (exprFuel r') r' >>= fun x =>
-      expectK BLOCK_END "expected block end token after set expression" x.2 >>= fun r4 =>
-      pure (Node.setN name (Expr.badBinary e x.1), r4)
-    else
-      expectK BLOCK_END "expected block end token after set expression" r2 >>= fun r4 => pure (Node.setN name e, r4)
-  | [] => expectK BLOCK_END "expected block end token after set expression" r2 >>= fun r4 => pure (Node.setN name e, r4)
-
-def setHdr (ts : List Token) : R (Node × List Token) :=
-  match ts with
-  | v :: eq :: r1 =>
-    if (v.kind != NAME) = true then perr "expected variable name after set"
-    else if (!(eq.kind == OPERATOR && eq.val == [61])) = true then perr "expected '=' after variable name"
-    else parseExpression (exprFuel r1) r1 >>= fun x => setTail v.val x.1 x.2
-  | [v] => if (v.kind != NAME) = true then perr "expected variable name after set" else perr "expected '=' after variable name"
-  | [] => perr "expected variable name after set"
-
-theorem parseTag_set (g : Nat) (ts : List Token) : parseTag (g+1) (b "set") ts = setHdr ts := by
-  unfold parseTag
-  simp only [show (b "set" == b "if") = false from by decide +kernel,
-    show (b "set" == b "for") = false from by decide +kernel,
-    show (b "set" == b "set") = true from by decide +kernel, Bool.false_eq_true, if_false, if_true]
-  cases ts with
-  | nil => rfl
-  | cons v t =>
-    cases t with
-    | nil => rfl
-    | cons eq r1 =>
-      simp only [setHdr]
-      by_cases hv : (v.kind != NAME) = true
-      · simp only [hv, if_true]
-      · simp only [hv, Bool.false_eq_true, if_false]
-        by_cases heq : (!(eq.kind == OPERATOR && eq.val == [61])) = true
-        · simp only [heq, if_true]
-        · simp only [heq, Bool.false_eq_true, if_false]
-          apply bind_congr_ok
-          intro x _
-          obtain ⟨e, r2⟩ := x
-          simp only [setTail]
-          cases r2 with
-          | nil => rfl
-          | cons o r' =>
-            simp only
-            by_cases ho : (o.kind == OPERATOR && o.val != [61]) = true
-            · simp only [ho, if_true]
-              cases parseExpression (exprFuel r') r' <;> rfl
-            · simp only [ho, Bool.false_eq_true, if_false]
-              rfl
-
-theorem expectK_end_sim {r : List Token} (hr : WFo r) {u u' : List Token} (hu : TS r (dropEmptyText r) u u')
-    (msg : String) (n : Node) (hn : Leaf n) :
-    RelR PhiN (fun r2 => extra r2 ≤ extra r) (expectK BLOCK_END msg u >>= fun r4 => pure (n, r4))
-      (expectK BLOCK_END msg u' >>= fun r4 => pure (n, r4)) := by
-  rcases expectK_TS hu BLOCK_END (by decide) msg with ⟨e1, e2⟩ | ⟨e1, e2⟩
-  · rw [e1, e2]; rfl
-  · rw [e1, e2]
-    exact ⟨n, r, rfl, hn, hr, rfl, Nat.le_refl _⟩
-
-theorem setTail_sim (name : Bytes) (e : Expr) {r : List Token} (hr : WFo r) {u u' : List Token}
-    (hu : TS r (dropEmptyText r) u u') (hy : setTail name e u' ≠ fuelErr) :
-    RelR PhiN (fun r2 => extra r2 ≤ extra r) (setTail name e u) (setTail name e u') := by
-  rcases hu.cases with ⟨d, hd, rfl, rfl⟩ | ⟨o, t, t', ho, rfl, rfl, ht⟩
-  · have : (d.kind == OPERATOR && d.val != [61]) = false := by simp [hd.kinds.2.2.2.1]
-    simp only [setTail, this, Bool.false_eq_true, if_false]
-    exact expectK_end_sim hr (TS.end_ hd) _ _ ⟨rfl, by intro s h; cases h⟩
-  · simp only [setTail] at hy ⊢
-    by_cases hc : (o.kind == OPERATOR && o.val != [61]) = true
-    · simp only [hc, if_true] at hy ⊢
-      refine (peX_end ht (D_length r) BLOCK_END (by decide) _ (fun x => Node.setN name (Expr.badBinary e x)) hy).toRelR hr ?_
-      rintro n ⟨x, rfl⟩
-      exact ⟨rfl, by intro s h; cases h⟩
-    · simp only [hc, Bool.false_eq_true, if_false]
-      exact expectK_end_sim hr (TS.cons ho ht) _ _ ⟨rfl, by intro s h; cases h⟩
-
-theorem setHdr_end (d : Token) (hd : EndTok d) (l : List Token) :
-    setHdr (d :: l) = perr "expected variable name after set" := by
-  have : (d.kind != NAME) = true := by simp [hd.kinds.1]
-  cases l <;> simp [setHdr, this]
-
-theorem setHdr_sim {r : List Token} (hr : WFo r) {L L' : List Token} (hL : TS r (dropEmptyText r) L L')
-    (hy : setHdr L' ≠ fuelErr) :
-    RelR PhiN (fun r2 => extra r2 ≤ extra r) (setHdr L) (setHdr L') := by
-  rcases hL.cases with ⟨d, hd, rfl, rfl⟩ | ⟨v, t, t', hv, rfl, rfl, ht⟩
-  · rw [setHdr_end _ hd, setHdr_end _ hd]; rfl
-  · rcases ht.cases with ⟨d, hd, rfl, rfl⟩ | ⟨eq, t2, t2', heq, rfl, rfl, ht2⟩
-    · have h2 : (!(d.kind == OPERATOR && d.val == [61])) = true := by simp [hd.kinds.2.2.2.1]
-      simp only [setHdr, h2, if_true]
-      by_cases hvn : (v.kind != NAME) = true
-      · simp only [hvn, if_true]; rfl
-      · simp only [hvn, Bool.false_eq_true, if_false]; rfl
-    · simp only [setHdr] at hy ⊢
-      by_cases hvn : (v.kind != NAME) = true
-      · simp only [hvn, if_true]; rfl
-      · simp only [hvn, Bool.false_eq_true, if_false] at hy ⊢
-        by_cases he : (!(eq.kind == OPERATOR && eq.val == [61])) = true
-        · simp only [he, if_true]; rfl
-        · simp only [he, Bool.false_eq_true, if_false] at hy ⊢
-          have hpe := peX ht2 (D_length r) (bind_ne_fuel hy)
-          cases hye : parseExpression (exprFuel t2') t2' with
-          | error e =>
-            rw [hye] at hpe
-            cases hxe : parseExpression (exprFuel t2) t2 with
-            | error e' => rw [hxe] at hpe; simp only [RRel] at hpe; subst hpe; rfl
-            | ok b => rw [hxe] at hpe; simp [RRel] at hpe
-          | ok b' =>
-            obtain ⟨e, u'⟩ := b'
-            rw [hye] at hpe hy
-            cases hxe : parseExpression (exprFuel t2) t2 with
-            | error e' => rw [hxe] at hpe; simp [RRel] at hpe
-            | ok b =>
-              obtain ⟨e2, u⟩ := b
-              rw [hxe] at hpe
-              simp only [RRel] at hpe
-              obtain ⟨rfl, hu⟩ := hpe
-              simp only [ok_bind] at hy ⊢
-              exact setTail_sim v.val e2 hr hu hy
-
-/-- `parseExpression`, then a continuation that is itself insensitive to what follows the end token -/
-theorem peThen_sim {r : List Token} (tail : Expr → List Token → R (Node × List Token))
-    (htail : ∀ e u u', TS r (dropEmptyText r) u u' → tail e u' ≠ fuelErr →
-      RelR PhiN (fun r2 => extra r2 ≤ extra r) (tail e u) (tail e u'))
-    {L L' : List Token} (hL : TS r (dropEmptyText r) L L')
-    (hy : (parseExpression (exprFuel L') L' >>= fun x => tail x.1 x.2) ≠ fuelErr) :
-    RelR PhiN (fun r2 => extra r2 ≤ extra r) (parseExpression (exprFuel L) L >>= fun x => tail x.1 x.2)
-      (parseExpression (exprFuel L') L' >>= fun x => tail x.1 x.2) := by
-  have hpe := peX hL (D_length r) (bind_ne_fuel hy)
-  cases hye : parseExpression (exprFuel L') L' with
-  | error e =>
-    rw [hye] at hpe
-    cases hxe : parseExpression (exprFuel L) L with
-    | error e' => rw [hxe] at hpe; simp only [RRel] at hpe; subst hpe; rfl
-    | ok b => rw [hxe] at hpe; simp [RRel] at hpe
-  | ok b' =>
-    obtain ⟨e, u'⟩ := b'
-    rw [hye] at hpe hy
-    cases hxe : parseExpression (exprFuel L) L with
-    | error e' => rw [hxe] at hpe; simp [RRel] at hpe
-    | ok b =>
-      obtain ⟨e2, u⟩ := b
-      rw [hxe] at hpe
-      simp only [RRel] at hpe
-      obtain ⟨rfl, hu⟩ := hpe
-      simp only [ok_bind] at hy ⊢
-      exact htail e2 u u' hu hy
-
-/-- the `import` handler after the template path -/
-def importTail (e : Expr) (r1 : List Token) : R (Node × List Token) :=
-  match r1 with
-  | a :: al :: r2 =>
-    if (!isName a "as") = true then perr "expected 'as' after template path"
-    else if (al.kind != NAME) = true then perr "expected identifier after 'as'"
-    else expectK BLOCK_END "expected block end token after import statement" r2 >>= fun r3 =>
-      pure (Node.importN e al.val, r3)
-  | [a] => if (!isName a "as") = true then perr "expected 'as' after template path" else perr "expected identifier after 'as'"
-  | [] => perr "expected 'as' after template path"
-
-theorem parseTag_import (g : Nat) (ts : List Token) :
-    parseTag (g+1) (b "import") ts = (parseExpression (exprFuel ts) ts >>= fun x => importTail x.1 x.2) := by
-  unfold parseTag
-  simp only [show (b "import" == b "if") = false from by decide +kernel,
-    show (b "import" == b "for") = false from by decide +kernel,
-    show (b "import" == b "set") = false from by decide +kernel,
-    show (b "import" == b "do") = false from by decide +kernel,
-    show (b "import" == b "block") = false from by decide +kernel,
-    show (b "import" == b "extends") = false from by decide +kernel,
-    show (b "import" == b "include") = false from by decide +kernel,
-    show (b "import" == b "macro") = false from by decide +kernel,
-    show (b "import" == b "import") = true from by decide +kernel, Bool.false_eq_true, if_false, if_true]
-  apply bind_congr_ok
-  intro x _
-  obtain ⟨e, r1⟩ := x
-  simp only [importTail]
-  cases r1 with
-  | nil => rfl
-  | cons a t => cases t <;> rfl
-
-theorem importTail_sim (e : Expr) {r : List Token} (hr : WFo r) {u u' : List Token}
-    (hu : TS r (dropEmptyText r) u u') :
-    RelR PhiN (fun r2 => extra r2 ≤ extra r) (importTail e u) (importTail e u') := by
-  rcases hu.cases with ⟨d, hd, rfl, rfl⟩ | ⟨a, t, t', ha, rfl, rfl, ht⟩
-  · have hX : ∀ l, importTail e (d :: l) = perr "expected 'as' after template path" := by
-      intro l
-      have : (!isName d "as") = true := by simp [hd.isName]
-      cases l <;> simp [importTail, this]
-    rw [hX, hX]; rfl
-  · rcases ht.cases with ⟨d, hd, rfl, rfl⟩ | ⟨al, t2, t2', hal, rfl, rfl, ht2⟩
-    · have hdn : (d.kind != NAME) = true := by simp [hd.kinds.1]
-      simp only [importTail, hdn, if_true]
-      by_cases h1 : (!isName a "as") = true
-      · simp only [h1, if_true]; rfl
-      · simp only [h1, Bool.false_eq_true, if_false]; rfl
-    · simp only [importTail]
-      by_cases h1 : (!isName a "as") = true
-      · simp only [h1, if_true]; rfl
-      · simp only [h1, Bool.false_eq_true, if_false]
-        by_cases h2 : (al.kind != NAME) = true
-        · simp only [h2, if_true]; rfl
-        · simp only [h2, Bool.false_eq_true, if_false]
-          exact expectK_end_sim hr ht2 _ _ ⟨rfl, by intro s h; cases h⟩
-
-/-- where the `do` handler finds an `=` among the first three tokens -/
-def doEqPos (ts : List Token) : Option Nat :=
-  match ts with
-  | a :: c :: d :: _ =>
-    if (a.kind == OPERATOR && a.val == [61]) = true then some 0 else if (a.kind == BLOCK_END) = true then none
-    else if (c.kind == OPERATOR && c.val == [61]) = true then some 1 else if (c.kind == BLOCK_END) = true then none
-    else if (d.kind == OPERATOR && d.val == [61]) = true then some 2 else none
-  | [a, c] =>
-    if (a.kind == OPERATOR && a.val == [61]) = true then some 0 else if (a.kind == BLOCK_END) = true then none
-    else if (c.kind == OPERATOR && c.val == [61]) = true then some 1 else none
-  | [a] => if (a.kind == OPERATOR && a.val == [61]) = true then some 0 else none
-  | [] => none
-
-def doExpr (mk : Expr → Node) (ts : List Token) : R (Node × List Token) :=
-  parseExpression (exprFuel ts) ts >>= fun x =>
-  expectK BLOCK_END "expecting end of do tag" x.2 >>= fun r3 => pure (mk x.1, r3)
-
-def doHdr (ts : List Token) : R (Node × List Token) :=
-  match ts with
-  | [] => perr "unexpected end of template"
-  | t0 :: _ =>
-    if (t0.kind == BLOCK_END) = true then perr "do tag cannot be empty"
-    else match doEqPos ts with
-      | some (p+1) =>
-        if (t0.kind != NAME) = true then perr "invalid variable name in do tag assignment"
-        else doExpr (Node.setN t0.val) (ts.drop (p + 2))
-      | _ => doExpr Node.doN ts
-
-theorem parseTag_do (g : Nat) (ts : List Token) : parseTag (g+1) (b "do") ts = doHdr ts := by
-  unfold parseTag
-  simp only [show (b "do" == b "if") = false from by decide +kernel,
-    show (b "do" == b "for") = false from by decide +kernel,
-    show (b "do" == b "set") = false from by decide +kernel,
-    show (b "do" == b "do") = true from by decide +kernel, Bool.false_eq_true, if_false, if_true]
-  cases ts with
-  | nil => rfl
-  | cons t0 t =>
-    simp only [doHdr]
-    by_cases h0 : (t0.kind == BLOCK_END) = true
-    · simp only [h0, if_true]
-    · simp only [h0, Bool.false_eq_true, if_false]
-      rfl
-
-
-theorem doExpr_sim (mk : Expr → Node) (hmk : ∀ e, Leaf (mk e)) {r : List Token} (hr : WFo r) {L L' : List Token}
-    (hL : TS r (dropEmptyText r) L L') (hy : doExpr mk L' ≠ fuelErr) :
-    RelR PhiN (fun r2 => extra r2 ≤ extra r) (doExpr mk L) (doExpr mk L') := by
-  refine (peX_end hL (D_length r) BLOCK_END (by decide) _ mk hy).toRelR hr ?_
-  rintro n ⟨e, rfl⟩
-  exact hmk e
-
-theorem isEq_end {d : Token} (hd : EndTok d) : (d.kind == OPERATOR && d.val == [61]) = false := by
-  simp [hd.kinds.2.2.2.1]
-
-theorem exprKind_not_blockEnd {x : Token} (h : ExprKind x.kind) : (x.kind == BLOCK_END) = false := by
-  have : x.kind ≠ BLOCK_END := by
-    intro h2; rw [h2] at h; exact absurd h (by decide)
-  simpa using this
-
-theorem doHdr_sim {r : List Token} (hr : WFo r) {xs : List Token} {d : Token} (hx : AllK xs) (hd : IsEnd d)
-    (hdk : d.kind = BLOCK_END) (hy : doHdr (xs ++ d :: dropEmptyText r) ≠ fuelErr) :
-    RelR PhiN (fun r2 => extra r2 ≤ extra r) (doHdr (xs ++ d :: r)) (doHdr (xs ++ d :: dropEmptyText r)) := by
-  have hdb : (d.kind == BLOCK_END) = true := by simp [hdk]
-  have hde := isEq_end hd.endTok
-  have leafSet : ∀ (nm : Bytes) (e : Expr), Leaf (Node.setN nm e) := fun _ _ => ⟨rfl, by intro s h; cases h⟩
-  have leafDo : ∀ (e : Expr), Leaf (Node.doN e) := fun _ => ⟨rfl, by intro s h; cases h⟩
-  cases xs with
-  | nil =>
-    simp only [List.nil_append, doHdr, hdb, if_true]
-    rfl
-  | cons a xs1 =>
-    rw [allK_cons] at hx
-    have hab := exprKind_not_blockEnd hx.1
-    cases xs1 with
-    | nil =>
-      -- `a`, then the end token: the position of `=` does not depend on what follows
-      have hpos : ∀ l, doEqPos (a :: d :: l) = if (a.kind == OPERATOR && a.val == [61]) = true then some 0 else none := by
-        intro l
-        cases l <;> simp [doEqPos, hab, hde, hdb]
-      simp only [List.cons_append, List.nil_append, doHdr, hab, Bool.false_eq_true, if_false, hpos] at hy ⊢
-      by_cases ha : (a.kind == OPERATOR && a.val == [61]) = true
-      · simp only [ha, if_true] at hy ⊢
-        exact doExpr_sim _ leafDo hr (TS.cons hx.1 (TS.end_ hd.endTok)) hy
-      · simp only [ha, Bool.false_eq_true, if_false] at hy ⊢
-        exact doExpr_sim _ leafDo hr (TS.cons hx.1 (TS.end_ hd.endTok)) hy
-    | cons c xs2 =>
-      rw [allK_cons] at hx
-      have hcb := exprKind_not_blockEnd hx.2.1
-      cases xs2 with
-      | nil =>
-        have hpos : ∀ l, doEqPos (a :: c :: d :: l) =
-            if (a.kind == OPERATOR && a.val == [61]) = true then some 0
-            else if (c.kind == OPERATOR && c.val == [61]) = true then some 1 else none := by
-          intro l
-          simp [doEqPos, hab, hcb, hde]
-        simp only [List.cons_append, List.nil_append, doHdr, hab, Bool.false_eq_true, if_false, hpos] at hy ⊢
-        by_cases ha : (a.kind == OPERATOR && a.val == [61]) = true
-        · simp only [ha, if_true] at hy ⊢
-          exact doExpr_sim _ leafDo hr (TS.cons hx.1 (TS.cons hx.2.1 (TS.end_ hd.endTok))) hy
-        · simp only [ha, Bool.false_eq_true, if_false] at hy ⊢
-          by_cases hc : (c.kind == OPERATOR && c.val == [61]) = true
-          · simp only [hc, if_true] at hy ⊢
-            by_cases hn : (a.kind != NAME) = true
-            · simp only [hn, if_true]; rfl
-            · simp only [hn, Bool.false_eq_true, if_false, List.drop_succ_cons, List.drop_zero] at hy ⊢
-              exact doExpr_sim _ (leafSet _) hr (TS.end_ hd.endTok) hy
-          · simp only [hc, Bool.false_eq_true, if_false] at hy ⊢
-            exact doExpr_sim _ leafDo hr (TS.cons hx.1 (TS.cons hx.2.1 (TS.end_ hd.endTok))) hy
-      | cons e xs3 =>
-        rw [allK_cons] at hx
-        have hpos : ∀ l, doEqPos (a :: c :: e :: l) =
-            if (a.kind == OPERATOR && a.val == [61]) = true then some 0
-            else if (c.kind == OPERATOR && c.val == [61]) = true then some 1
-            else if (e.kind == OPERATOR && e.val == [61]) = true then some 2 else none := by
-          intro l
-          simp [doEqPos, hab, hcb]
-        have htail := TS_tail hx.2.2.2 hd r
-        simp only [List.cons_append, doHdr, hab, Bool.false_eq_true, if_false, hpos] at hy ⊢
-        by_cases ha : (a.kind == OPERATOR && a.val == [61]) = true
-        · simp only [ha, if_true] at hy ⊢
-          exact doExpr_sim _ leafDo hr (TS.cons hx.1 (TS.cons hx.2.1 (TS.cons hx.2.2.1 htail))) hy
-        · simp only [ha, Bool.false_eq_true, if_false] at hy ⊢
-          by_cases hc : (c.kind == OPERATOR && c.val == [61]) = true
-          · simp only [hc, if_true] at hy ⊢
-            by_cases hn : (a.kind != NAME) = true
-            · simp only [hn, if_true]; rfl
-            · simp only [hn, Bool.false_eq_true, if_false, List.drop_succ_cons, List.drop_zero] at hy ⊢
-              exact doExpr_sim _ (leafSet _) hr (TS.cons hx.2.2.1 htail) hy
-          · simp only [hc, Bool.false_eq_true, if_false] at hy ⊢
-            by_cases he : (e.kind == OPERATOR && e.val == [61]) = true
-            · simp only [he, if_true] at hy ⊢
-              by_cases hn : (a.kind != NAME) = true
-              · simp only [hn, if_true]; rfl
-              · simp only [hn, Bool.false_eq_true, if_false, List.drop_succ_cons, List.drop_zero] at hy ⊢
-                exact doExpr_sim _ (leafSet _) hr htail hy
-            · simp only [he, Bool.false_eq_true, if_false] at hy ⊢
-              exact doExpr_sim _ leafDo hr (TS.cons hx.1 (TS.cons hx.2.1 (TS.cons hx.2.2.1 htail))) hy
-
-/-- results of header functions that consume the end token: same error, or same value and the rests `r` / `r'` -/
-def RRelV {α} (r r' : List Token) (x y : R (α × List Token)) : Prop :=
-  match x, y with
-  | .ok (a, u), .ok (a', u') => a = a' ∧ u = r ∧ u' = r'
-  | .error e, .error e' => e = e'
-  | _, _ => False
-
-theorem RRelV.bindPure {α β} {r r' : List Token} {x y : R (α × List Token)} (g : α → β)
-    (h : RRelV r r' x y) :
-    RRelV r r' (x >>= fun a => pure (g a.1, a.2)) (y >>= fun a => pure (g a.1, a.2)) := by
-  cases x with
-  | error e =>
-    cases y with
-    | error e' => simp only [RRelV] at h; subst h; exact rfl
-    | ok b => simp [RRelV] at h
-  | ok a =>
-    cases y with
-    | error e' => simp [RRelV] at h
-    | ok b =>
-      obtain ⟨a1, u⟩ := a
-      obtain ⟨b1, u'⟩ := b
-      simp only [RRelV] at h
-      obtain ⟨rfl, rfl, rfl⟩ := h
-      exact ⟨rfl, rfl, rfl⟩
-
-/-- `parseFromNames` reads up to the block end token and never beyond it -/
-theorem fromNames_loc (r r' : List Token) {d : Token} (hdk : d.kind = BLOCK_END) : ∀ (g : Nat) (xs : List Token),
-    AllK xs → RRelV r r' (parseFromNames g (xs ++ d :: r)) (parseFromNames g (xs ++ d :: r'))
-  | 0, xs, _ => by simp only [parseFromNames]; exact rfl
-  | g+1, xs, hx => by
-    have hdb : (d.kind == BLOCK_END) = true := by simp [hdk]
-    have hdE : EndTok d := by unfold EndTok; rw [hdk]; decide
-    cases xs with
-    | nil =>
-      simp only [List.nil_append, parseFromNames, hdb, if_true]
-      exact ⟨rfl, rfl, rfl⟩
-    | cons t xs1 =>
-      rw [allK_cons] at hx
-      have htb := exprKind_not_blockEnd hx.1
-      by_cases htn : (t.kind == NAME) = true
-      · cases xs1 with
-        | nil =>
-          have hX : ∀ l, parseFromNames (g+1) (t :: d :: l) =
-              (parseFromNames g (d :: l) >>= fun x => pure ((t.val, t.val) :: x.1, x.2)) := by
-            intro l
-            cases l <;> simp [parseFromNames, htb, htn, hdE.isName]
-          simp only [List.cons_append, List.nil_append]
-          rw [hX, hX]
-          exact (fromNames_loc r r' hdk g [] allK_nil).bindPure _
-        | cons a xs2 =>
-          rw [allK_cons] at hx
-          cases xs2 with
-          | nil =>
-            simp only [List.cons_append, List.nil_append, parseFromNames, htb, htn, Bool.false_eq_true, if_false, if_true]
-            have hdn : (d.kind == NAME) = false := by simp [hdE.kinds.1]
-            by_cases has : isName a "as" = true
-            · simp only [has, if_true, hdn, Bool.false_eq_true, if_false]
-              exact (fromNames_loc r r' hdk g [] allK_nil).bindPure _
-            · simp only [has, Bool.false_eq_true, if_false]
-              exact (fromNames_loc r r' hdk g [a] ((allK_cons a []).mpr ⟨hx.2.1, allK_nil⟩)).bindPure _
-          | cons al xs3 =>
-            rw [allK_cons] at hx
-            simp only [List.cons_append, parseFromNames, htb, htn, Bool.false_eq_true, if_false, if_true]
-            by_cases has : isName a "as" = true
-            · simp only [has, if_true]
-              by_cases haln : (al.kind == NAME) = true
-              · simp only [haln, if_true]
-                exact (fromNames_loc r r' hdk g xs3 hx.2.2.2).bindPure _
-              · simp only [haln, Bool.false_eq_true, if_false]
-                exact (fromNames_loc r r' hdk g (al :: xs3) ((allK_cons al xs3).mpr hx.2.2)).bindPure _
-            · simp only [has, Bool.false_eq_true, if_false]
-              exact (fromNames_loc r r' hdk g (a :: al :: xs3)
-                ((allK_cons a _).mpr ⟨hx.2.1, (allK_cons al xs3).mpr hx.2.2⟩)).bindPure _
-      · have hX : ∀ l, parseFromNames (g+1) (t :: l) = parseFromNames g l := by
-          intro l
-          cases l <;> simp [parseFromNames, htb, htn]
-        simp only [List.cons_append]
-        rw [hX, hX]
-        exact fromNames_loc r r' hdk g xs1 hx.2
-
-
-theorem parseFromNames_mono {f f' : Nat} {ts : List Token} (hne : parseFromNames f ts ≠ .error .fuel) (hle : f ≤ f') :
-    parseFromNames f' ts = parseFromNames f ts :=
-  (FLe.chain (parseFromNames · ts) (fun f => (tmonoAt f).names ts) hle).eq_of_ne hne
-
-/-- the `from` handler -/
-def fromHdr (g : Nat) (ts : List Token) : R (Node × List Token) :=
-  match ts with
-  | p :: i :: r1 =>
-    if ((p.kind == STRING || p.kind == NAME) && isName i "import") = true then
-      match parseFromNames g r1 with
-      | .ok (names, r2) =>
-        if names.isEmpty = true then perr "expected 'import' after template path"
-        else pure (Node.fromN (Expr.str (if (p.kind == NAME) = true then
-            dropWhileEnd (fun c => c == 34 || c == 39) (p.val.dropWhile (fun c => c == 34 || c == 39)) else p.val)) names, r2)
-      | .error e => .error e
-    else perr "expected 'import' after template path"
-  | _ => perr "expected 'import' after template path"
-
-theorem parseTag_from (g : Nat) (ts : List Token) : parseTag (g+1) (b "from") ts = fromHdr g ts := by
-  unfold parseTag
-  simp only [show (b "from" == b "if") = false from by decide +kernel,
-    show (b "from" == b "for") = false from by decide +kernel,
-    show (b "from" == b "set") = false from by decide +kernel,
-    show (b "from" == b "do") = false from by decide +kernel,
-    show (b "from" == b "block") = false from by decide +kernel,
-    show (b "from" == b "extends") = false from by decide +kernel,
-    show (b "from" == b "include") = false from by decide +kernel,
-    show (b "from" == b "macro") = false from by decide +kernel,
-    show (b "from" == b "import") = false from by decide +kernel,
-    show (b "from" == b "from") = true from by decide +kernel, Bool.false_eq_true, if_false, if_true]
-  rfl
-
-theorem fromHdr_sim (f k : Nat) {r : List Token} (hr : WFo r) {xs : List Token} {d : Token} (hx : AllK xs)
-    (hd : IsEnd d) (hdk : d.kind = BLOCK_END) (hy : fromHdr f (xs ++ d :: dropEmptyText r) ≠ fuelErr) :
-    RelR PhiN (fun r2 => extra r2 ≤ extra r) (fromHdr (f + k) (xs ++ d :: r)) (fromHdr f (xs ++ d :: dropEmptyText r)) := by
-  have hdE := hd.endTok
-  cases xs with
-  | nil =>
-    have hX : ∀ g l, fromHdr g (d :: l) = perr "expected 'import' after template path" := by
-      intro g l
-      cases l <;> simp [fromHdr, hdE.kinds.1, hdE.kinds.2.2.1]
-    simp only [List.nil_append]
-    rw [hX, hX]; rfl
-  | cons p xs1 =>
-    rw [allK_cons] at hx
-    cases xs1 with
-    | nil =>
-      have hX : ∀ g l, fromHdr g (p :: d :: l) = perr "expected 'import' after template path" := by
-        intro g l
-        simp [fromHdr, hdE.isName]
-      simp only [List.cons_append, List.nil_append]
-      rw [hX, hX]; rfl
-    | cons i xs2 =>
-      rw [allK_cons] at hx
-      simp only [List.cons_append, fromHdr] at hy ⊢
-      by_cases hc : ((p.kind == STRING || p.kind == NAME) && isName i "import") = true
-      · simp only [hc, if_true] at hy ⊢
-        have hne : parseFromNames f (xs2 ++ d :: dropEmptyText r) ≠ .error .fuel := by
-          intro h; rw [h] at hy; exact hy rfl
-        have hloc := fromNames_loc r (dropEmptyText r) hdk (f + k) xs2 hx.2.2
-        rw [parseFromNames_mono hne (Nat.le_add_right f k)] at hloc
-        cases hY : parseFromNames f (xs2 ++ d :: dropEmptyText r) with
-        | error e =>
-          rw [hY] at hloc
-          cases hXr : parseFromNames (f + k) (xs2 ++ d :: r) with
-          | error e' => rw [hXr] at hloc; simp only [RRelV] at hloc; subst hloc; rfl
-          | ok b => rw [hXr] at hloc; simp [RRelV] at hloc
-        | ok b' =>
-          obtain ⟨names, u'⟩ := b'
-          rw [hY] at hloc
-          cases hXr : parseFromNames (f + k) (xs2 ++ d :: r) with
-          | error e' => rw [hXr] at hloc; simp [RRelV] at hloc
-          | ok b =>
-            obtain ⟨names2, u⟩ := b
-            rw [hXr] at hloc
-            simp only [RRelV] at hloc
-            obtain ⟨rfl, rfl, rfl⟩ := hloc
-            simp only
-            by_cases hem : names2.isEmpty = true
-            · simp only [hem, if_true]; rfl
-            · simp only [hem, Bool.false_eq_true, if_false]
-              exact ⟨_, u, rfl, ⟨rfl, by intro s h; cases h⟩, hr, rfl, Nat.le_refl _⟩
-      · simp only [hc, Bool.false_eq_true, if_false]; rfl
-
-/-- results of `parseMacroParams` on `TS`-related streams -/
-def RRel4 (r r' : List Token) (x y : R (List Bytes × List Bytes × List Expr × List Token)) : Prop :=
-  match x, y with
-  | .ok (a, c, e, u), .ok (a', c', e', u') => a = a' ∧ c = c' ∧ e = e' ∧ TS r r' u u'
-  | .error e, .error e' => e = e'
-  | _, _ => False
-
-theorem RRel4.perr {r r' : List Token} (m : String) : RRel4 r r' (perr m) (perr m) := rfl
-
-theorem parseMacroParams_mono {f f' : Nat} {ts : List Token} (hne : parseMacroParams f ts ≠ .error .fuel)
-    (hle : f ≤ f') : parseMacroParams f' ts = parseMacroParams f ts :=
-  (FLe.chain (parseMacroParams · ts) (fun f => (tmonoAt f).params ts) hle).eq_of_ne hne
-
-/-- after a parameter (and its default): `,` and more parameters, or `)` -/
-def mpTail (g : Nat) (nm : Bytes) (dn : List Bytes) (de : List Expr) (r1 : List Token) :
-    R (List Bytes × List Bytes × List Expr × List Token) :=
-  match r1 with
-  | c :: r2 =>
-    if isP c 44 = true then
-      parseMacroParams g r2 >>= fun y => pure (nm :: y.1, dn ++ y.2.1, de ++ y.2.2.1, y.2.2.2)
-    else if isP c 41 = true then pure ([nm], dn, de, r2)
-    else perr "expected ')' after macro parameters"
-  | [] => perr "expected ')' after macro parameters"
-
-def mpStep (g : Nat) (ts : List Token) : R (List Bytes × List Bytes × List Expr × List Token) :=
-  match ts with
-  | n :: r =>
-    if (n.kind != NAME) = true then perr "expected parameter name"
-    else match r with
-      | eq :: r' =>
-        if (eq.kind == OPERATOR && eq.val == [61]) = true then
-          parseExpression (exprFuel r') r' >>= fun x => mpTail g n.val [n.val] [x.1] x.2
-        else mpTail g n.val [] [] r
-      | [] => mpTail g n.val [] [] r
-  | [] => perr "expected parameter name"
-
-theorem parseMacroParams_step (g : Nat) (ts : List Token) : parseMacroParams (g+1) ts = mpStep g ts := by
-  rw [parseMacroParams.eq_def]
-  cases ts with
-  | nil => rfl
-  | cons n r =>
-    simp only [mpStep]
-    by_cases hn : (n.kind != NAME) = true
-    · simp only [hn, if_true]
-    · simp only [hn, Bool.false_eq_true, if_false]
-      cases r with
-      | nil => rfl
-      | cons eq r' =>
-        simp only
-        by_cases he : (eq.kind == OPERATOR && eq.val == [61]) = true
-        · simp only [he, if_true]
-          cases parseExpression (exprFuel r') r' with
-          | error e => rfl
-          | ok x =>
-            obtain ⟨e, r1⟩ := x
-            simp only [ok_bind, pure_eq_ok, mpTail]
-            cases r1 <;> rfl
-        · simp only [he, Bool.false_eq_true, if_false, pure_eq_ok, ok_bind]
-          rfl
-
-
-theorem macroParams_loc (r r' : List Token) (hlen : r'.length ≤ r.length) : ∀ (g : Nat) (L L' : List Token),
-    TS r r' L L' → parseMacroParams g L' ≠ fuelErr → RRel4 r r' (parseMacroParams g L) (parseMacroParams g L')
-  | 0, L, L', _, hy => absurd (by simp [parseMacroParams, fuelErr]) hy
-  | g+1, L, L', hL, hy => by
-    rw [parseMacroParams_step] at hy ⊢
-    rw [parseMacroParams_step]
-    -- the tail `, more` / `)` on related streams
-    have tailSim : ∀ (nm : Bytes) (dn : List Bytes) (de : List Expr) (u u' : List Token), TS r r' u u' →
-        mpTail g nm dn de u' ≠ fuelErr → RRel4 r r' (mpTail g nm dn de u) (mpTail g nm dn de u') := by
-      intro nm dn de u u' hu hyt
-      rcases hu.cases with ⟨d, hd, rfl, rfl⟩ | ⟨c, t, t', hc, rfl, rfl, ht⟩
-      · simp only [mpTail, hd.isP, Bool.false_eq_true, if_false]
-        exact RRel4.perr _
-      · simp only [mpTail] at hyt ⊢
-        by_cases h1 : isP c 44 = true
-        · simp only [h1, if_true] at hyt ⊢
-          have ih := macroParams_loc r r' hlen g t t' ht (bind_ne_fuel hyt)
-          cases hY : parseMacroParams g t' with
-          | error e =>
-            rw [hY] at ih
-            cases hX : parseMacroParams g t with
-            | error e' => rw [hX] at ih; simp only [RRel4] at ih; subst ih; exact rfl
-            | ok b => rw [hX] at ih; simp [RRel4] at ih
-          | ok b' =>
-            obtain ⟨a', c', e', w'⟩ := b'
-            rw [hY] at ih
-            cases hX : parseMacroParams g t with
-            | error e' => rw [hX] at ih; simp [RRel4] at ih
-            | ok b =>
-              obtain ⟨a, c2, e2, w⟩ := b
-              rw [hX] at ih
-              simp only [RRel4] at ih
-              obtain ⟨rfl, rfl, rfl, hw⟩ := ih
-              exact ⟨rfl, rfl, rfl, hw⟩
-        · simp only [h1, Bool.false_eq_true, if_false]
-          by_cases h2 : isP c 41 = true
-          · simp only [h2, if_true]
-            exact ⟨rfl, rfl, rfl, ht⟩
-          · simp only [h2, Bool.false_eq_true, if_false]
-            exact RRel4.perr _
-    rcases hL.cases with ⟨d, hd, rfl, rfl⟩ | ⟨n, t, t', hn, rfl, rfl, ht⟩
-    · have : (d.kind != NAME) = true := by simp [hd.kinds.1]
-      simp only [mpStep, this, if_true]
-      exact RRel4.perr _
-    · simp only [mpStep] at hy ⊢
-      by_cases hnn : (n.kind != NAME) = true
-      · simp only [hnn, if_true]; exact RRel4.perr _
-      · simp only [hnn, Bool.false_eq_true, if_false] at hy ⊢
-        rcases ht.cases with ⟨d, hd, rfl, rfl⟩ | ⟨eq, t2, t2', heq, rfl, rfl, ht2⟩
-        · simp only [isEq_end hd, Bool.false_eq_true, if_false] at hy ⊢
-          exact tailSim _ _ _ _ _ (TS.end_ hd) hy
-        · simp only at hy ⊢
-          by_cases he : (eq.kind == OPERATOR && eq.val == [61]) = true
-          · simp only [he, if_true] at hy ⊢
-            have hpe := peX ht2 hlen (bind_ne_fuel hy)
-            cases hye : parseExpression (exprFuel t2') t2' with
-            | error e =>
-              rw [hye] at hpe
-              cases hxe : parseExpression (exprFuel t2) t2 with
-              | error e' => rw [hxe] at hpe; simp only [RRel] at hpe; subst hpe; exact rfl
-              | ok b => rw [hxe] at hpe; simp [RRel] at hpe
-            | ok b' =>
-              obtain ⟨e, u'⟩ := b'
-              rw [hye] at hpe hy
-              cases hxe : parseExpression (exprFuel t2) t2 with
-              | error e' => rw [hxe] at hpe; simp [RRel] at hpe
-              | ok b =>
-                obtain ⟨e2, u⟩ := b
-                rw [hxe] at hpe
-                simp only [RRel] at hpe
-                obtain ⟨rfl, hu⟩ := hpe
-                simp only [ok_bind] at hy ⊢
-                exact tailSim _ _ _ _ _ hu hy
-          · simp only [he, Bool.false_eq_true, if_false] at hy ⊢
-            exact tailSim _ _ _ _ _ (TS.cons heq ht2) hy
-
-
-/-- the `macro` handler after the parameter list -/
-def macroK (g : Nat) (nm : Bytes) (params dn : List Bytes) (de : List Expr) (r2 : List Token) : R (Node × List Token) :=
-  expectK BLOCK_END "expected block end token after macro declaration" r2 >>= fun r3 =>
-  parseOuter g r3 >>= fun y =>
-  expectTag "endmacro" "missing endmacro tag" y.2 >>= fun r5 =>
-  expectK BLOCK_END "expected block end token after endmacro" r5 >>= fun r6 =>
-  pure (Node.macro nm params dn de y.1, r6)
-
-def macroHdr (g : Nat) (ts : List Token) : R (Node × List Token) :=
-  match ts with
-  | n :: p :: r1 =>
-    if (n.kind != NAME) = true then perr "expected macro name after macro keyword"
-    else if (!isP p 40) = true then perr "expected '(' after macro name"
-    else match r1 with
-      | c :: r' =>
-        if isP c 41 = true then macroK g n.val [] [] [] r'
-        else parseMacroParams g r1 >>= fun y => macroK g n.val y.1 y.2.1 y.2.2.1 y.2.2.2
-      | [] => perr "expected ')' after macro parameters"
-  | [n] =>
-    if (n.kind != NAME) = true then perr "expected macro name after macro keyword"
-    else perr "expected '(' after macro name"
-  | [] => perr "expected macro name after macro keyword"
-
-theorem parseTag_macro (g : Nat) (ts : List Token) : parseTag (g+1) (b "macro") ts = macroHdr g ts := by
-  unfold parseTag
-  simp only [show (b "macro" == b "if") = false from by decide +kernel,
-    show (b "macro" == b "for") = false from by decide +kernel,
-    show (b "macro" == b "set") = false from by decide +kernel,
-    show (b "macro" == b "do") = false from by decide +kernel,
-    show (b "macro" == b "block") = false from by decide +kernel,
-    show (b "macro" == b "extends") = false from by decide +kernel,
-    show (b "macro" == b "include") = false from by decide +kernel,
-    show (b "macro" == b "macro") = true from by decide +kernel, Bool.false_eq_true, if_false, if_true]
-  cases ts with
-  | nil => rfl
-  | cons n t =>
-    cases t with
-    | nil => rfl
-    | cons p r1 =>
-      simp only [macroHdr]
-      by_cases hn : (n.kind != NAME) = true
-      · simp only [hn, if_true]
-      · simp only [hn, Bool.false_eq_true, if_false]
-        by_cases hp : (!isP p 40) = true
-        · simp only [hp, if_true]
-        · simp only [hp, Bool.false_eq_true, if_false]
-          cases r1 with
-          | nil => rfl
-          | cons c r' =>
-            simp only
-            by_cases hc : isP c 41 = true
-            · simp only [hc, if_true, pure_eq_ok, ok_bind]; rfl
-            · simp only [hc, Bool.false_eq_true, if_false]
-              rfl
-
-theorem macroK_sim {f : Nat} (ih : SimAt f) (k : Nat) (nm : Bytes) (params dn : List Bytes) (de : List Expr)
-    (r : List Token) (hr : WFo r) (hkr : extra r ≤ k) {u u' : List Token} (hu : TS r (dropEmptyText r) u u')
-    (hy : macroK f nm params dn de u' ≠ fuelErr) :
-    RelR PhiN (fun r2 => extra r2 ≤ extra r) (macroK (f + k) nm params dn de u) (macroK f nm params dn de u') := by
-  unfold macroK at hy ⊢
-  rcases expectK_TS hu BLOCK_END (by decide) "expected block end token after macro declaration" with ⟨e1, e2⟩ | ⟨e1, e2⟩
-  · rw [e1, e2]; rfl
-  · rw [e2] at hy
-    rw [e1, e2]
-    simp only [ok_bind] at hy ⊢
-    exact bodyEnd ih k r hr hkr _ _ _ (Node.macro nm params dn de) (fun bd => ⟨rfl, by intro s h; cases h⟩) hy
-
-theorem macroHdr_sim {f : Nat} (ih : SimAt f) (k : Nat) {r : List Token} (hr : WFo r) (hkr : extra r ≤ k)
-    {L L' : List Token} (hL : TS r (dropEmptyText r) L L') (hy : macroHdr f L' ≠ fuelErr) :
-    RelR PhiN (fun r2 => extra r2 ≤ extra r) (macroHdr (f + k) L) (macroHdr f L') := by
-  rcases hL.cases with ⟨d, hd, rfl, rfl⟩ | ⟨n, t, t', hn, rfl, rfl, ht⟩
-  · have hX : ∀ g l, macroHdr g (d :: l) = perr "expected macro name after macro keyword" := by
-      intro g l
-      have : (d.kind != NAME) = true := by simp [hd.kinds.1]
-      cases l <;> simp [macroHdr, this]
-    rw [hX, hX]; rfl
-  · rcases ht.cases with ⟨d, hd, rfl, rfl⟩ | ⟨p, t2, t2', hp, rfl, rfl, ht2⟩
-    · have hdp : (!isP d 40) = true := by simp [hd.isP]
-      simp only [macroHdr, hdp, if_true]
-      by_cases hnn : (n.kind != NAME) = true
-      · simp only [hnn, if_true]; rfl
-      · simp only [hnn, Bool.false_eq_true, if_false]; rfl
-    · simp only [macroHdr] at hy ⊢
-      by_cases hnn : (n.kind != NAME) = true
-      · simp only [hnn, if_true]; rfl
-      · simp only [hnn, Bool.false_eq_true, if_false] at hy ⊢
-        by_cases hpp : (!isP p 40) = true
-        · simp only [hpp, if_true]; rfl
-        · simp only [hpp, Bool.false_eq_true, if_false] at hy ⊢
-          rcases ht2.cases with ⟨d, hd, rfl, rfl⟩ | ⟨c, t3, t3', hc, rfl, rfl, ht3⟩
-          · -- `(` directly followed by the end token: `parseMacroParams` fails on both sides
-            simp only [hd.isP, Bool.false_eq_true, if_false] at hy ⊢
-            have hP : ∀ g l, parseMacroParams (g+1) (d :: l) = perr "expected parameter name" := by
-              intro g l
-              rw [parseMacroParams_step]
-              have : (d.kind != NAME) = true := by simp [hd.kinds.1]
-              simp [mpStep, this]
-            cases f with
-            | zero => exact absurd (by simp [parseMacroParams, fuelErr]) hy
-            | succ f' =>
-              have : f' + 1 + k = (f' + k) + 1 := by omega
-              rw [this, hP, hP]; rfl
-          · simp only at hy ⊢
-            by_cases hcp : isP c 41 = true
-            · simp only [hcp, if_true] at hy ⊢
-              exact macroK_sim ih k _ _ _ _ r hr hkr ht3 hy
-            · simp only [hcp, Bool.false_eq_true, if_false] at hy ⊢
-              have hneY := bind_ne_fuel hy
-              have hloc := macroParams_loc r (dropEmptyText r) (D_length r) (f + k) _ _ (TS.cons hc ht3)
-                (by rw [parseMacroParams_mono hneY (Nat.le_add_right f k)]; exact hneY)
-              rw [parseMacroParams_mono hneY (Nat.le_add_right f k)] at hloc
-              cases hY : parseMacroParams f (c :: t3') with
-              | error e =>
-                rw [hY] at hloc
-                cases hX : parseMacroParams (f + k) (c :: t3) with
-                | error e' => rw [hX] at hloc; simp only [RRel4] at hloc; subst hloc; rfl
-                | ok b => rw [hX] at hloc; simp [RRel4] at hloc
-              | ok b' =>
-                obtain ⟨a', c', e', w'⟩ := b'
-                rw [hY] at hloc hy
-                cases hX : parseMacroParams (f + k) (c :: t3) with
-                | error e' => rw [hX] at hloc; simp [RRel4] at hloc
-                | ok b =>
-                  obtain ⟨a, c2, e2, w⟩ := b
-                  rw [hX] at hloc
-                  simp only [RRel4] at hloc
-                  obtain ⟨rfl, rfl, rfl, hw⟩ := hloc
-                  simp only [ok_bind] at hy ⊢
-                  exact macroK_sim ih k _ _ _ _ r hr hkr hw hy
-
-theorem tag_succ (f : Nat) (ih : SimAt f) (k : Nat) (name : Bytes) (xs : List Token) (d : Token) (r : List Token)
-    (hx : AllK xs) (hd : IsEnd d) (hdk : d.kind = BLOCK_END) (hr : WFo r) (hkr : extra r ≤ k)
-    (hsup : name ∉ unsupportedTags)
-    (hy : parseTag (f+1) name (xs ++ d :: dropEmptyText r) ≠ fuelErr) :
-    RelR PhiN (fun r2 => extra r2 ≤ extra r) (parseTag (f + 1 + k) name (xs ++ d :: r))
-      (parseTag (f+1) name (xs ++ d :: dropEmptyText r)) := by
-  have hfk : f + 1 + k = (f + k) + 1 := by omega
-  rw [hfk]
-  by_cases h_for0 : (name == b "for") = true
-  · have hname : name = b "for" := by simpa using h_for0
-    subst hname
-    cases xs with
-    | nil =>
-      have hdn : (d.kind != NAME) = true := by simp [hd.endTok.kinds.1]
-      have hX : ∀ g l, parseTag (g+1) (b "for") (d :: l) = perr "expected variable name after for" := by
-        intro g l
-        unfold parseTag
-        simp [show (b "for" == b "if") = false from by decide +kernel, hdn]
-      simp only [List.nil_append]
-      rw [hX, hX]; rfl
-    | cons v xs1 =>
-      rw [allK_cons] at hx
-      simp only [List.cons_append] at hy ⊢
-      by_cases hv : (v.kind != NAME) = true
-      · have hX : ∀ g l, parseTag (g+1) (b "for") (v :: l) = perr "expected variable name after for" := by
-          intro g l
-          unfold parseTag
-          simp [show (b "for" == b "if") = false from by decide +kernel, hv]
-        rw [hX, hX]; rfl
-      · have hv' : (v.kind != NAME) = false := by simpa using hv
-        rw [parseTag_for _ _ _ hv'] at hy ⊢
-        rw [parseTag_for _ _ _ hv']
-        exact forHdr_sim ih k v r hr hkr (TS_tail hx.2 hd r) hy
-  by_cases h_mac0 : (name == b "macro") = true
-  · have hname : name = b "macro" := by simpa using h_mac0
-    subst hname
-    rw [parseTag_macro] at hy ⊢
-    rw [parseTag_macro]
-    exact macroHdr_sim ih k hr hkr (TS_tail hx hd r) hy
-  by_cases h_from0 : (name == b "from") = true
-  · have hname : name = b "from" := by simpa using h_from0
-    subst hname
-    rw [parseTag_from] at hy ⊢
-    rw [parseTag_from]
-    exact fromHdr_sim f k hr hx hd hdk hy
-  by_cases h_do0 : (name == b "do") = true
-  · have hname : name = b "do" := by simpa using h_do0
-    subst hname
-    rw [parseTag_do] at hy ⊢
-    rw [parseTag_do]
-    exact doHdr_sim hr hx hd hdk hy
-  by_cases h_imp0 : (name == b "import") = true
-  · have hname : name = b "import" := by simpa using h_imp0
-    subst hname
-    rw [parseTag_import] at hy ⊢
-    rw [parseTag_import]
-    exact peThen_sim importTail (fun e u u' hu _ => importTail_sim e hr hu) (TS_tail hx hd r) hy
-  by_cases h_set0 : (name == b "set") = true
-  · have hname : name = b "set" := by simpa using h_set0
-    subst hname
-    rw [parseTag_set] at hy ⊢
-    rw [parseTag_set]
-    exact setHdr_sim hr (TS_tail hx hd r) hy
-  unfold parseTag at hy ⊢
-  dsimp only at hy ⊢
-  by_cases h_if : (name == b "if") = true
-  · simp only [h_if, if_true] at hy ⊢
-    refine hdrExpr r hx hd BLOCK_END (by decide) _
-      (fun c r2 => parseOuter (f + k) r2 >>= fun y => parseIfTail (f + k) false y.2 >>= fun z =>
-        pure (Node.ifN c y.1 z.1, z.2))
-      (fun c r2 => parseOuter f r2 >>= fun y => parseIfTail f false y.2 >>= fun z =>
-        pure (Node.ifN c y.1 z.1, z.2)) hy ?_
-    intro c hy1
-    refine RelR.bind hy1 (fun h => ih.outer k r hr hkr h) ?_
-    intro body body' r3 hφ hw3 hp3 hy2
-    refine RelR.bind hy2 (fun h => ih.ifTail k false r3 hw3 hp3.1 (Nat.le_trans hp3.2 hkr) h) ?_
-    intro els els' r4 hφ4 hw4 hp4 _
-    refine ⟨.ifN c body els, r4, rfl, ⟨?_, by intro s h; cases h⟩, hw4, rfl, Nat.le_trans hp4 hp3.2⟩
-    show Node.ifN c (stripL body) (stripL els) = _
-    rw [hφ, hφ4]
-  · simp only [h_if, Bool.false_eq_true, if_false] at hy ⊢
-    have hts := TS_tail hx hd r
-    have hlen := D_length r
-    by_cases h_for : (name == b "for") = true
-    · exact absurd h_for h_for0
-    · simp only [h_for, Bool.false_eq_true, if_false] at hy ⊢
-      by_cases h_set : (name == b "set") = true
-      · exact absurd h_set h_set0
-      · simp only [h_set, Bool.false_eq_true, if_false] at hy ⊢
-        have h_do : (name == b "do") = false := by simpa using h_do0
-        simp only [h_do, Bool.false_eq_true, if_false] at hy ⊢
-        by_cases h_block : (name == b "block") = true
-        · simp only [h_block, if_true] at hy ⊢
-          cases xs with
-          | nil =>
-            have hdn : (d.kind != NAME) = true := by simp [hd.endTok.kinds.1]
-            simp only [List.nil_append, hdn, if_true]
-            rfl
-          | cons n xs' =>
-            rw [allK_cons] at hx
-            simp only [List.cons_append] at hy ⊢
-            by_cases hn : (n.kind != NAME) = true
-            · simp only [hn, if_true]; rfl
-            · simp only [hn, Bool.false_eq_true, if_false] at hy ⊢
-              rcases expectK_TS (TS_tail hx.2 hd r) BLOCK_END (by decide)
-                "expected block end token after block name" with ⟨e1, e2⟩ | ⟨e1, e2⟩
-              · rw [e1, e2]; rfl
-              rw [e2] at hy
-              rw [e1, e2]
-              simp only [ok_bind] at hy ⊢
-              refine RelR.bind hy (fun h => ih.outer k r hr hkr h) ?_
-              intro body body' r3 hφ hw3 hp3 hy2
-              rcases expectTag_sim "endblock" "expected endblock" hw3 hp3.1 with ⟨h1, h2⟩ |
-                ⟨xs2, d2, rr, hx2, hd2, hrr, hle2, h1, h2⟩
-              · simp only [h1, h2]; rfl
-              · simp only [h1, h2, ok_bind] at hy2 ⊢
-                have fin : ∀ (u u' : List Token), TS rr (dropEmptyText rr) u u' →
-                    RelR PhiN (fun r2 => extra r2 ≤ extra r)
-                      (expectK BLOCK_END "expected block end token after endblock" u >>= fun r6 =>
-                        pure (Node.block n.val body, r6))
-                      (expectK BLOCK_END "expected block end token after endblock" u' >>= fun r6 =>
-                        pure (Node.block n.val body', r6)) := by
-                  intro u u' hu
-                  rcases expectK_TS hu BLOCK_END (by decide) "expected block end token after endblock" with
-                    ⟨e1, e2⟩ | ⟨e1, e2⟩
-                  · rw [e1, e2]; rfl
-                  · rw [e1, e2]
-                    refine ⟨Node.block n.val body, rr, rfl, ⟨?_, by intro s h; cases h⟩, hrr, rfl,
-                      Nat.le_trans hle2 hp3.2⟩
-                    show Node.block n.val (stripL body) = _
-                    rw [hφ]
-                cases xs2 with
-                | nil =>
-                  have hdn : (d2.kind == NAME) = false := by simp [hd2.endTok.kinds.1]
-                  simp only [List.nil_append, hdn, Bool.false_eq_true, if_false, pure_eq_ok, ok_bind]
-                  exact fin _ _ (TS.end_ hd2.endTok)
-                | cons m xs3 =>
-                  rw [allK_cons] at hx2
-                  simp only [List.cons_append]
-                  by_cases hm : (m.kind == NAME) = true
-                  · simp only [hm, if_true]
-                    by_cases hmv : (m.val == n.val) = true
-                    · simp only [hmv, if_true, pure_eq_ok, ok_bind]
-                      exact fin _ _ (TS_tail hx2.2 hd2 rr)
-                    · simp only [hmv]; rfl
-                  · simp only [hm, Bool.false_eq_true, if_false, pure_eq_ok, ok_bind]
-                    exact fin _ _ (TS.cons hx2.1 (TS_tail hx2.2 hd2 rr))
-        · simp only [h_block, Bool.false_eq_true, if_false] at hy ⊢
-          by_cases h_ext : (name == b "extends") = true
-          · simp only [h_ext, if_true] at hy ⊢
-            refine (peX_end hts hlen BLOCK_END (by decide) _ Node.extends hy).toRelR hr ?_
-            rintro n ⟨e, rfl⟩
-            exact ⟨rfl, by intro s h; cases h⟩
-          · simp only [h_ext, Bool.false_eq_true, if_false] at hy ⊢
-            have hne : ∀ t : String, b t ∈ unsupportedTags → (name == b t) = false := by
-              intro t ht
-              have : name ≠ b t := fun h => hsup (by rw [h]; exact ht)
-              simpa using this
-            have h_inc := hne "include" (by simp [unsupportedTags])
-            have h_mac : (name == b "macro") = false := by simpa using h_mac0
-            have h_imp : (name == b "import") = false := by simpa using h_imp0
-            have h_from : (name == b "from") = false := by simpa using h_from0
-            have h_verb := hne "verbatim" (by simp [unsupportedTags])
-            simp only [h_inc, h_mac, h_imp, h_from, h_verb, Bool.false_eq_true, if_false] at hy ⊢
-            by_cases h_apply : (name == b "apply") = true
-            · simp only [h_apply, if_true] at hy ⊢
-              cases xs with
-              | nil =>
-                have hdn : (d.kind != NAME) = true := by simp [hd.endTok.kinds.1]
-                simp only [List.nil_append, hdn, if_true]
-                rfl
-              | cons n xs' =>
-                rw [allK_cons] at hx
-                simp only [List.cons_append] at hy ⊢
-                by_cases hn : (n.kind != NAME) = true
-                · simp only [hn, if_true]; rfl
-                · simp only [hn, Bool.false_eq_true, if_false] at hy ⊢
-                  refine hdrEnd r hx.2 hd BLOCK_END (by decide) _
-                    (fun r2 => parseOuter (f + k) r2 >>= fun y => expectTag "endapply" "expected endapply tag" y.2 >>= fun r4 =>
-                      expectK BLOCK_END "expected block end token after endapply" r4 >>= fun r5 => pure (Node.apply n.val y.1, r5))
-                    (fun r2 => parseOuter f r2 >>= fun y => expectTag "endapply" "expected endapply tag" y.2 >>= fun r4 =>
-                      expectK BLOCK_END "expected block end token after endapply" r4 >>= fun r5 => pure (Node.apply n.val y.1, r5))
-                    hy ?_
-                  intro hy1
-                  exact bodyEnd ih k r hr hkr _ _ _ (Node.apply n.val)
-                    (fun bd => ⟨rfl, by intro s h; cases h⟩) hy1
-            · simp only [h_apply, Bool.false_eq_true, if_false] at hy ⊢
-              by_cases h_sp : (name == b "spaceless") = true
-              · simp only [h_sp, if_true] at hy ⊢
-                refine hdrEnd r hx hd BLOCK_END (by decide) _
-                  (fun r2 => parseOuter (f + k) r2 >>= fun y => expectTag "endspaceless" "expected endspaceless tag" y.2 >>= fun r4 =>
-                    expectK BLOCK_END "expected block end token after endspaceless" r4 >>= fun r5 => pure (Node.spaceless y.1, r5))
-                  (fun r2 => parseOuter f r2 >>= fun y => expectTag "endspaceless" "expected endspaceless tag" y.2 >>= fun r4 =>
-                    expectK BLOCK_END "expected block end token after endspaceless" r4 >>= fun r5 => pure (Node.spaceless y.1, r5))
-                  hy ?_
-                intro hy1
-                exact bodyEnd ih k r hr hkr _ _ _ Node.spaceless (fun bd => ⟨rfl, by intro s h; cases h⟩) hy1
-              · simp only [h_sp, Bool.false_eq_true, if_false]
-                rfl
-
-
-theorem simAt : ∀ f, SimAt f
-  | 0 => simAt_zero
-  | f+1 => by
-    have ih := simAt f
-    exact ⟨fun k ts hw hk hy => outer_succ f ih ts hw k hk hy,
-      fun k name xs d r hx hd hdk hr hkr hsup hy => tag_succ f ih k name xs d r hx hd hdk hr hkr hsup hy,
-      fun k he ts hw hh hk hy => ifTail_succ f ih k he ts hw hh hk hy⟩
-
-theorem blockNamesL_strip : ∀ (ns : List Node), blockNamesL (stripL ns) = blockNamesL ns
-  | [] => rfl
-  | n :: r => by
-    have ih := blockNamesL_strip r
-    cases n with
-    | text s =>
-      rw [stripL_text]
-      split <;> simp [blockNamesL, blockNames, ih]
-    | ifN c t e =>
-      rw [stripL_cons _ _ (by intro s h; cases h)]
-      simp [stripN, blockNamesL, blockNames, ih, blockNamesL_strip t, blockNamesL_strip e]
-    | forN k v s bd e =>
-      rw [stripL_cons _ _ (by intro s h; cases h)]
-      simp [stripN, blockNamesL, blockNames, ih, blockNamesL_strip bd, blockNamesL_strip e]
-    | block nm bd =>
-      rw [stripL_cons _ _ (by intro s h; cases h)]
-      simp [stripN, blockNamesL, blockNames, ih, blockNamesL_strip bd]
-    | «macro» nm ps dn de bd =>
-      rw [stripL_cons _ _ (by intro s h; cases h)]
-      simp [stripN, blockNamesL, blockNames, ih, blockNamesL_strip bd]
-    | apply fl bd =>
-      rw [stripL_cons _ _ (by intro s h; cases h)]
-      simp [stripN, blockNamesL, blockNames, ih, blockNamesL_strip bd]
-    | spaceless bd =>
-      rw [stripL_cons _ _ (by intro s h; cases h)]
-      simp [stripN, blockNamesL, blockNames, ih, blockNamesL_strip bd]
-    | _ =>
-      rw [stripL_cons _ _ (by intro s h; cases h)]
-      simp [stripN, blockNamesL, blockNames, ih]
-
-theorem extra_eq (ts : List Token) : extra ts + (dropEmptyText ts).length = ts.length := by
-  induction ts with
-  | nil => rfl
-  | cons t r ih =>
-    rw [D_cons]
-    by_cases h : isDrop t = true
-    · simp only [extra, h, if_true, List.length_cons]; omega
-    · simp only [extra, h, List.length_cons]; simp; omega
-
-/-- Parsing is insensitive to empty TEXT tokens at outer positions: if the stream without them parses (or fails
-    with a genuine parse error), the stream with them parses to the same tree up to `.text []` nodes (or fails with
-    the same error). -/
-theorem parseTokens_dropEmptyText (X : List Token) (hw : WFo X) (hy : parseTokens (dropEmptyText X) ≠ fuelErr) :
-    match parseTokens (dropEmptyText X) with
-    | .error e => parseTokens X = .error e
-    | .ok ns' => ∃ ns, parseTokens X = .ok ns ∧ stripL ns = ns' := by
-  unfold parseTokens at hy ⊢
-  have hlen := extra_eq X
-  have hfuel : 4 * X.length + 16 = (4 * (dropEmptyText X).length + 16) + 4 * extra X := by omega
-  have hsim := (simAt (4 * (dropEmptyText X).length + 16)).outer (4 * extra X) X hw (by omega) (bind_ne_fuel hy)
-  rw [← hfuel] at hsim
-  unfold RelR at hsim
-  cases hY : parseOuter (4 * (dropEmptyText X).length + 16) (dropEmptyText X) with
-  | error e => rw [hY] at hsim; simp only at hsim; rw [hsim]; rfl
-  | ok b =>
-    obtain ⟨ns', r'⟩ := b
-    rw [hY] at hsim
-    obtain ⟨ns, r2, hx, hφ, _, _, _⟩ := hsim
-    rw [hx]
-    simp only [ok_bind]
-    have hdup : hasDup (blockNamesL ns) = hasDup (blockNamesL ns') := by
-      rw [← hφ, blockNamesL_strip]
-    rw [hdup]
-    by_cases hdd : hasDup (blockNamesL ns') = true
-    · simp only [hdd, if_true]; rfl
-    · simp only [hdd]; exact ⟨ns, rfl, hφ⟩
-
-
-/-- the tag is not one of the block tags whose handler simulation is missing -/
+/-- the tag is not an `include` / `verbatim` block tag -/
 def tagSupB (t : Tag) : Bool :=
   match t.kind with
   | .block =>
@@ -5277,91 +124,6 @@ def tagSupB (t : Tag) : Bool :=
      | n :: _ => !unsupportedTags.contains n.val
      | [] => true)
   | _ => true
-
-theorem tagSupB_spec {t : Tag} (h : tagSupB t = true) (hk : t.kind = .block) :
-    ∀ n xs', contentTokens .block t.body = n :: xs' → n.val ∉ unsupportedTags := by
-  intro n xs' hc
-  unfold tagSupB at h
-  rw [hk] at h
-  simp only [hc] at h
-  simpa using h
-
-theorem wfo_plain_tokens (t : Tag) (hs : tagSupB t = true) (rest : List Token) (hr : WFo rest) :
-    WFo (t.plain.tokens ++ rest) := by
-  rcases t with ⟨kind, o, body, c⟩
-  cases kind with
-  | comment =>
-    simp only [Tag.plain, Tag.tokens, Tag.opener, Opener.startKind, endKind, contentTokens, List.cons_append,
-      List.append_assoc]
-    refine WFo.comment _ _ (tk COMMENT_END) rest rfl ?_ rfl hr
-    intro x hx
-    by_cases hb : body.isEmpty = true
-    · simp [hb] at hx
-    · simp only [hb, Bool.false_eq_true, if_false, List.mem_singleton] at hx
-      subst hx; simp [tk, TEXT, COMMENT_END]
-  | var =>
-    simp only [Tag.plain, Tag.tokens, Tag.opener, Opener.startKind, endKind, List.cons_append,
-      List.append_assoc]
-    exact WFo.tag _ _ (tk VAR_END) rest (.inl rfl) (contentTokens_kinds (by intro h; cases h) body) (.inl rfl)
-      (by intro h; cases h) (by intro h; cases h) hr
-  | block =>
-    simp only [Tag.plain, Tag.tokens, Tag.opener, Opener.startKind, endKind, List.cons_append,
-      List.append_assoc]
-    refine WFo.tag _ _ (tk BLOCK_END) rest (.inr rfl) (contentTokens_kinds (by intro h; cases h) body) (.inr rfl) ?_ (fun _ => rfl) hr
-    intro _ n xs' hc
-    exact tagSupB_spec hs rfl n xs' hc
-
-theorem wfo_text_opt (l x : Bytes) (rest : List Token) (hr : WFo rest) :
-    WFo ((if l = [] then [] else [(⟨TEXT, x⟩ : Token)]) ++ rest) := by
-  split
-  · exact hr
-  · exact WFo.text _ _ rfl hr
-
-/-- the stream the parser sees for a template spelled as chunks and (supported) tags is well formed -/
-theorem wfo_stream (last : Bytes) : ∀ (ps : List (Bytes × Tag)) (tn : Bool), (∀ lt ∈ ps, tagSupB lt.2 = true) →
-    WFo (normalise (applyWsAux tn (expected ps last)))
-  | [], tn, _ => by
-    simp only [expected]
-    by_cases hl : last = []
-    · subst hl
-      exact WFo.eof _ _ rfl
-    · rw [textTok_ne hl, List.singleton_append, applyWsAux_text _ _ _ rfl]
-      exact WFo.text _ _ rfl (WFo.eof _ _ rfl)
-  | (l, t) :: ps, tn, h => by
-    simp only [expected]
-    rw [normalise_step, List.append_assoc]
-    exact wfo_text_opt _ _ _ (wfo_plain_tokens t (h (l, t) (by simp)) _
-      (wfo_stream last ps _ (fun lt hm => h lt (by simp [hm]))))
-
-theorem parseTemplate_tokens {s : Bytes} {ts : List Token} (h : tokenize s = .ok ts) :
-    parseTemplate s = parseTokens ts := by
-  unfold parseTemplate parseTokens
-  rw [h]
-
-
-/-- the token streams of the dashed and of the hand-trimmed template (no hypothesis on which chunks survive) -/
-theorem tokenize_dashed (ps : List (Bytes × Tag)) (last : Bytes)
-    (hwf : ∀ lt ∈ ps, WfTag lt.2 ∧ WfTag lt.2.plain)
-    (hlit : ∀ lt ∈ undashPairs false ps, Lit lt.1)
-    (hlast : NoOpener (undashLast false ps last)) :
-    tokenize (spell ps last) = .ok (normalise (applyWs (expected ps last))) ∧
-    tokenize (spell (undashPairs false ps) (undashLast false ps last)) =
-      .ok (expected (undashPairs false ps) (undashLast false ps last)) ∧
-    dropEmptyText (normalise (applyWs (expected ps last))) =
-      expected (undashPairs false ps) (undashLast false ps last) := by
-  have h1 : scanOpt (spell ps last) = .ok (expected ps last) :=
-    scanOpt_chunks ps last
-      (fun lt hm => ⟨lit_of_undash false ps hlit lt hm, (hwf lt hm).1⟩)
-      (noOpener_of_ltIf hlast)
-  have h2 : scanOpt (spell (undashPairs false ps) (undashLast false ps last)) =
-      .ok (expected (undashPairs false ps) (undashLast false ps last)) :=
-    scanOpt_chunks _ _
-      (fun lt hm => ⟨hlit lt hm, wf_of_undash false ps (fun x hx => (hwf x hx).2) lt hm⟩) hlast
-  refine ⟨?_, ?_, ?_⟩
-  · simp only [tokenize, scan_eq_scanOpt, h1]
-  · simp only [tokenize, scan_eq_scanOpt, h2, applyWs]
-    rw [plain_stream _ _ (undashPairs_plain false ps)]
-  · exact canon_expected false ps last
 
 end Lift
 end Twig
